@@ -16,7 +16,7 @@ CONSTANTS Threads,     \* caller thread names (strings)
           PoolNames,   \* sequence of pool thread names in spawn order
           Prog,        \* thread -> sequence of op ids
           MaxDW,       \* number of DrainWaker instances available
-          FixD1, FixD2, FixD3, FixD6
+          FixD1, FixD2, FixD3, FixD5, FixD6
 
 PoolSet == {PoolNames[i] : i \in 1..Len(PoolNames)}
 Procs   == Threads \cup PoolSet
@@ -28,11 +28,16 @@ WT(q, t)   == [k |-> "WT",   q |-> q, t |-> t,  d |-> 0]
 DW(d)      == [k |-> "DW",   q |-> 0, t |-> "", d |-> d]
 DBL(d)     == [k |-> "DBL",  q |-> 0, t |-> "", d |-> d]
 TASK(t)    == [k |-> "TASK", q |-> 0, t |-> t,  d |-> 0]
-IsLocking(w) == w.k \in {"WQ", "WT", "DW", "DBL"}
+PW(j)      == [k |-> "PW",   q |-> 0, t |-> "", d |-> j]
+IsLocking(w) == w.k \in {"WQ", "WT", "DW", "DBL", "PW"}
 
 Waiting == {"WaitingForWake", "WaitingForPoll", "WaitingForUnpark"}
 RunningStates == {"Running", "AwokenWhileRunning", "WaitingForPoll", "WaitingForUnpark"}
 
+Chute  == NObj + 1        \* the queue of pipe.rs' REFERENCE_CHUTE
+QObjs  == 1..(NObj + 1)
+PollJobs(p) == {j \in Ops : K(j) = "pipepoll" /\ OpTab[j].p = p}
+ChuteJob(p, kind) == CHOOSE j \in Ops : K(j) = kind /\ OpTab[j].p = p
 Body(op) == OpTab[op].body
 Aw(op)   == OpTab[op].aw
 
@@ -41,10 +46,10 @@ FutKinds == {"fdesync", "after"}
 
 (* --algorithm Desync {
 variables
-  qstate = [q \in Objs |-> "Idle"],
-  qpoll  = [q \in Objs |-> 0],
-  jobs   = [q \in Objs |-> << >>],
-  wakeBlocked = [q \in Objs |-> << >>],
+  qstate = [q \in QObjs |-> "Idle"],
+  qpoll  = [q \in QObjs |-> 0],
+  jobs   = [q \in QObjs |-> << >>],
+  wakeBlocked = [q \in QObjs |-> << >>],
   schedule = << >>,
   pthreads = << >>,
   nspawned = 0,
@@ -86,6 +91,24 @@ variables
   rwb = [t \in Procs |-> << >>],
   rneed = [t \in Procs |-> FALSE],
   dsl = [t \in Procs |-> << >>],
+  atomic = [t \in Procs |-> FALSE],
+  strong = [o \in Objs |-> 1],
+  ppPending = [p \in Pipes |-> << >>],
+  ppClosed = [p \in Pipes |-> FALSE],
+  ppNotify = [p \in Pipes |-> NoW],
+  ppNC = [p \in Pipes |-> NoW],
+  ppBP = [p \in Pipes |-> NoW],
+  ppDepth = [p \in Pipes |-> 5],
+  ppAlive = [p \in Pipes |-> FALSE],
+  ppHeld = [p \in Pipes |-> 0],
+  inItems = [p \in Pipes |-> << >>],
+  inClosed = [p \in Pipes |-> FALSE],
+  inWaker = [p \in Pipes |-> NoW],
+  pollFn = [p \in Pipes |-> FALSE],
+  chuteFn = [p \in Pipes |-> FALSE],
+  pwTaken = [j \in Ops |-> FALSE],
+  nextPoll = [p \in Pipes |-> 1],
+  ppItem = [j \in Ops |-> 0],
   h = InitH;
 
 define {
@@ -111,6 +134,14 @@ define {
   \* the condition variable of a blocked sync caller is alive while the caller (or a notifier that upgraded its weak reference) holds it
   CvAlive(c) == cvHeld[c] \/ \E t \in Procs : c \in SeqSet(rwb[t])
   LiveWaiters(q) == SelectSeq(wakeBlocked[q], CvAlive)
+  NewPoll(p) == CHOOSE j \in PollJobs(p) : OpTab[j].n = nextPoll[p]
+  CoreAlive(p) == ppAlive[p] \/ ppHeld[p] > 0
+  \* the PipeContext (and with it the poll function: input stream + closure) is kept alive by untaken PipeWakers that something still
+  \* holds (the input stream, or the stream core while that is alive) and by poll jobs that have not finished
+  HoldsCtx(w) == w.k = "PW" /\ ~pwTaken[w.d]
+  CtxAlive(p) == \/ HoldsCtx(inWaker[p])
+                 \/ (CoreAlive(p) /\ (HoldsCtx(ppNC[p]) \/ HoldsCtx(ppBP[p])))
+                 \/ \E j \in PollJobs(p) : jkind[j] = "fut" /\ fres[j] = "none"
 }
 
 \* ---- core.schedule_thread
@@ -186,7 +217,7 @@ z_sj_ret:
 
 \* ---- Waker::wake for the wakers that take a lock
 procedure Wake(ww) {
-wk_lock:     \* [core] WakeQueue / WakeThread, [dw] DrainWaker, [dbl] DoubleWaker
+wk_lock:     \* [core] WakeQueue / WakeThread, [dw] DrainWaker, [dbl] DoubleWaker, [pwaker] PipeWaker
   if (ww.k = "WT") {
     if (qstate[ww.q] = "WaitingForWake") { qstate[ww.q] := "Idle"; }
     else if (qstate[ww.q] = "WaitingForUnpark") { qstate[ww.q] := "Running"; }
@@ -200,6 +231,19 @@ wk_lock:     \* [core] WakeQueue / WakeThread, [dw] DrainWaker, [dbl] DoubleWake
       else if (qstate[ww.q] = "Running") { qstate[ww.q] := "AwokenWhileRunning"; };
       call Reschedule(ww.q);
       goto z_wk_ret;
+    }
+  } else if (ww.k = "PW") {
+    \* PipeWaker: one-shot; schedules a poll job on the target (weak reference) or disposes of the poll function
+    if (pwTaken[ww.d]) { return; }
+    else {
+      pwTaken[ww.d] := TRUE;
+      if (strong[O(ww.d)] > 0) {
+        strong[O(ww.d)] := strong[O(ww.d)] + 1;
+        jkind[NewPoll(OpTab[ww.d].p)] := "fut";
+        nextPoll[OpTab[ww.d].p] := nextPoll[OpTab[ww.d].p] + 1;
+        call ScheduleJob(O(ww.d), NewPoll(OpTab[ww.d].p));
+        goto z_pw_after;
+      } else { goto pw_take; }
     }
   } else if (ww.k = "DW") {
     if (dwSt[ww.d] = "Will") {
@@ -217,6 +261,16 @@ wk_lock:     \* [core] WakeQueue / WakeThread, [dw] DrainWaker, [dbl] DoubleWake
 z_wk_second:
   if (IsLocking(dblW2[ww.d])) { call Wake(dblW2[ww.d]); return; }
   else { parkTok := Unpark(parkTok, TaskOf(dblW2[ww.d])); return; };
+z_pw_after:  \* the temporary strong reference of PipeContext::poll is released (it may be the last one)
+  strong[O(ww.d)] := strong[O(ww.d)] - 1;
+  if (strong[O(ww.d)] = 1 - 1) { call Sync(O(ww.d), ChuteJob(OpTab[ww.d].p, "pipe_free")); goto z_wk_ret; }
+  else { return; };
+pw_take:     \* [pipe] the Desync is gone: the poll function is taken and dropped on the reference chute
+  chuteFn[OpTab[ww.d].p] := pollFn[OpTab[ww.d].p];
+  pollFn[OpTab[ww.d].p] := FALSE;
+  jkind[ChuteJob(OpTab[ww.d].p, "chute_dropfn")] := "plain";
+  call ScheduleJob(Chute, ChuteJob(OpTab[ww.d].p, "chute_dropfn"));
+  goto z_wk_ret;
 z_wk_ret:    \* (not a tail call: PlusCal does not restore the parameters of a recursive procedure across a tail call to another procedure)
   return;
 }
@@ -269,7 +323,26 @@ rb_block:    \* [park] body blocks its thread until the gate fires
   goto z_finish;
 z_dispatch:
   if (K(bcur) = "desync") { jkind[bcur] := "plain"; call ScheduleJob(O(bcur), bcur); goto rb_step; }
-  else if (K(bcur) \in {"sync", "drop_obj"}) { call Sync(O(bcur), bcur); goto rb_step; }
+  else if (K(bcur) = "sync") { call Sync(O(bcur), bcur); goto rb_step; }
+  else if (K(bcur) = "drop_obj") {
+    strong[O(bcur)] := strong[O(bcur)] - 1;
+    if (strong[O(bcur)] = 1 - 1) { call Sync(O(bcur), bcur); goto rb_step; }
+    else { rv[self] := 0; goto rb_step; }
+  }
+  else if (K(bcur) \in {"pipe", "pipe_in"}) { call PipeCreate(bcur); goto rb_step; }
+  else if (K(bcur) \in {"send", "close_input"}) {
+    h := IF K(bcur) = "send" THEN ObsSent(h, OpTab[bcur].p, OpTab[bcur].n) ELSE ObsInClosed(h, OpTab[bcur].p);
+    if (K(bcur) = "send") { inItems[OpTab[bcur].p] := Append(inItems[OpTab[bcur].p], OpTab[bcur].n); }
+    else { inClosed[OpTab[bcur].p] := TRUE; };
+    bw := inWaker[OpTab[bcur].p];
+    inWaker[OpTab[bcur].p] := NoW;
+    rv[self] := 0;
+    if (IsLocking(bw)) { call Wake(bw); goto rb_step; }
+    else { goto rb_step; }
+  }
+  else if (K(bcur) = "next") { call PipeNext(OpTab[bcur].p); goto rb_step; }
+  else if (K(bcur) = "drop_stream") { h := PFlag(h, OpTab[bcur].p, "stream_dropped"); call PipeDrop(OpTab[bcur].p); goto rb_step; }
+  else if (K(bcur) = "set_depth") { goto pp_setdepth; }
   else if (K(bcur) = "try_sync") { call TrySync(O(bcur), bcur); goto rb_step; }
   else if (K(bcur) \in {"fdesync", "after"}) { jkind[bcur] := "fut"; call ScheduleJob(O(bcur), bcur); goto z_then; }
   else if (K(bcur) = "suspend") { jkind[bcur] := "susp"; call ScheduleJob(O(bcur), bcur); goto z_then; }
@@ -301,6 +374,10 @@ z_then:
 z_polled:
   if (rv[self] \in {0, 3, 4}) { h := ObsResolved(h, self, OpTab[bcur].f, rv[self]); };
   goto rb_step;
+pp_setdepth: \* [pcore]
+  ppDepth[OpTab[bcur].p] := OpTab[bcur].n;
+  rv[self] := 0;
+  goto rb_step;
 mx_set:      \* [maxt] verif_set_max_threads
   maxThreads := OpTab[bcur].n;
   h := ObsSetMax(h, OpTab[bcur].n);
@@ -321,7 +398,23 @@ z_rj:
     if (OpTab[jj].g \in gfired) { h := ObsStart(h, self, jj); call RunOps(Body(jj), jj, jwk); goto z_rj_ret; }
     else { gwaker[OpTab[jj].g] := jwk; rv[self] := 5; return; }
   }
-  else if (K(jj) = "drop_obj") {
+  else if (K(jj) \in {"pipe", "pipe_in"}) {
+    \* the empty closure of the sync() that ends pipe()/pipe_in()
+    if (jkind[jj] = "syncdrain") { sdres[jj] := TRUE; };
+    rv[self] := 0; return;
+  }
+  else if (K(jj) = "pipepoll") { call PipePoll(jj, OpTab[jj].p); goto z_pp_gc; }
+  else if (K(jj) = "chute_dropfn") {
+    if (chuteFn[OpTab[jj].p]) { h := PFlag(PFlag(h, OpTab[jj].p, "in_dropped"), OpTab[jj].p, "closure_dropped"); chuteFn[OpTab[jj].p] := FALSE; };
+    rv[self] := 0; return;
+  }
+  else if (K(jj) = "chute_release") {
+    \* the closure that releases the pipe's strong reference to its Desync (it may be the last one)
+    strong[O(PipeOp(OpTab[jj].p))] := strong[O(PipeOp(OpTab[jj].p))] - 1;
+    if (strong[O(PipeOp(OpTab[jj].p))] = 1 - 1) { call Sync(O(PipeOp(OpTab[jj].p)), ChuteJob(OpTab[jj].p, "pipe_free")); goto z_rj_ok; }
+    else { rv[self] := 0; return; }
+  }
+  else if (K(jj) \in {"drop_obj", "pipe_free"}) {
     h := ObsFreed(h, O(jj));
     if (jkind[jj] = "syncdrain") { sdres[jj] := TRUE; };
     rv[self] := 0; return;
@@ -342,6 +435,17 @@ z_rj:
     else { gwaker[OpTab[jj].g] := jwk; rv[self] := 5; return; }
   };
 z_rj_ret:
+  return;
+z_rj_ok:
+  rv[self] := 0;
+  return;
+z_pp_gc:     \* a finished poll job may have held the last reference to the stream core / the pipe's context
+  if (pollFn[OpTab[jj].p] /\ rv[self] = 0 /\ ~(\/ HoldsCtx(inWaker[OpTab[jj].p])
+                                               \/ (CoreAlive(OpTab[jj].p) /\ (HoldsCtx(ppNC[OpTab[jj].p]) \/ HoldsCtx(ppBP[OpTab[jj].p])))
+                                               \/ \E j \in PollJobs(OpTab[jj].p) \ {jj} : jkind[j] = "fut" /\ fres[j] = "none")) {
+    pollFn[OpTab[jj].p] := FALSE;
+    h := PFlag(PFlag(h, OpTab[jj].p, "in_dropped"), OpTab[jj].p, "closure_dropped");
+  };
   return;
 z_slot2:
   if (dnState[jj] # "open") { rv[self] := 0; return; }
@@ -492,7 +596,7 @@ sb_push:     \* [core]
   jobs[yq] := Append(jobs[yq], yop);
   if (qstate[yq] = "Idle") { call Reschedule(yq); };
 sb_lock:     \* [ready]
-  if (ready[yop]) { goto sb_fin; }
+  if (ready[yop]) { cvHeld[yop] := FALSE; goto sb_fin; }
   else if (FixD3 /\ Claimable(yq)) {
     \* repaired code: the queue is claimed with the 'ready' lock held, before waiting
     qstate[yq] := "Running";
@@ -517,7 +621,7 @@ z_sb_chk:
 sb_wait:     \* [wait]
   await cnotif[yop];
   h := ObsBlocked(h, self);
-  if (ready[yop]) { cwait[yop] := FALSE; cnotif[yop] := FALSE; goto sb_fin; }
+  if (ready[yop]) { cwait[yop] := FALSE; cnotif[yop] := FALSE; cvHeld[yop] := FALSE; goto sb_fin; }
   else if (~FixD3) { cwait[yop] := FALSE; cnotif[yop] := FALSE; goto sb_claim; }
   else if (Claimable(yq)) {
     cwait[yop] := FALSE; cnotif[yop] := FALSE;
@@ -526,8 +630,7 @@ sb_wait:     \* [wait]
     goto sb_chk;
   }
   else { cnotif[yop] := FALSE; goto sb_wait; };
-sb_fin:      \* [core]
-  cvHeld[yop] := FALSE;
+sb_fin:      \* [core] (the caller's own reference to the condition variable was dropped before this lock is taken)
   wakeBlocked[yq] := SelectSeq(wakeBlocked[yq], LAMBDA x : (x # yop /\ CvAlive(x)) \/ (x = yop /\ \E t \in Procs : yop \in SeqSet(rwb[t])));
   rv[self] := 0;
   return;
@@ -646,6 +749,117 @@ z_df:
   };
 z_df2:
   rv[self] := 0;
+  return;
+}
+
+\* ---- pipe() / pipe_in(): the first poll job is scheduled, then an empty sync() waits for it
+procedure PipeCreate(cop) {
+z_pcr1:
+  pollFn[OpTab[cop].p] := TRUE;
+  strong[O(cop)] := strong[O(cop)] + (IF K(cop) = "pipe" THEN 2 ELSE 1);
+  ppAlive[OpTab[cop].p] := (K(cop) = "pipe");
+  jkind[NewPoll(OpTab[cop].p)] := "fut";
+  nextPoll[OpTab[cop].p] := nextPoll[OpTab[cop].p] + 1;
+  call ScheduleJob(O(cop), NewPoll(OpTab[cop].p));
+z_pcr2:
+  strong[O(cop)] := strong[O(cop)] - 1;
+  call Sync(O(cop), cop);
+z_pcr3:
+  return;
+}
+
+\* ---- the poll job of a pipe: PipeContext::poll's future_desync job running the poll function
+procedure PipePoll(kj, pp) {
+pp_fn:       \* [pipe] lock the poll function
+  if (~pollFn[pp]) { rv[self] := 0; return; }
+  else if (K(PipeOp(pp)) = "pipe_in") { goto pi_in; }
+  else if (~CoreAlive(pp)) { goto pp_dealloc; }
+  else { ppHeld[pp] := ppHeld[pp] + 1; };
+pp_bp:       \* [pcore] back-pressure / closed check
+  if (Len(ppPending[pp]) >= ppDepth[pp]) { ppBP[pp] := PW(kj); ppHeld[pp] := ppHeld[pp] - 1; rv[self] := 0; return; }
+  else if (ppClosed[pp]) { goto pp_closed; };
+pp_clear:    \* [pcore] clear the stream-closed notifier (repaired code: stop if the output stream was dropped meanwhile)
+  if (FixD5 /\ ppClosed[pp]) { ppHeld[pp] := ppHeld[pp] - 1; goto pp_dealloc; }
+  else { ppNC[pp] := NoW; };
+pp_in:       \* [pipe] poll the input stream
+  if (inItems[pp] # << >>) { ppItem[kj] := Head(inItems[pp]); inItems[pp] := Tail(inItems[pp]); goto pp_proc; }
+  else if (inClosed[pp]) { h := PFlag(h, pp, "in_end"); goto pp_end; }
+  else { inWaker[pp] := PW(kj); };
+pp_reg:      \* [pcore] register to be woken when the output stream is dropped
+  if (FixD5 /\ ppClosed[pp]) { ppHeld[pp] := ppHeld[pp] - 1; goto pp_dealloc; }
+  else {
+    ppNC[pp] := PW(kj);
+    ppHeld[pp] := ppHeld[pp] - 1;
+    rv[self] := 0;
+    return;
+  };
+pp_end:      \* [pcore] the input has ended
+  ppClosed[pp] := TRUE;
+  parkTok := Unpark(parkTok, TaskOf(ppNotify[pp]));
+  ppNotify[pp] := NoW;
+  ppHeld[pp] := ppHeld[pp] - 1;
+  goto pp_dealloc;
+pp_closed:   \* [pcore] the output stream was closed
+  parkTok := Unpark(parkTok, TaskOf(ppNotify[pp]));
+  ppNotify[pp] := NoW;
+  ppHeld[pp] := ppHeld[pp] - 1;
+  goto pp_dealloc;
+pp_proc:     \* [pipe] lock the processing function and call it
+  h := ObsProcStart(h, self, pp, ppItem[kj]);
+pp_body:     \* [body]
+  h := ObsProcEnd(h, self, pp, ppItem[kj]);
+  if (K(PipeOp(pp)) = "pipe_in") { goto pi_in; };
+pp_push:     \* [pcore] push the output and wake the consumer
+  ppPending[pp] := Append(ppPending[pp], 10 * ppItem[kj]);
+  parkTok := Unpark(parkTok, TaskOf(ppNotify[pp]));
+  ppNotify[pp] := NoW;
+  goto pp_clear;
+pi_in:       \* [pipe] pipe_in: poll the input stream
+  if (inItems[pp] # << >>) { ppItem[kj] := Head(inItems[pp]); inItems[pp] := Tail(inItems[pp]); goto pp_proc; }
+  else if (inClosed[pp]) { h := PFlag(h, pp, "in_end"); goto pp_dealloc; }
+  else { inWaker[pp] := PW(kj); rv[self] := 0; return; };
+pp_dealloc:  \* [pipe] stop polling: the poll function (input stream and closure) is dropped
+  if (pollFn[pp]) { h := PFlag(PFlag(h, pp, "in_dropped"), pp, "closure_dropped"); };
+  pollFn[pp] := FALSE;
+  rv[self] := 0;
+  return;
+}
+
+\* ---- PipeStream::poll_next driven by block_on
+procedure PipeNext(np)
+  variables nbp = NoW; {
+cn_poll:     \* [pcore]
+  nbp := ppBP[np];
+  ppBP[np] := NoW;
+  if (ppPending[np] # << >>) { h := ObsOut(h, np, Head(ppPending[np])); ppPending[np] := Tail(ppPending[np]); rv[self] := 0; }
+  else if (ppClosed[np]) { h := ObsOutEnd(h, np); rv[self] := 0; }
+  else { ppNotify[np] := TASK(self); rv[self] := 5; };
+  if (IsLocking(nbp)) { call Wake(nbp); };
+z_cn_after:
+  if (rv[self] = 5) { goto cn_park; } else { return; };
+cn_park:     \* [park]
+  await parkTok[self];
+  parkTok[self] := FALSE;
+  goto cn_poll;
+}
+
+\* ---- PipeStream::drop: everything happens while the stream core is locked, so it is one step
+procedure PipeDrop(dp) {
+ps_drop:     \* [pcore]
+  ppPending[dp] := << >>;
+  ppClosed[dp] := TRUE;
+  atomic[self] := TRUE;
+  if (IsLocking(ppNC[dp])) { call Wake(ppNC[dp]); };
+z_ps2:
+  ppNC[dp] := NoW;
+  jkind[ChuteJob(dp, "chute_release")] := "plain";
+  call ScheduleJob(Chute, ChuteJob(dp, "chute_release"));
+z_ps3:
+  atomic[self] := FALSE;
+  ppAlive[dp] := FALSE;
+  rv[self] := 0;
+z_ps_gc:     \* the stream core may have been the last thing keeping the pipe's context alive
+  if (pollFn[dp] /\ ~CtxAlive(dp)) { pollFn[dp] := FALSE; h := PFlag(PFlag(h, dp, "in_dropped"), dp, "closure_dropped"); };
   return;
 }
 
@@ -770,7 +984,10 @@ VARIABLES pc, qstate, qpoll, jobs, wakeBlocked, schedule, pthreads, nspawned,
           maxThreads, jkind, jaw, fres, fwaker, gfired, gwaker, gthreads, 
           dwSt, dwW, dblTaken, dblW1, dblW2, nextDW, ready, cwait, cnotif, 
           cvHeld, sdres, jpanic, sfst, slotSt, qrSent, qrWaker, dnState, 
-          dnWaker, parkTok, rv, rwb, rneed, dsl, h, stack
+          dnWaker, parkTok, rv, rwb, rneed, dsl, atomic, strong, ppPending, 
+          ppClosed, ppNotify, ppNC, ppBP, ppDepth, ppAlive, ppHeld, inItems, 
+          inClosed, inWaker, pollFn, chuteFn, pwTaken, nextPoll, ppItem, h, 
+          stack
 
 (* define statement *)
 RECURSIVE NTR(_)
@@ -795,28 +1012,39 @@ Claimable(q) == qstate[q] \in {"Pending", "Idle"}
 
 CvAlive(c) == cvHeld[c] \/ \E t \in Procs : c \in SeqSet(rwb[t])
 LiveWaiters(q) == SelectSeq(wakeBlocked[q], CvAlive)
+NewPoll(p) == CHOOSE j \in PollJobs(p) : OpTab[j].n = nextPoll[p]
+CoreAlive(p) == ppAlive[p] \/ ppHeld[p] > 0
+
+
+HoldsCtx(w) == w.k = "PW" /\ ~pwTaken[w.d]
+CtxAlive(p) == \/ HoldsCtx(inWaker[p])
+               \/ (CoreAlive(p) /\ (HoldsCtx(ppNC[p]) \/ HoldsCtx(ppBP[p])))
+               \/ \E j \in PollJobs(p) : jkind[j] = "fut" /\ fres[j] = "none"
 
 VARIABLES dead, sti, rq, sq, sj, ww, rsq, bown, bwk, bi, bcur, bw, jq, jj, 
           jwk, fj, dq, dj, oq, oop, omode, oj, yq, yop, tq, top, af, wf, wop, 
-          sf, sctx, xf, pf, pctx, pq, pj, pd, nq
+          sf, sctx, xf, cop, kj, pp, np, nbp, dp, pf, pctx, pq, pj, pd, nq
 
 vars == << pc, qstate, qpoll, jobs, wakeBlocked, schedule, pthreads, nspawned, 
            palive, busy, busyLocked, inbox, chanOpen, pfin, thrHeld, 
            maxThreads, jkind, jaw, fres, fwaker, gfired, gwaker, gthreads, 
            dwSt, dwW, dblTaken, dblW1, dblW2, nextDW, ready, cwait, cnotif, 
            cvHeld, sdres, jpanic, sfst, slotSt, qrSent, qrWaker, dnState, 
-           dnWaker, parkTok, rv, rwb, rneed, dsl, h, stack, dead, sti, rq, sq, 
-           sj, ww, rsq, bown, bwk, bi, bcur, bw, jq, jj, jwk, fj, dq, dj, oq, 
-           oop, omode, oj, yq, yop, tq, top, af, wf, wop, sf, sctx, xf, pf, 
-           pctx, pq, pj, pd, nq >>
+           dnWaker, parkTok, rv, rwb, rneed, dsl, atomic, strong, ppPending, 
+           ppClosed, ppNotify, ppNC, ppBP, ppDepth, ppAlive, ppHeld, inItems, 
+           inClosed, inWaker, pollFn, chuteFn, pwTaken, nextPoll, ppItem, h, 
+           stack, dead, sti, rq, sq, sj, ww, rsq, bown, bwk, bi, bcur, bw, jq, 
+           jj, jwk, fj, dq, dj, oq, oop, omode, oj, yq, yop, tq, top, af, wf, 
+           wop, sf, sctx, xf, cop, kj, pp, np, nbp, dp, pf, pctx, pq, pj, pd, 
+           nq >>
 
 ProcSet == (Threads) \cup (PoolSet)
 
 Init == (* Global variables *)
-        /\ qstate = [q \in Objs |-> "Idle"]
-        /\ qpoll = [q \in Objs |-> 0]
-        /\ jobs = [q \in Objs |-> << >>]
-        /\ wakeBlocked = [q \in Objs |-> << >>]
+        /\ qstate = [q \in QObjs |-> "Idle"]
+        /\ qpoll = [q \in QObjs |-> 0]
+        /\ jobs = [q \in QObjs |-> << >>]
+        /\ wakeBlocked = [q \in QObjs |-> << >>]
         /\ schedule = << >>
         /\ pthreads = << >>
         /\ nspawned = 0
@@ -858,6 +1086,24 @@ Init == (* Global variables *)
         /\ rwb = [t \in Procs |-> << >>]
         /\ rneed = [t \in Procs |-> FALSE]
         /\ dsl = [t \in Procs |-> << >>]
+        /\ atomic = [t \in Procs |-> FALSE]
+        /\ strong = [o \in Objs |-> 1]
+        /\ ppPending = [p \in Pipes |-> << >>]
+        /\ ppClosed = [p \in Pipes |-> FALSE]
+        /\ ppNotify = [p \in Pipes |-> NoW]
+        /\ ppNC = [p \in Pipes |-> NoW]
+        /\ ppBP = [p \in Pipes |-> NoW]
+        /\ ppDepth = [p \in Pipes |-> 5]
+        /\ ppAlive = [p \in Pipes |-> FALSE]
+        /\ ppHeld = [p \in Pipes |-> 0]
+        /\ inItems = [p \in Pipes |-> << >>]
+        /\ inClosed = [p \in Pipes |-> FALSE]
+        /\ inWaker = [p \in Pipes |-> NoW]
+        /\ pollFn = [p \in Pipes |-> FALSE]
+        /\ chuteFn = [p \in Pipes |-> FALSE]
+        /\ pwTaken = [j \in Ops |-> FALSE]
+        /\ nextPoll = [p \in Pipes |-> 1]
+        /\ ppItem = [j \in Ops |-> 0]
         /\ h = InitH
         (* Procedure ScheduleThread *)
         /\ dead = [ self \in ProcSet |-> << >>]
@@ -906,6 +1152,16 @@ Init == (* Global variables *)
         /\ sctx = [ self \in ProcSet |-> defaultInitValue]
         (* Procedure DropFuture *)
         /\ xf = [ self \in ProcSet |-> defaultInitValue]
+        (* Procedure PipeCreate *)
+        /\ cop = [ self \in ProcSet |-> defaultInitValue]
+        (* Procedure PipePoll *)
+        /\ kj = [ self \in ProcSet |-> defaultInitValue]
+        /\ pp = [ self \in ProcSet |-> defaultInitValue]
+        (* Procedure PipeNext *)
+        /\ np = [ self \in ProcSet |-> defaultInitValue]
+        /\ nbp = [ self \in ProcSet |-> NoW]
+        (* Procedure PipeDrop *)
+        /\ dp = [ self \in ProcSet |-> defaultInitValue]
         (* Procedure PollFuture *)
         /\ pf = [ self \in ProcSet |-> defaultInitValue]
         /\ pctx = [ self \in ProcSet |-> defaultInitValue]
@@ -932,11 +1188,15 @@ st_reap(self) == /\ pc[self] = "st_reap"
                                  dwSt, dwW, dblTaken, dblW1, dblW2, nextDW, 
                                  ready, cwait, cnotif, cvHeld, sdres, jpanic, 
                                  sfst, slotSt, qrSent, qrWaker, dnState, 
-                                 dnWaker, parkTok, rv, rwb, rneed, dsl, h, 
-                                 stack, sti, rq, sq, sj, ww, rsq, bown, bwk, 
-                                 bi, bcur, bw, jq, jj, jwk, fj, dq, dj, oq, 
-                                 oop, omode, oj, yq, yop, tq, top, af, wf, wop, 
-                                 sf, sctx, xf, pf, pctx, pq, pj, pd, nq >>
+                                 dnWaker, parkTok, rv, rwb, rneed, dsl, atomic, 
+                                 strong, ppPending, ppClosed, ppNotify, ppNC, 
+                                 ppBP, ppDepth, ppAlive, ppHeld, inItems, 
+                                 inClosed, inWaker, pollFn, chuteFn, pwTaken, 
+                                 nextPoll, ppItem, h, stack, sti, rq, sq, sj, 
+                                 ww, rsq, bown, bwk, bi, bcur, bw, jq, jj, jwk, 
+                                 fj, dq, dj, oq, oop, omode, oj, yq, yop, tq, 
+                                 top, af, wf, wop, sf, sctx, xf, cop, kj, pp, 
+                                 np, nbp, dp, pf, pctx, pq, pj, pd, nq >>
 
 st_join(self) == /\ pc[self] = "st_join"
                  /\ dead' = [dead EXCEPT ![self] = Tail(dead[self])]
@@ -952,10 +1212,15 @@ st_join(self) == /\ pc[self] = "st_join"
                                  nextDW, ready, cwait, cnotif, cvHeld, sdres, 
                                  jpanic, sfst, slotSt, qrSent, qrWaker, 
                                  dnState, dnWaker, parkTok, rv, rwb, rneed, 
-                                 dsl, stack, sti, rq, sq, sj, ww, rsq, bown, 
-                                 bwk, bi, bcur, bw, jq, jj, jwk, fj, dq, dj, 
-                                 oq, oop, omode, oj, yq, yop, tq, top, af, wf, 
-                                 wop, sf, sctx, xf, pf, pctx, pq, pj, pd, nq >>
+                                 dsl, atomic, strong, ppPending, ppClosed, 
+                                 ppNotify, ppNC, ppBP, ppDepth, ppAlive, 
+                                 ppHeld, inItems, inClosed, inWaker, pollFn, 
+                                 chuteFn, pwTaken, nextPoll, ppItem, stack, 
+                                 sti, rq, sq, sj, ww, rsq, bown, bwk, bi, bcur, 
+                                 bw, jq, jj, jwk, fj, dq, dj, oq, oop, omode, 
+                                 oj, yq, yop, tq, top, af, wf, wop, sf, sctx, 
+                                 xf, cop, kj, pp, np, nbp, dp, pf, pctx, pq, 
+                                 pj, pd, nq >>
 
 st_dormant(self) == /\ pc[self] = "st_dormant"
                     /\ (thrHeld = "" \/ thrHeld = self) /\ (thrHeld = self => ~busyLocked[pthreads[sti[self]]])
@@ -984,10 +1249,15 @@ st_dormant(self) == /\ pc[self] = "st_dormant"
                                     ready, cwait, cnotif, cvHeld, sdres, 
                                     jpanic, sfst, slotSt, qrSent, qrWaker, 
                                     dnState, dnWaker, parkTok, rv, rwb, rneed, 
-                                    dsl, h, rq, sq, sj, ww, rsq, bown, bwk, bi, 
-                                    bcur, bw, jq, jj, jwk, fj, dq, dj, oq, oop, 
-                                    omode, oj, yq, yop, tq, top, af, wf, wop, 
-                                    sf, sctx, xf, pf, pctx, pq, pj, pd, nq >>
+                                    dsl, atomic, strong, ppPending, ppClosed, 
+                                    ppNotify, ppNC, ppBP, ppDepth, ppAlive, 
+                                    ppHeld, inItems, inClosed, inWaker, pollFn, 
+                                    chuteFn, pwTaken, nextPoll, ppItem, h, rq, 
+                                    sq, sj, ww, rsq, bown, bwk, bi, bcur, bw, 
+                                    jq, jj, jwk, fj, dq, dj, oq, oop, omode, 
+                                    oj, yq, yop, tq, top, af, wf, wop, sf, 
+                                    sctx, xf, cop, kj, pp, np, nbp, dp, pf, 
+                                    pctx, pq, pj, pd, nq >>
 
 st_max(self) == /\ pc[self] = "st_max"
                 /\ TRUE
@@ -999,11 +1269,15 @@ st_max(self) == /\ pc[self] = "st_max"
                                 gthreads, dwSt, dwW, dblTaken, dblW1, dblW2, 
                                 nextDW, ready, cwait, cnotif, cvHeld, sdres, 
                                 jpanic, sfst, slotSt, qrSent, qrWaker, dnState, 
-                                dnWaker, parkTok, rv, rwb, rneed, dsl, h, 
-                                stack, dead, sti, rq, sq, sj, ww, rsq, bown, 
-                                bwk, bi, bcur, bw, jq, jj, jwk, fj, dq, dj, oq, 
-                                oop, omode, oj, yq, yop, tq, top, af, wf, wop, 
-                                sf, sctx, xf, pf, pctx, pq, pj, pd, nq >>
+                                dnWaker, parkTok, rv, rwb, rneed, dsl, atomic, 
+                                strong, ppPending, ppClosed, ppNotify, ppNC, 
+                                ppBP, ppDepth, ppAlive, ppHeld, inItems, 
+                                inClosed, inWaker, pollFn, chuteFn, pwTaken, 
+                                nextPoll, ppItem, h, stack, dead, sti, rq, sq, 
+                                sj, ww, rsq, bown, bwk, bi, bcur, bw, jq, jj, 
+                                jwk, fj, dq, dj, oq, oop, omode, oj, yq, yop, 
+                                tq, top, af, wf, wop, sf, sctx, xf, cop, kj, 
+                                pp, np, nbp, dp, pf, pctx, pq, pj, pd, nq >>
 
 st_spawn(self) == /\ pc[self] = "st_spawn"
                   /\ thrHeld = ""
@@ -1028,10 +1302,14 @@ st_spawn(self) == /\ pc[self] = "st_spawn"
                                   dblW2, nextDW, ready, cwait, cnotif, cvHeld, 
                                   sdres, jpanic, sfst, slotSt, qrSent, qrWaker, 
                                   dnState, dnWaker, parkTok, rv, rwb, rneed, 
-                                  dsl, rq, sq, sj, ww, rsq, bown, bwk, bi, 
-                                  bcur, bw, jq, jj, jwk, fj, dq, dj, oq, oop, 
-                                  omode, oj, yq, yop, tq, top, af, wf, wop, sf, 
-                                  sctx, xf, pf, pctx, pq, pj, pd, nq >>
+                                  dsl, atomic, strong, ppPending, ppClosed, 
+                                  ppNotify, ppNC, ppBP, ppDepth, ppAlive, 
+                                  ppHeld, inItems, inClosed, inWaker, pollFn, 
+                                  chuteFn, pwTaken, nextPoll, ppItem, rq, sq, 
+                                  sj, ww, rsq, bown, bwk, bi, bcur, bw, jq, jj, 
+                                  jwk, fj, dq, dj, oq, oop, omode, oj, yq, yop, 
+                                  tq, top, af, wf, wop, sf, sctx, xf, cop, kj, 
+                                  pp, np, nbp, dp, pf, pctx, pq, pj, pd, nq >>
 
 ScheduleThread(self) == st_reap(self) \/ st_join(self) \/ st_dormant(self)
                            \/ st_max(self) \/ st_spawn(self)
@@ -1066,10 +1344,14 @@ rq_core(self) == /\ pc[self] = "rq_core"
                                  dblTaken, dblW1, dblW2, nextDW, ready, cwait, 
                                  cvHeld, sdres, jpanic, sfst, slotSt, qrSent, 
                                  qrWaker, dnState, dnWaker, parkTok, rv, dsl, 
-                                 h, dead, sti, sq, sj, ww, rsq, bown, bwk, bi, 
-                                 bcur, bw, jq, jj, jwk, fj, dq, dj, oq, oop, 
-                                 omode, oj, yq, yop, tq, top, af, wf, wop, sf, 
-                                 sctx, xf, pf, pctx, pq, pj, pd, nq >>
+                                 atomic, strong, ppPending, ppClosed, ppNotify, 
+                                 ppNC, ppBP, ppDepth, ppAlive, ppHeld, inItems, 
+                                 inClosed, inWaker, pollFn, chuteFn, pwTaken, 
+                                 nextPoll, ppItem, h, dead, sti, sq, sj, ww, 
+                                 rsq, bown, bwk, bi, bcur, bw, jq, jj, jwk, fj, 
+                                 dq, dj, oq, oop, omode, oj, yq, yop, tq, top, 
+                                 af, wf, wop, sf, sctx, xf, cop, kj, pp, np, 
+                                 nbp, dp, pf, pctx, pq, pj, pd, nq >>
 
 rq_notify(self) == /\ pc[self] = "rq_notify"
                    /\ cnotif' = [cnotif EXCEPT ![Head(rwb[self])] = cwait[Head(rwb[self])]]
@@ -1091,11 +1373,15 @@ rq_notify(self) == /\ pc[self] = "rq_notify"
                                    dblTaken, dblW1, dblW2, nextDW, ready, 
                                    cwait, cvHeld, sdres, jpanic, sfst, slotSt, 
                                    qrSent, qrWaker, dnState, dnWaker, parkTok, 
-                                   rv, rneed, dsl, h, dead, sti, sq, sj, ww, 
-                                   rsq, bown, bwk, bi, bcur, bw, jq, jj, jwk, 
-                                   fj, dq, dj, oq, oop, omode, oj, yq, yop, tq, 
-                                   top, af, wf, wop, sf, sctx, xf, pf, pctx, 
-                                   pq, pj, pd, nq >>
+                                   rv, rneed, dsl, atomic, strong, ppPending, 
+                                   ppClosed, ppNotify, ppNC, ppBP, ppDepth, 
+                                   ppAlive, ppHeld, inItems, inClosed, inWaker, 
+                                   pollFn, chuteFn, pwTaken, nextPoll, ppItem, 
+                                   h, dead, sti, sq, sj, ww, rsq, bown, bwk, 
+                                   bi, bcur, bw, jq, jj, jwk, fj, dq, dj, oq, 
+                                   oop, omode, oj, yq, yop, tq, top, af, wf, 
+                                   wop, sf, sctx, xf, cop, kj, pp, np, nbp, dp, 
+                                   pf, pctx, pq, pj, pd, nq >>
 
 rq_sched(self) == /\ pc[self] = "rq_sched"
                   /\ schedule' = Append(schedule, rq[self])
@@ -1114,11 +1400,16 @@ rq_sched(self) == /\ pc[self] = "rq_sched"
                                   dwSt, dwW, dblTaken, dblW1, dblW2, nextDW, 
                                   ready, cwait, cnotif, cvHeld, sdres, jpanic, 
                                   sfst, slotSt, qrSent, qrWaker, dnState, 
-                                  dnWaker, parkTok, rv, rwb, rneed, dsl, h, rq, 
+                                  dnWaker, parkTok, rv, rwb, rneed, dsl, 
+                                  atomic, strong, ppPending, ppClosed, 
+                                  ppNotify, ppNC, ppBP, ppDepth, ppAlive, 
+                                  ppHeld, inItems, inClosed, inWaker, pollFn, 
+                                  chuteFn, pwTaken, nextPoll, ppItem, h, rq, 
                                   sq, sj, ww, rsq, bown, bwk, bi, bcur, bw, jq, 
                                   jj, jwk, fj, dq, dj, oq, oop, omode, oj, yq, 
-                                  yop, tq, top, af, wf, wop, sf, sctx, xf, pf, 
-                                  pctx, pq, pj, pd, nq >>
+                                  yop, tq, top, af, wf, wop, sf, sctx, xf, cop, 
+                                  kj, pp, np, nbp, dp, pf, pctx, pq, pj, pd, 
+                                  nq >>
 
 Reschedule(self) == rq_core(self) \/ rq_notify(self) \/ rq_sched(self)
 
@@ -1147,11 +1438,15 @@ sj_push(self) == /\ pc[self] = "sj_push"
                                  dwSt, dwW, dblTaken, dblW1, dblW2, nextDW, 
                                  ready, cwait, cnotif, cvHeld, sdres, jpanic, 
                                  sfst, slotSt, qrSent, qrWaker, dnState, 
-                                 dnWaker, parkTok, rwb, rneed, dsl, h, dead, 
-                                 sti, rq, ww, rsq, bown, bwk, bi, bcur, bw, jq, 
-                                 jj, jwk, fj, dq, dj, oq, oop, omode, oj, yq, 
-                                 yop, tq, top, af, wf, wop, sf, sctx, xf, pf, 
-                                 pctx, pq, pj, pd, nq >>
+                                 dnWaker, parkTok, rwb, rneed, dsl, atomic, 
+                                 strong, ppPending, ppClosed, ppNotify, ppNC, 
+                                 ppBP, ppDepth, ppAlive, ppHeld, inItems, 
+                                 inClosed, inWaker, pollFn, chuteFn, pwTaken, 
+                                 nextPoll, ppItem, h, dead, sti, rq, ww, rsq, 
+                                 bown, bwk, bi, bcur, bw, jq, jj, jwk, fj, dq, 
+                                 dj, oq, oop, omode, oj, yq, yop, tq, top, af, 
+                                 wf, wop, sf, sctx, xf, cop, kj, pp, np, nbp, 
+                                 dp, pf, pctx, pq, pj, pd, nq >>
 
 sj_sched(self) == /\ pc[self] = "sj_sched"
                   /\ schedule' = Append(schedule, sq[self])
@@ -1170,11 +1465,16 @@ sj_sched(self) == /\ pc[self] = "sj_sched"
                                   dwSt, dwW, dblTaken, dblW1, dblW2, nextDW, 
                                   ready, cwait, cnotif, cvHeld, sdres, jpanic, 
                                   sfst, slotSt, qrSent, qrWaker, dnState, 
-                                  dnWaker, parkTok, rv, rwb, rneed, dsl, h, rq, 
+                                  dnWaker, parkTok, rv, rwb, rneed, dsl, 
+                                  atomic, strong, ppPending, ppClosed, 
+                                  ppNotify, ppNC, ppBP, ppDepth, ppAlive, 
+                                  ppHeld, inItems, inClosed, inWaker, pollFn, 
+                                  chuteFn, pwTaken, nextPoll, ppItem, h, rq, 
                                   sq, sj, ww, rsq, bown, bwk, bi, bcur, bw, jq, 
                                   jj, jwk, fj, dq, dj, oq, oop, omode, oj, yq, 
-                                  yop, tq, top, af, wf, wop, sf, sctx, xf, pf, 
-                                  pctx, pq, pj, pd, nq >>
+                                  yop, tq, top, af, wf, wop, sf, sctx, xf, cop, 
+                                  kj, pp, np, nbp, dp, pf, pctx, pq, pj, pd, 
+                                  nq >>
 
 z_sj_ret(self) == /\ pc[self] = "z_sj_ret"
                   /\ rv' = [rv EXCEPT ![self] = 0]
@@ -1190,10 +1490,15 @@ z_sj_ret(self) == /\ pc[self] = "z_sj_ret"
                                   nextDW, ready, cwait, cnotif, cvHeld, sdres, 
                                   jpanic, sfst, slotSt, qrSent, qrWaker, 
                                   dnState, dnWaker, parkTok, rwb, rneed, dsl, 
-                                  h, dead, sti, rq, ww, rsq, bown, bwk, bi, 
-                                  bcur, bw, jq, jj, jwk, fj, dq, dj, oq, oop, 
-                                  omode, oj, yq, yop, tq, top, af, wf, wop, sf, 
-                                  sctx, xf, pf, pctx, pq, pj, pd, nq >>
+                                  atomic, strong, ppPending, ppClosed, 
+                                  ppNotify, ppNC, ppBP, ppDepth, ppAlive, 
+                                  ppHeld, inItems, inClosed, inWaker, pollFn, 
+                                  chuteFn, pwTaken, nextPoll, ppItem, h, dead, 
+                                  sti, rq, ww, rsq, bown, bwk, bi, bcur, bw, 
+                                  jq, jj, jwk, fj, dq, dj, oq, oop, omode, oj, 
+                                  yq, yop, tq, top, af, wf, wop, sf, sctx, xf, 
+                                  cop, kj, pp, np, nbp, dp, pf, pctx, pq, pj, 
+                                  pd, nq >>
 
 ScheduleJob(self) == sj_push(self) \/ sj_sched(self) \/ z_sj_ret(self)
 
@@ -1211,7 +1516,8 @@ wk_lock(self) == /\ pc[self] = "wk_lock"
                             /\ pc' = [pc EXCEPT ![self] = Head(stack[self]).pc]
                             /\ ww' = [ww EXCEPT ![self] = Head(stack[self]).ww]
                             /\ stack' = [stack EXCEPT ![self] = Tail(stack[self])]
-                            /\ UNCHANGED << dwSt, dwW, dblTaken, rq >>
+                            /\ UNCHANGED << jkind, dwSt, dwW, dblTaken, strong, 
+                                            pwTaken, nextPoll, rq, sq, sj >>
                        ELSE /\ IF ww[self].k = "WQ"
                                   THEN /\ IF qstate[ww[self].q] = "WaitingForUnpark"
                                              THEN /\ pc' = [pc EXCEPT ![self] = Head(stack[self]).pc]
@@ -1231,55 +1537,101 @@ wk_lock(self) == /\ pc[self] = "wk_lock"
                                                                                           \o stack[self]]
                                                   /\ pc' = [pc EXCEPT ![self] = "rq_core"]
                                                   /\ ww' = ww
-                                       /\ UNCHANGED << dwSt, dwW, dblTaken, 
-                                                       parkTok >>
-                                  ELSE /\ IF ww[self].k = "DW"
-                                             THEN /\ IF dwSt[ww[self].d] = "Will"
-                                                        THEN /\ LET w == dwW[ww[self].d] IN
-                                                                  /\ dwSt' = [dwSt EXCEPT ![ww[self].d] = "Woken"]
-                                                                  /\ dwW' = [dwW EXCEPT ![ww[self].d] = NoW]
-                                                                  /\ IF IsLocking(w)
-                                                                        THEN /\ ww' = [ww EXCEPT ![self] = w]
-                                                                             /\ pc' = [pc EXCEPT ![self] = "wk_lock"]
-                                                                             /\ UNCHANGED << parkTok, 
-                                                                                             stack >>
-                                                                        ELSE /\ parkTok' = Unpark(parkTok, TaskOf(w))
-                                                                             /\ pc' = [pc EXCEPT ![self] = Head(stack[self]).pc]
-                                                                             /\ ww' = [ww EXCEPT ![self] = Head(stack[self]).ww]
-                                                                             /\ stack' = [stack EXCEPT ![self] = Tail(stack[self])]
-                                                        ELSE /\ dwSt' = [dwSt EXCEPT ![ww[self].d] = "Woken"]
-                                                             /\ pc' = [pc EXCEPT ![self] = Head(stack[self]).pc]
-                                                             /\ ww' = [ww EXCEPT ![self] = Head(stack[self]).ww]
-                                                             /\ stack' = [stack EXCEPT ![self] = Tail(stack[self])]
-                                                             /\ UNCHANGED << dwW, 
-                                                                             parkTok >>
-                                                  /\ UNCHANGED dblTaken
-                                             ELSE /\ IF dblTaken[ww[self].d]
+                                       /\ UNCHANGED << jkind, dwSt, dwW, 
+                                                       dblTaken, parkTok, 
+                                                       strong, pwTaken, 
+                                                       nextPoll, sq, sj >>
+                                  ELSE /\ IF ww[self].k = "PW"
+                                             THEN /\ IF pwTaken[ww[self].d]
                                                         THEN /\ pc' = [pc EXCEPT ![self] = Head(stack[self]).pc]
                                                              /\ ww' = [ww EXCEPT ![self] = Head(stack[self]).ww]
                                                              /\ stack' = [stack EXCEPT ![self] = Tail(stack[self])]
-                                                             /\ UNCHANGED dblTaken
-                                                        ELSE /\ dblTaken' = [dblTaken EXCEPT ![ww[self].d] = TRUE]
-                                                             /\ /\ stack' = [stack EXCEPT ![self] = << [ procedure |->  "Wake",
-                                                                                                         pc        |->  "z_wk_second",
-                                                                                                         ww        |->  ww[self] ] >>
-                                                                                                     \o stack[self]]
-                                                                /\ ww' = [ww EXCEPT ![self] = dblW1[ww[self].d]]
-                                                             /\ pc' = [pc EXCEPT ![self] = "wk_lock"]
+                                                             /\ UNCHANGED << jkind, 
+                                                                             strong, 
+                                                                             pwTaken, 
+                                                                             nextPoll, 
+                                                                             sq, 
+                                                                             sj >>
+                                                        ELSE /\ pwTaken' = [pwTaken EXCEPT ![ww[self].d] = TRUE]
+                                                             /\ IF strong[O(ww[self].d)] > 0
+                                                                   THEN /\ strong' = [strong EXCEPT ![O(ww[self].d)] = strong[O(ww[self].d)] + 1]
+                                                                        /\ jkind' = [jkind EXCEPT ![NewPoll(OpTab[ww[self].d].p)] = "fut"]
+                                                                        /\ nextPoll' = [nextPoll EXCEPT ![OpTab[ww[self].d].p] = nextPoll[OpTab[ww[self].d].p] + 1]
+                                                                        /\ /\ sj' = [sj EXCEPT ![self] = NewPoll(OpTab[ww[self].d].p)]
+                                                                           /\ sq' = [sq EXCEPT ![self] = O(ww[self].d)]
+                                                                           /\ stack' = [stack EXCEPT ![self] = << [ procedure |->  "ScheduleJob",
+                                                                                                                    pc        |->  "z_pw_after",
+                                                                                                                    sq        |->  sq[self],
+                                                                                                                    sj        |->  sj[self] ] >>
+                                                                                                                \o stack[self]]
+                                                                        /\ pc' = [pc EXCEPT ![self] = "sj_push"]
+                                                                   ELSE /\ pc' = [pc EXCEPT ![self] = "pw_take"]
+                                                                        /\ UNCHANGED << jkind, 
+                                                                                        strong, 
+                                                                                        nextPoll, 
+                                                                                        stack, 
+                                                                                        sq, 
+                                                                                        sj >>
+                                                             /\ ww' = ww
                                                   /\ UNCHANGED << dwSt, dwW, 
+                                                                  dblTaken, 
                                                                   parkTok >>
+                                             ELSE /\ IF ww[self].k = "DW"
+                                                        THEN /\ IF dwSt[ww[self].d] = "Will"
+                                                                   THEN /\ LET w == dwW[ww[self].d] IN
+                                                                             /\ dwSt' = [dwSt EXCEPT ![ww[self].d] = "Woken"]
+                                                                             /\ dwW' = [dwW EXCEPT ![ww[self].d] = NoW]
+                                                                             /\ IF IsLocking(w)
+                                                                                   THEN /\ ww' = [ww EXCEPT ![self] = w]
+                                                                                        /\ pc' = [pc EXCEPT ![self] = "wk_lock"]
+                                                                                        /\ UNCHANGED << parkTok, 
+                                                                                                        stack >>
+                                                                                   ELSE /\ parkTok' = Unpark(parkTok, TaskOf(w))
+                                                                                        /\ pc' = [pc EXCEPT ![self] = Head(stack[self]).pc]
+                                                                                        /\ ww' = [ww EXCEPT ![self] = Head(stack[self]).ww]
+                                                                                        /\ stack' = [stack EXCEPT ![self] = Tail(stack[self])]
+                                                                   ELSE /\ dwSt' = [dwSt EXCEPT ![ww[self].d] = "Woken"]
+                                                                        /\ pc' = [pc EXCEPT ![self] = Head(stack[self]).pc]
+                                                                        /\ ww' = [ww EXCEPT ![self] = Head(stack[self]).ww]
+                                                                        /\ stack' = [stack EXCEPT ![self] = Tail(stack[self])]
+                                                                        /\ UNCHANGED << dwW, 
+                                                                                        parkTok >>
+                                                             /\ UNCHANGED dblTaken
+                                                        ELSE /\ IF dblTaken[ww[self].d]
+                                                                   THEN /\ pc' = [pc EXCEPT ![self] = Head(stack[self]).pc]
+                                                                        /\ ww' = [ww EXCEPT ![self] = Head(stack[self]).ww]
+                                                                        /\ stack' = [stack EXCEPT ![self] = Tail(stack[self])]
+                                                                        /\ UNCHANGED dblTaken
+                                                                   ELSE /\ dblTaken' = [dblTaken EXCEPT ![ww[self].d] = TRUE]
+                                                                        /\ /\ stack' = [stack EXCEPT ![self] = << [ procedure |->  "Wake",
+                                                                                                                    pc        |->  "z_wk_second",
+                                                                                                                    ww        |->  ww[self] ] >>
+                                                                                                                \o stack[self]]
+                                                                           /\ ww' = [ww EXCEPT ![self] = dblW1[ww[self].d]]
+                                                                        /\ pc' = [pc EXCEPT ![self] = "wk_lock"]
+                                                             /\ UNCHANGED << dwSt, 
+                                                                             dwW, 
+                                                                             parkTok >>
+                                                  /\ UNCHANGED << jkind, 
+                                                                  strong, 
+                                                                  pwTaken, 
+                                                                  nextPoll, sq, 
+                                                                  sj >>
                                        /\ UNCHANGED << qstate, rq >>
                  /\ UNCHANGED << qpoll, jobs, wakeBlocked, schedule, pthreads, 
                                  nspawned, palive, busy, busyLocked, inbox, 
-                                 chanOpen, pfin, thrHeld, maxThreads, jkind, 
-                                 jaw, fres, fwaker, gfired, gwaker, gthreads, 
-                                 dblW1, dblW2, nextDW, ready, cwait, cnotif, 
-                                 cvHeld, sdres, jpanic, sfst, slotSt, qrSent, 
-                                 qrWaker, dnState, dnWaker, rv, rwb, rneed, 
-                                 dsl, h, dead, sti, sq, sj, rsq, bown, bwk, bi, 
-                                 bcur, bw, jq, jj, jwk, fj, dq, dj, oq, oop, 
-                                 omode, oj, yq, yop, tq, top, af, wf, wop, sf, 
-                                 sctx, xf, pf, pctx, pq, pj, pd, nq >>
+                                 chanOpen, pfin, thrHeld, maxThreads, jaw, 
+                                 fres, fwaker, gfired, gwaker, gthreads, dblW1, 
+                                 dblW2, nextDW, ready, cwait, cnotif, cvHeld, 
+                                 sdres, jpanic, sfst, slotSt, qrSent, qrWaker, 
+                                 dnState, dnWaker, rv, rwb, rneed, dsl, atomic, 
+                                 ppPending, ppClosed, ppNotify, ppNC, ppBP, 
+                                 ppDepth, ppAlive, ppHeld, inItems, inClosed, 
+                                 inWaker, pollFn, chuteFn, ppItem, h, dead, 
+                                 sti, rsq, bown, bwk, bi, bcur, bw, jq, jj, 
+                                 jwk, fj, dq, dj, oq, oop, omode, oj, yq, yop, 
+                                 tq, top, af, wf, wop, sf, sctx, xf, cop, kj, 
+                                 pp, np, nbp, dp, pf, pctx, pq, pj, pd, nq >>
 
 z_wk_second(self) == /\ pc[self] = "z_wk_second"
                      /\ IF IsLocking(dblW2[ww[self].d])
@@ -1298,12 +1650,80 @@ z_wk_second(self) == /\ pc[self] = "z_wk_second"
                                      dwW, dblTaken, dblW1, dblW2, nextDW, 
                                      ready, cwait, cnotif, cvHeld, sdres, 
                                      jpanic, sfst, slotSt, qrSent, qrWaker, 
-                                     dnState, dnWaker, rv, rwb, rneed, dsl, h, 
-                                     dead, sti, rq, sq, sj, rsq, bown, bwk, bi, 
-                                     bcur, bw, jq, jj, jwk, fj, dq, dj, oq, 
-                                     oop, omode, oj, yq, yop, tq, top, af, wf, 
-                                     wop, sf, sctx, xf, pf, pctx, pq, pj, pd, 
-                                     nq >>
+                                     dnState, dnWaker, rv, rwb, rneed, dsl, 
+                                     atomic, strong, ppPending, ppClosed, 
+                                     ppNotify, ppNC, ppBP, ppDepth, ppAlive, 
+                                     ppHeld, inItems, inClosed, inWaker, 
+                                     pollFn, chuteFn, pwTaken, nextPoll, 
+                                     ppItem, h, dead, sti, rq, sq, sj, rsq, 
+                                     bown, bwk, bi, bcur, bw, jq, jj, jwk, fj, 
+                                     dq, dj, oq, oop, omode, oj, yq, yop, tq, 
+                                     top, af, wf, wop, sf, sctx, xf, cop, kj, 
+                                     pp, np, nbp, dp, pf, pctx, pq, pj, pd, nq >>
+
+z_pw_after(self) == /\ pc[self] = "z_pw_after"
+                    /\ strong' = [strong EXCEPT ![O(ww[self].d)] = strong[O(ww[self].d)] - 1]
+                    /\ IF strong'[O(ww[self].d)] = 1 - 1
+                          THEN /\ /\ stack' = [stack EXCEPT ![self] = << [ procedure |->  "Sync",
+                                                                           pc        |->  "z_wk_ret",
+                                                                           yq        |->  yq[self],
+                                                                           yop       |->  yop[self] ] >>
+                                                                       \o stack[self]]
+                                  /\ yop' = [yop EXCEPT ![self] = ChuteJob(OpTab[ww[self].d].p, "pipe_free")]
+                                  /\ yq' = [yq EXCEPT ![self] = O(ww[self].d)]
+                               /\ pc' = [pc EXCEPT ![self] = "sy_decide"]
+                               /\ ww' = ww
+                          ELSE /\ pc' = [pc EXCEPT ![self] = Head(stack[self]).pc]
+                               /\ ww' = [ww EXCEPT ![self] = Head(stack[self]).ww]
+                               /\ stack' = [stack EXCEPT ![self] = Tail(stack[self])]
+                               /\ UNCHANGED << yq, yop >>
+                    /\ UNCHANGED << qstate, qpoll, jobs, wakeBlocked, schedule, 
+                                    pthreads, nspawned, palive, busy, 
+                                    busyLocked, inbox, chanOpen, pfin, thrHeld, 
+                                    maxThreads, jkind, jaw, fres, fwaker, 
+                                    gfired, gwaker, gthreads, dwSt, dwW, 
+                                    dblTaken, dblW1, dblW2, nextDW, ready, 
+                                    cwait, cnotif, cvHeld, sdres, jpanic, sfst, 
+                                    slotSt, qrSent, qrWaker, dnState, dnWaker, 
+                                    parkTok, rv, rwb, rneed, dsl, atomic, 
+                                    ppPending, ppClosed, ppNotify, ppNC, ppBP, 
+                                    ppDepth, ppAlive, ppHeld, inItems, 
+                                    inClosed, inWaker, pollFn, chuteFn, 
+                                    pwTaken, nextPoll, ppItem, h, dead, sti, 
+                                    rq, sq, sj, rsq, bown, bwk, bi, bcur, bw, 
+                                    jq, jj, jwk, fj, dq, dj, oq, oop, omode, 
+                                    oj, tq, top, af, wf, wop, sf, sctx, xf, 
+                                    cop, kj, pp, np, nbp, dp, pf, pctx, pq, pj, 
+                                    pd, nq >>
+
+pw_take(self) == /\ pc[self] = "pw_take"
+                 /\ chuteFn' = [chuteFn EXCEPT ![OpTab[ww[self].d].p] = pollFn[OpTab[ww[self].d].p]]
+                 /\ pollFn' = [pollFn EXCEPT ![OpTab[ww[self].d].p] = FALSE]
+                 /\ jkind' = [jkind EXCEPT ![ChuteJob(OpTab[ww[self].d].p, "chute_dropfn")] = "plain"]
+                 /\ /\ sj' = [sj EXCEPT ![self] = ChuteJob(OpTab[ww[self].d].p, "chute_dropfn")]
+                    /\ sq' = [sq EXCEPT ![self] = Chute]
+                    /\ stack' = [stack EXCEPT ![self] = << [ procedure |->  "ScheduleJob",
+                                                             pc        |->  "z_wk_ret",
+                                                             sq        |->  sq[self],
+                                                             sj        |->  sj[self] ] >>
+                                                         \o stack[self]]
+                 /\ pc' = [pc EXCEPT ![self] = "sj_push"]
+                 /\ UNCHANGED << qstate, qpoll, jobs, wakeBlocked, schedule, 
+                                 pthreads, nspawned, palive, busy, busyLocked, 
+                                 inbox, chanOpen, pfin, thrHeld, maxThreads, 
+                                 jaw, fres, fwaker, gfired, gwaker, gthreads, 
+                                 dwSt, dwW, dblTaken, dblW1, dblW2, nextDW, 
+                                 ready, cwait, cnotif, cvHeld, sdres, jpanic, 
+                                 sfst, slotSt, qrSent, qrWaker, dnState, 
+                                 dnWaker, parkTok, rv, rwb, rneed, dsl, atomic, 
+                                 strong, ppPending, ppClosed, ppNotify, ppNC, 
+                                 ppBP, ppDepth, ppAlive, ppHeld, inItems, 
+                                 inClosed, inWaker, pwTaken, nextPoll, ppItem, 
+                                 h, dead, sti, rq, ww, rsq, bown, bwk, bi, 
+                                 bcur, bw, jq, jj, jwk, fj, dq, dj, oq, oop, 
+                                 omode, oj, yq, yop, tq, top, af, wf, wop, sf, 
+                                 sctx, xf, cop, kj, pp, np, nbp, dp, pf, pctx, 
+                                 pq, pj, pd, nq >>
 
 z_wk_ret(self) == /\ pc[self] = "z_wk_ret"
                   /\ pc' = [pc EXCEPT ![self] = Head(stack[self]).pc]
@@ -1317,12 +1737,18 @@ z_wk_ret(self) == /\ pc[self] = "z_wk_ret"
                                   nextDW, ready, cwait, cnotif, cvHeld, sdres, 
                                   jpanic, sfst, slotSt, qrSent, qrWaker, 
                                   dnState, dnWaker, parkTok, rv, rwb, rneed, 
-                                  dsl, h, dead, sti, rq, sq, sj, rsq, bown, 
-                                  bwk, bi, bcur, bw, jq, jj, jwk, fj, dq, dj, 
-                                  oq, oop, omode, oj, yq, yop, tq, top, af, wf, 
-                                  wop, sf, sctx, xf, pf, pctx, pq, pj, pd, nq >>
+                                  dsl, atomic, strong, ppPending, ppClosed, 
+                                  ppNotify, ppNC, ppBP, ppDepth, ppAlive, 
+                                  ppHeld, inItems, inClosed, inWaker, pollFn, 
+                                  chuteFn, pwTaken, nextPoll, ppItem, h, dead, 
+                                  sti, rq, sq, sj, rsq, bown, bwk, bi, bcur, 
+                                  bw, jq, jj, jwk, fj, dq, dj, oq, oop, omode, 
+                                  oj, yq, yop, tq, top, af, wf, wop, sf, sctx, 
+                                  xf, cop, kj, pp, np, nbp, dp, pf, pctx, pq, 
+                                  pj, pd, nq >>
 
-Wake(self) == wk_lock(self) \/ z_wk_second(self) \/ z_wk_ret(self)
+Wake(self) == wk_lock(self) \/ z_wk_second(self) \/ z_pw_after(self)
+                 \/ pw_take(self) \/ z_wk_ret(self)
 
 rb_step(self) == /\ pc[self] = "rb_step"
                  /\ IF bown[self] # 0 /\ jaw[bown[self]] > 0
@@ -1349,10 +1775,15 @@ rb_step(self) == /\ pc[self] = "rb_step"
                                  nextDW, ready, cwait, cnotif, cvHeld, sdres, 
                                  jpanic, sfst, slotSt, qrSent, qrWaker, 
                                  dnState, dnWaker, parkTok, rv, rwb, rneed, 
-                                 dsl, stack, dead, sti, rq, sq, sj, ww, rsq, 
-                                 bown, bwk, bw, jq, jj, jwk, fj, dq, dj, oq, 
-                                 oop, omode, oj, yq, yop, tq, top, af, wf, wop, 
-                                 sf, sctx, xf, pf, pctx, pq, pj, pd, nq >>
+                                 dsl, atomic, strong, ppPending, ppClosed, 
+                                 ppNotify, ppNC, ppBP, ppDepth, ppAlive, 
+                                 ppHeld, inItems, inClosed, inWaker, pollFn, 
+                                 chuteFn, pwTaken, nextPoll, ppItem, stack, 
+                                 dead, sti, rq, sq, sj, ww, rsq, bown, bwk, bw, 
+                                 jq, jj, jwk, fj, dq, dj, oq, oop, omode, oj, 
+                                 yq, yop, tq, top, af, wf, wop, sf, sctx, xf, 
+                                 cop, kj, pp, np, nbp, dp, pf, pctx, pq, pj, 
+                                 pd, nq >>
 
 z_finish(self) == /\ pc[self] = "z_finish"
                   /\ IF bown[self] = 0
@@ -1436,10 +1867,14 @@ z_finish(self) == /\ pc[self] = "z_finish"
                                   dblTaken, dblW1, dblW2, nextDW, ready, cwait, 
                                   cnotif, cvHeld, sfst, slotSt, qrSent, 
                                   qrWaker, dnState, dnWaker, parkTok, rwb, 
-                                  rneed, dsl, dead, sti, rq, sq, sj, ww, jq, 
-                                  jj, jwk, fj, dq, dj, oq, oop, omode, oj, yq, 
-                                  yop, tq, top, af, wf, wop, sf, sctx, xf, pf, 
-                                  pctx, pq, pj, pd, nq >>
+                                  rneed, dsl, atomic, strong, ppPending, 
+                                  ppClosed, ppNotify, ppNC, ppBP, ppDepth, 
+                                  ppAlive, ppHeld, inItems, inClosed, inWaker, 
+                                  pollFn, chuteFn, pwTaken, nextPoll, ppItem, 
+                                  dead, sti, rq, sq, sj, ww, jq, jj, jwk, fj, 
+                                  dq, dj, oq, oop, omode, oj, yq, yop, tq, top, 
+                                  af, wf, wop, sf, sctx, xf, cop, kj, pp, np, 
+                                  nbp, dp, pf, pctx, pq, pj, pd, nq >>
 
 rb_block(self) == /\ pc[self] = "rb_block"
                   /\ parkTok[self]
@@ -1452,11 +1887,16 @@ rb_block(self) == /\ pc[self] = "rb_block"
                                   gthreads, dwSt, dwW, dblTaken, dblW1, dblW2, 
                                   nextDW, ready, cwait, cnotif, cvHeld, sdres, 
                                   jpanic, sfst, slotSt, qrSent, qrWaker, 
-                                  dnState, dnWaker, rv, rwb, rneed, dsl, h, 
-                                  stack, dead, sti, rq, sq, sj, ww, rsq, bown, 
-                                  bwk, bi, bcur, bw, jq, jj, jwk, fj, dq, dj, 
-                                  oq, oop, omode, oj, yq, yop, tq, top, af, wf, 
-                                  wop, sf, sctx, xf, pf, pctx, pq, pj, pd, nq >>
+                                  dnState, dnWaker, rv, rwb, rneed, dsl, 
+                                  atomic, strong, ppPending, ppClosed, 
+                                  ppNotify, ppNC, ppBP, ppDepth, ppAlive, 
+                                  ppHeld, inItems, inClosed, inWaker, pollFn, 
+                                  chuteFn, pwTaken, nextPoll, ppItem, h, stack, 
+                                  dead, sti, rq, sq, sj, ww, rsq, bown, bwk, 
+                                  bi, bcur, bw, jq, jj, jwk, fj, dq, dj, oq, 
+                                  oop, omode, oj, yq, yop, tq, top, af, wf, 
+                                  wop, sf, sctx, xf, cop, kj, pp, np, nbp, dp, 
+                                  pf, pctx, pq, pj, pd, nq >>
 
 z_dispatch(self) == /\ pc[self] = "z_dispatch"
                     /\ IF K(bcur[self]) = "desync"
@@ -1469,11 +1909,13 @@ z_dispatch(self) == /\ pc[self] = "z_dispatch"
                                                                            sj        |->  sj[self] ] >>
                                                                        \o stack[self]]
                                /\ pc' = [pc EXCEPT ![self] = "sj_push"]
-                               /\ UNCHANGED << gfired, gwaker, parkTok, rv, h, 
-                                               ww, bw, yq, yop, tq, top, af, 
-                                               wf, wop, sf, sctx, xf, pf, pctx, 
-                                               pq, pj, pd >>
-                          ELSE /\ IF K(bcur[self]) \in {"sync", "drop_obj"}
+                               /\ UNCHANGED << gfired, gwaker, parkTok, rv, 
+                                               strong, inItems, inClosed, 
+                                               inWaker, h, ww, bw, yq, yop, tq, 
+                                               top, af, wf, wop, sf, sctx, xf, 
+                                               cop, np, nbp, dp, pf, pctx, pq, 
+                                               pj, pd >>
+                          ELSE /\ IF K(bcur[self]) = "sync"
                                      THEN /\ /\ stack' = [stack EXCEPT ![self] = << [ procedure |->  "Sync",
                                                                                       pc        |->  "rb_step",
                                                                                       yq        |->  yq[self],
@@ -1484,262 +1926,485 @@ z_dispatch(self) == /\ pc[self] = "z_dispatch"
                                           /\ pc' = [pc EXCEPT ![self] = "sy_decide"]
                                           /\ UNCHANGED << jkind, gfired, 
                                                           gwaker, parkTok, rv, 
-                                                          h, sq, sj, ww, bw, 
-                                                          tq, top, af, wf, wop, 
-                                                          sf, sctx, xf, pf, 
-                                                          pctx, pq, pj, pd >>
-                                     ELSE /\ IF K(bcur[self]) = "try_sync"
-                                                THEN /\ /\ stack' = [stack EXCEPT ![self] = << [ procedure |->  "TrySync",
-                                                                                                 pc        |->  "rb_step",
-                                                                                                 tq        |->  tq[self],
-                                                                                                 top       |->  top[self] ] >>
-                                                                                             \o stack[self]]
-                                                        /\ top' = [top EXCEPT ![self] = bcur[self]]
-                                                        /\ tq' = [tq EXCEPT ![self] = O(bcur[self])]
-                                                     /\ pc' = [pc EXCEPT ![self] = "ts_decide"]
+                                                          strong, inItems, 
+                                                          inClosed, inWaker, h, 
+                                                          sq, sj, ww, bw, tq, 
+                                                          top, af, wf, wop, sf, 
+                                                          sctx, xf, cop, np, 
+                                                          nbp, dp, pf, pctx, 
+                                                          pq, pj, pd >>
+                                     ELSE /\ IF K(bcur[self]) = "drop_obj"
+                                                THEN /\ strong' = [strong EXCEPT ![O(bcur[self])] = strong[O(bcur[self])] - 1]
+                                                     /\ IF strong'[O(bcur[self])] = 1 - 1
+                                                           THEN /\ /\ stack' = [stack EXCEPT ![self] = << [ procedure |->  "Sync",
+                                                                                                            pc        |->  "rb_step",
+                                                                                                            yq        |->  yq[self],
+                                                                                                            yop       |->  yop[self] ] >>
+                                                                                                        \o stack[self]]
+                                                                   /\ yop' = [yop EXCEPT ![self] = bcur[self]]
+                                                                   /\ yq' = [yq EXCEPT ![self] = O(bcur[self])]
+                                                                /\ pc' = [pc EXCEPT ![self] = "sy_decide"]
+                                                                /\ rv' = rv
+                                                           ELSE /\ rv' = [rv EXCEPT ![self] = 0]
+                                                                /\ pc' = [pc EXCEPT ![self] = "rb_step"]
+                                                                /\ UNCHANGED << stack, 
+                                                                                yq, 
+                                                                                yop >>
                                                      /\ UNCHANGED << jkind, 
                                                                      gfired, 
                                                                      gwaker, 
                                                                      parkTok, 
-                                                                     rv, h, sq, 
-                                                                     sj, ww, 
-                                                                     bw, af, 
-                                                                     wf, wop, 
-                                                                     sf, sctx, 
-                                                                     xf, pf, 
-                                                                     pctx, pq, 
-                                                                     pj, pd >>
-                                                ELSE /\ IF K(bcur[self]) \in {"fdesync", "after"}
-                                                           THEN /\ jkind' = [jkind EXCEPT ![bcur[self]] = "fut"]
-                                                                /\ /\ sj' = [sj EXCEPT ![self] = bcur[self]]
-                                                                   /\ sq' = [sq EXCEPT ![self] = O(bcur[self])]
-                                                                   /\ stack' = [stack EXCEPT ![self] = << [ procedure |->  "ScheduleJob",
-                                                                                                            pc        |->  "z_then",
-                                                                                                            sq        |->  sq[self],
-                                                                                                            sj        |->  sj[self] ] >>
+                                                                     inItems, 
+                                                                     inClosed, 
+                                                                     inWaker, 
+                                                                     h, sq, sj, 
+                                                                     ww, bw, 
+                                                                     tq, top, 
+                                                                     af, wf, 
+                                                                     wop, sf, 
+                                                                     sctx, xf, 
+                                                                     cop, np, 
+                                                                     nbp, dp, 
+                                                                     pf, pctx, 
+                                                                     pq, pj, 
+                                                                     pd >>
+                                                ELSE /\ IF K(bcur[self]) \in {"pipe", "pipe_in"}
+                                                           THEN /\ /\ cop' = [cop EXCEPT ![self] = bcur[self]]
+                                                                   /\ stack' = [stack EXCEPT ![self] = << [ procedure |->  "PipeCreate",
+                                                                                                            pc        |->  "rb_step",
+                                                                                                            cop       |->  cop[self] ] >>
                                                                                                         \o stack[self]]
-                                                                /\ pc' = [pc EXCEPT ![self] = "sj_push"]
-                                                                /\ UNCHANGED << gfired, 
+                                                                /\ pc' = [pc EXCEPT ![self] = "z_pcr1"]
+                                                                /\ UNCHANGED << jkind, 
+                                                                                gfired, 
                                                                                 gwaker, 
                                                                                 parkTok, 
                                                                                 rv, 
+                                                                                inItems, 
+                                                                                inClosed, 
+                                                                                inWaker, 
                                                                                 h, 
+                                                                                sq, 
+                                                                                sj, 
                                                                                 ww, 
                                                                                 bw, 
+                                                                                tq, 
+                                                                                top, 
                                                                                 af, 
                                                                                 wf, 
                                                                                 wop, 
                                                                                 sf, 
                                                                                 sctx, 
                                                                                 xf, 
+                                                                                np, 
+                                                                                nbp, 
+                                                                                dp, 
                                                                                 pf, 
                                                                                 pctx, 
                                                                                 pq, 
                                                                                 pj, 
                                                                                 pd >>
-                                                           ELSE /\ IF K(bcur[self]) = "suspend"
-                                                                      THEN /\ jkind' = [jkind EXCEPT ![bcur[self]] = "susp"]
-                                                                           /\ /\ sj' = [sj EXCEPT ![self] = bcur[self]]
-                                                                              /\ sq' = [sq EXCEPT ![self] = O(bcur[self])]
-                                                                              /\ stack' = [stack EXCEPT ![self] = << [ procedure |->  "ScheduleJob",
-                                                                                                                       pc        |->  "z_then",
-                                                                                                                       sq        |->  sq[self],
-                                                                                                                       sj        |->  sj[self] ] >>
-                                                                                                                   \o stack[self]]
-                                                                           /\ pc' = [pc EXCEPT ![self] = "sj_push"]
-                                                                           /\ UNCHANGED << gfired, 
+                                                           ELSE /\ IF K(bcur[self]) \in {"send", "close_input"}
+                                                                      THEN /\ h' = (IF K(bcur[self]) = "send" THEN ObsSent(h, OpTab[bcur[self]].p, OpTab[bcur[self]].n) ELSE ObsInClosed(h, OpTab[bcur[self]].p))
+                                                                           /\ IF K(bcur[self]) = "send"
+                                                                                 THEN /\ inItems' = [inItems EXCEPT ![OpTab[bcur[self]].p] = Append(inItems[OpTab[bcur[self]].p], OpTab[bcur[self]].n)]
+                                                                                      /\ UNCHANGED inClosed
+                                                                                 ELSE /\ inClosed' = [inClosed EXCEPT ![OpTab[bcur[self]].p] = TRUE]
+                                                                                      /\ UNCHANGED inItems
+                                                                           /\ bw' = [bw EXCEPT ![self] = inWaker[OpTab[bcur[self]].p]]
+                                                                           /\ inWaker' = [inWaker EXCEPT ![OpTab[bcur[self]].p] = NoW]
+                                                                           /\ rv' = [rv EXCEPT ![self] = 0]
+                                                                           /\ IF IsLocking(bw'[self])
+                                                                                 THEN /\ /\ stack' = [stack EXCEPT ![self] = << [ procedure |->  "Wake",
+                                                                                                                                  pc        |->  "rb_step",
+                                                                                                                                  ww        |->  ww[self] ] >>
+                                                                                                                              \o stack[self]]
+                                                                                         /\ ww' = [ww EXCEPT ![self] = bw'[self]]
+                                                                                      /\ pc' = [pc EXCEPT ![self] = "wk_lock"]
+                                                                                 ELSE /\ pc' = [pc EXCEPT ![self] = "rb_step"]
+                                                                                      /\ UNCHANGED << stack, 
+                                                                                                      ww >>
+                                                                           /\ UNCHANGED << jkind, 
+                                                                                           gfired, 
                                                                                            gwaker, 
                                                                                            parkTok, 
-                                                                                           rv, 
-                                                                                           h, 
-                                                                                           ww, 
-                                                                                           bw, 
+                                                                                           sq, 
+                                                                                           sj, 
+                                                                                           tq, 
+                                                                                           top, 
                                                                                            af, 
                                                                                            wf, 
                                                                                            wop, 
                                                                                            sf, 
                                                                                            sctx, 
                                                                                            xf, 
+                                                                                           np, 
+                                                                                           nbp, 
+                                                                                           dp, 
                                                                                            pf, 
                                                                                            pctx, 
                                                                                            pq, 
                                                                                            pj, 
                                                                                            pd >>
-                                                                      ELSE /\ IF K(bcur[self]) = "fsync"
-                                                                                 THEN /\ jkind' = [jkind EXCEPT ![bcur[self]] = "slot"]
-                                                                                      /\ /\ sj' = [sj EXCEPT ![self] = bcur[self]]
-                                                                                         /\ sq' = [sq EXCEPT ![self] = O(bcur[self])]
-                                                                                         /\ stack' = [stack EXCEPT ![self] = << [ procedure |->  "ScheduleJob",
-                                                                                                                                  pc        |->  "z_then",
-                                                                                                                                  sq        |->  sq[self],
-                                                                                                                                  sj        |->  sj[self] ] >>
+                                                                      ELSE /\ IF K(bcur[self]) = "next"
+                                                                                 THEN /\ /\ np' = [np EXCEPT ![self] = OpTab[bcur[self]].p]
+                                                                                         /\ stack' = [stack EXCEPT ![self] = << [ procedure |->  "PipeNext",
+                                                                                                                                  pc        |->  "rb_step",
+                                                                                                                                  nbp       |->  nbp[self],
+                                                                                                                                  np        |->  np[self] ] >>
                                                                                                                               \o stack[self]]
-                                                                                      /\ pc' = [pc EXCEPT ![self] = "sj_push"]
-                                                                                      /\ UNCHANGED << gfired, 
+                                                                                      /\ nbp' = [nbp EXCEPT ![self] = NoW]
+                                                                                      /\ pc' = [pc EXCEPT ![self] = "cn_poll"]
+                                                                                      /\ UNCHANGED << jkind, 
+                                                                                                      gfired, 
                                                                                                       gwaker, 
                                                                                                       parkTok, 
                                                                                                       rv, 
                                                                                                       h, 
+                                                                                                      sq, 
+                                                                                                      sj, 
                                                                                                       ww, 
                                                                                                       bw, 
+                                                                                                      tq, 
+                                                                                                      top, 
                                                                                                       af, 
                                                                                                       wf, 
                                                                                                       wop, 
                                                                                                       sf, 
                                                                                                       sctx, 
                                                                                                       xf, 
+                                                                                                      dp, 
                                                                                                       pf, 
                                                                                                       pctx, 
                                                                                                       pq, 
                                                                                                       pj, 
                                                                                                       pd >>
-                                                                                 ELSE /\ IF K(bcur[self]) = "dropf"
-                                                                                            THEN /\ /\ stack' = [stack EXCEPT ![self] = << [ procedure |->  "DropFuture",
+                                                                                 ELSE /\ IF K(bcur[self]) = "drop_stream"
+                                                                                            THEN /\ h' = PFlag(h, OpTab[bcur[self]].p, "stream_dropped")
+                                                                                                 /\ /\ dp' = [dp EXCEPT ![self] = OpTab[bcur[self]].p]
+                                                                                                    /\ stack' = [stack EXCEPT ![self] = << [ procedure |->  "PipeDrop",
                                                                                                                                              pc        |->  "rb_step",
-                                                                                                                                             xf        |->  xf[self] ] >>
+                                                                                                                                             dp        |->  dp[self] ] >>
                                                                                                                                          \o stack[self]]
-                                                                                                    /\ xf' = [xf EXCEPT ![self] = OpTab[bcur[self]].f]
-                                                                                                 /\ pc' = [pc EXCEPT ![self] = "z_df"]
-                                                                                                 /\ UNCHANGED << gfired, 
+                                                                                                 /\ pc' = [pc EXCEPT ![self] = "ps_drop"]
+                                                                                                 /\ UNCHANGED << jkind, 
+                                                                                                                 gfired, 
                                                                                                                  gwaker, 
                                                                                                                  parkTok, 
                                                                                                                  rv, 
-                                                                                                                 h, 
+                                                                                                                 sq, 
+                                                                                                                 sj, 
                                                                                                                  ww, 
                                                                                                                  bw, 
+                                                                                                                 tq, 
+                                                                                                                 top, 
                                                                                                                  af, 
                                                                                                                  wf, 
                                                                                                                  wop, 
                                                                                                                  sf, 
                                                                                                                  sctx, 
+                                                                                                                 xf, 
                                                                                                                  pf, 
                                                                                                                  pctx, 
                                                                                                                  pq, 
                                                                                                                  pj, 
                                                                                                                  pd >>
-                                                                                            ELSE /\ IF K(bcur[self]) \in {"fire", "resume", "drop_resumer"}
-                                                                                                       THEN /\ h' = (IF K(bcur[self]) = "fire" THEN ObsFire(h, GateOfOp(bcur[self])) ELSE ObsResume(h, self, OpTab[bcur[self]].f))
-                                                                                                            /\ gfired' = (gfired \cup {GateOfOp(bcur[self])})
-                                                                                                            /\ bw' = [bw EXCEPT ![self] = gwaker[GateOfOp(bcur[self])]]
-                                                                                                            /\ parkTok' = Unpark(parkTok, gthreads[GateOfOp(bcur[self])] \cup TaskOf(gwaker[GateOfOp(bcur[self])]))
-                                                                                                            /\ gwaker' = [gwaker EXCEPT ![GateOfOp(bcur[self])] = NoW]
-                                                                                                            /\ rv' = [rv EXCEPT ![self] = 0]
-                                                                                                            /\ IF IsLocking(bw'[self])
-                                                                                                                  THEN /\ /\ stack' = [stack EXCEPT ![self] = << [ procedure |->  "Wake",
-                                                                                                                                                                   pc        |->  "rb_step",
-                                                                                                                                                                   ww        |->  ww[self] ] >>
-                                                                                                                                                               \o stack[self]]
-                                                                                                                          /\ ww' = [ww EXCEPT ![self] = bw'[self]]
-                                                                                                                       /\ pc' = [pc EXCEPT ![self] = "wk_lock"]
-                                                                                                                  ELSE /\ pc' = [pc EXCEPT ![self] = "rb_step"]
-                                                                                                                       /\ UNCHANGED << stack, 
-                                                                                                                                       ww >>
-                                                                                                            /\ UNCHANGED << af, 
+                                                                                            ELSE /\ IF K(bcur[self]) = "set_depth"
+                                                                                                       THEN /\ pc' = [pc EXCEPT ![self] = "pp_setdepth"]
+                                                                                                            /\ UNCHANGED << jkind, 
+                                                                                                                            gfired, 
+                                                                                                                            gwaker, 
+                                                                                                                            parkTok, 
+                                                                                                                            rv, 
+                                                                                                                            h, 
+                                                                                                                            stack, 
+                                                                                                                            sq, 
+                                                                                                                            sj, 
+                                                                                                                            ww, 
+                                                                                                                            bw, 
+                                                                                                                            tq, 
+                                                                                                                            top, 
+                                                                                                                            af, 
                                                                                                                             wf, 
                                                                                                                             wop, 
                                                                                                                             sf, 
                                                                                                                             sctx, 
+                                                                                                                            xf, 
                                                                                                                             pf, 
                                                                                                                             pctx, 
                                                                                                                             pq, 
                                                                                                                             pj, 
                                                                                                                             pd >>
-                                                                                                       ELSE /\ IF K(bcur[self]) = "await"
-                                                                                                                  THEN /\ /\ af' = [af EXCEPT ![self] = OpTab[bcur[self]].f]
-                                                                                                                          /\ stack' = [stack EXCEPT ![self] = << [ procedure |->  "Await",
+                                                                                                       ELSE /\ IF K(bcur[self]) = "try_sync"
+                                                                                                                  THEN /\ /\ stack' = [stack EXCEPT ![self] = << [ procedure |->  "TrySync",
                                                                                                                                                                    pc        |->  "rb_step",
-                                                                                                                                                                   af        |->  af[self] ] >>
+                                                                                                                                                                   tq        |->  tq[self],
+                                                                                                                                                                   top       |->  top[self] ] >>
                                                                                                                                                                \o stack[self]]
-                                                                                                                       /\ pc' = [pc EXCEPT ![self] = "z_aw_poll"]
-                                                                                                                       /\ UNCHANGED << rv, 
+                                                                                                                          /\ top' = [top EXCEPT ![self] = bcur[self]]
+                                                                                                                          /\ tq' = [tq EXCEPT ![self] = O(bcur[self])]
+                                                                                                                       /\ pc' = [pc EXCEPT ![self] = "ts_decide"]
+                                                                                                                       /\ UNCHANGED << jkind, 
+                                                                                                                                       gfired, 
+                                                                                                                                       gwaker, 
+                                                                                                                                       parkTok, 
+                                                                                                                                       rv, 
+                                                                                                                                       h, 
+                                                                                                                                       sq, 
+                                                                                                                                       sj, 
+                                                                                                                                       ww, 
+                                                                                                                                       bw, 
+                                                                                                                                       af, 
                                                                                                                                        wf, 
                                                                                                                                        wop, 
                                                                                                                                        sf, 
                                                                                                                                        sctx, 
+                                                                                                                                       xf, 
                                                                                                                                        pf, 
                                                                                                                                        pctx, 
                                                                                                                                        pq, 
                                                                                                                                        pj, 
                                                                                                                                        pd >>
-                                                                                                                  ELSE /\ IF K(bcur[self]) = "poll"
-                                                                                                                             THEN /\ IF K(OpTab[bcur[self]].f) = "fsync"
-                                                                                                                                        THEN /\ /\ sctx' = [sctx EXCEPT ![self] = NoW]
-                                                                                                                                                /\ sf' = [sf EXCEPT ![self] = OpTab[bcur[self]].f]
-                                                                                                                                                /\ stack' = [stack EXCEPT ![self] = << [ procedure |->  "PollSync",
-                                                                                                                                                                                         pc        |->  "z_polled",
-                                                                                                                                                                                         sf        |->  sf[self],
-                                                                                                                                                                                         sctx      |->  sctx[self] ] >>
-                                                                                                                                                                                     \o stack[self]]
-                                                                                                                                             /\ pc' = [pc EXCEPT ![self] = "z_ps"]
-                                                                                                                                             /\ UNCHANGED << pf, 
-                                                                                                                                                             pctx, 
-                                                                                                                                                             pq, 
-                                                                                                                                                             pj, 
-                                                                                                                                                             pd >>
-                                                                                                                                        ELSE /\ /\ pctx' = [pctx EXCEPT ![self] = NoW]
-                                                                                                                                                /\ pf' = [pf EXCEPT ![self] = OpTab[bcur[self]].f]
-                                                                                                                                                /\ stack' = [stack EXCEPT ![self] = << [ procedure |->  "PollFuture",
-                                                                                                                                                                                         pc        |->  "z_polled",
-                                                                                                                                                                                         pq        |->  pq[self],
-                                                                                                                                                                                         pj        |->  pj[self],
-                                                                                                                                                                                         pd        |->  pd[self],
-                                                                                                                                                                                         pf        |->  pf[self],
-                                                                                                                                                                                         pctx      |->  pctx[self] ] >>
-                                                                                                                                                                                     \o stack[self]]
-                                                                                                                                             /\ pq' = [pq EXCEPT ![self] = 0]
-                                                                                                                                             /\ pj' = [pj EXCEPT ![self] = 0]
-                                                                                                                                             /\ pd' = [pd EXCEPT ![self] = 0]
-                                                                                                                                             /\ pc' = [pc EXCEPT ![self] = "pf_decide"]
-                                                                                                                                             /\ UNCHANGED << sf, 
-                                                                                                                                                             sctx >>
-                                                                                                                                  /\ UNCHANGED << rv, 
+                                                                                                                  ELSE /\ IF K(bcur[self]) \in {"fdesync", "after"}
+                                                                                                                             THEN /\ jkind' = [jkind EXCEPT ![bcur[self]] = "fut"]
+                                                                                                                                  /\ /\ sj' = [sj EXCEPT ![self] = bcur[self]]
+                                                                                                                                     /\ sq' = [sq EXCEPT ![self] = O(bcur[self])]
+                                                                                                                                     /\ stack' = [stack EXCEPT ![self] = << [ procedure |->  "ScheduleJob",
+                                                                                                                                                                              pc        |->  "z_then",
+                                                                                                                                                                              sq        |->  sq[self],
+                                                                                                                                                                              sj        |->  sj[self] ] >>
+                                                                                                                                                                          \o stack[self]]
+                                                                                                                                  /\ pc' = [pc EXCEPT ![self] = "sj_push"]
+                                                                                                                                  /\ UNCHANGED << gfired, 
+                                                                                                                                                  gwaker, 
+                                                                                                                                                  parkTok, 
+                                                                                                                                                  rv, 
+                                                                                                                                                  h, 
+                                                                                                                                                  ww, 
+                                                                                                                                                  bw, 
+                                                                                                                                                  af, 
                                                                                                                                                   wf, 
-                                                                                                                                                  wop >>
-                                                                                                                             ELSE /\ IF K(bcur[self]) = "wait_sync"
-                                                                                                                                        THEN /\ /\ stack' = [stack EXCEPT ![self] = << [ procedure |->  "WaitSync",
-                                                                                                                                                                                         pc        |->  "rb_step",
-                                                                                                                                                                                         wf        |->  wf[self],
-                                                                                                                                                                                         wop       |->  wop[self] ] >>
-                                                                                                                                                                                     \o stack[self]]
-                                                                                                                                                /\ wf' = [wf EXCEPT ![self] = OpTab[bcur[self]].f]
-                                                                                                                                                /\ wop' = [wop EXCEPT ![self] = bcur[self]]
-                                                                                                                                             /\ pc' = [pc EXCEPT ![self] = "fs_take"]
-                                                                                                                                             /\ rv' = rv
-                                                                                                                                        ELSE /\ IF K(bcur[self]) = "set_max"
-                                                                                                                                                   THEN /\ pc' = [pc EXCEPT ![self] = "mx_set"]
-                                                                                                                                                        /\ UNCHANGED << rv, 
-                                                                                                                                                                        stack >>
-                                                                                                                                                   ELSE /\ IF K(bcur[self]) = "despawn"
-                                                                                                                                                              THEN /\ stack' = [stack EXCEPT ![self] = << [ procedure |->  "Despawn",
-                                                                                                                                                                                                            pc        |->  "rb_step" ] >>
-                                                                                                                                                                                                        \o stack[self]]
-                                                                                                                                                                   /\ pc' = [pc EXCEPT ![self] = "ds_max"]
-                                                                                                                                                                   /\ rv' = rv
-                                                                                                                                                              ELSE /\ rv' = [rv EXCEPT ![self] = 0]
-                                                                                                                                                                   /\ pc' = [pc EXCEPT ![self] = "rb_step"]
-                                                                                                                                                                   /\ stack' = stack
-                                                                                                                                             /\ UNCHANGED << wf, 
-                                                                                                                                                             wop >>
-                                                                                                                                  /\ UNCHANGED << sf, 
+                                                                                                                                                  wop, 
+                                                                                                                                                  sf, 
                                                                                                                                                   sctx, 
+                                                                                                                                                  xf, 
                                                                                                                                                   pf, 
                                                                                                                                                   pctx, 
                                                                                                                                                   pq, 
                                                                                                                                                   pj, 
                                                                                                                                                   pd >>
-                                                                                                                       /\ af' = af
-                                                                                                            /\ UNCHANGED << gfired, 
-                                                                                                                            gwaker, 
-                                                                                                                            parkTok, 
-                                                                                                                            h, 
-                                                                                                                            ww, 
-                                                                                                                            bw >>
-                                                                                                 /\ xf' = xf
-                                                                                      /\ UNCHANGED << jkind, 
-                                                                                                      sq, 
-                                                                                                      sj >>
-                                                     /\ UNCHANGED << tq, top >>
-                                          /\ UNCHANGED << yq, yop >>
+                                                                                                                             ELSE /\ IF K(bcur[self]) = "suspend"
+                                                                                                                                        THEN /\ jkind' = [jkind EXCEPT ![bcur[self]] = "susp"]
+                                                                                                                                             /\ /\ sj' = [sj EXCEPT ![self] = bcur[self]]
+                                                                                                                                                /\ sq' = [sq EXCEPT ![self] = O(bcur[self])]
+                                                                                                                                                /\ stack' = [stack EXCEPT ![self] = << [ procedure |->  "ScheduleJob",
+                                                                                                                                                                                         pc        |->  "z_then",
+                                                                                                                                                                                         sq        |->  sq[self],
+                                                                                                                                                                                         sj        |->  sj[self] ] >>
+                                                                                                                                                                                     \o stack[self]]
+                                                                                                                                             /\ pc' = [pc EXCEPT ![self] = "sj_push"]
+                                                                                                                                             /\ UNCHANGED << gfired, 
+                                                                                                                                                             gwaker, 
+                                                                                                                                                             parkTok, 
+                                                                                                                                                             rv, 
+                                                                                                                                                             h, 
+                                                                                                                                                             ww, 
+                                                                                                                                                             bw, 
+                                                                                                                                                             af, 
+                                                                                                                                                             wf, 
+                                                                                                                                                             wop, 
+                                                                                                                                                             sf, 
+                                                                                                                                                             sctx, 
+                                                                                                                                                             xf, 
+                                                                                                                                                             pf, 
+                                                                                                                                                             pctx, 
+                                                                                                                                                             pq, 
+                                                                                                                                                             pj, 
+                                                                                                                                                             pd >>
+                                                                                                                                        ELSE /\ IF K(bcur[self]) = "fsync"
+                                                                                                                                                   THEN /\ jkind' = [jkind EXCEPT ![bcur[self]] = "slot"]
+                                                                                                                                                        /\ /\ sj' = [sj EXCEPT ![self] = bcur[self]]
+                                                                                                                                                           /\ sq' = [sq EXCEPT ![self] = O(bcur[self])]
+                                                                                                                                                           /\ stack' = [stack EXCEPT ![self] = << [ procedure |->  "ScheduleJob",
+                                                                                                                                                                                                    pc        |->  "z_then",
+                                                                                                                                                                                                    sq        |->  sq[self],
+                                                                                                                                                                                                    sj        |->  sj[self] ] >>
+                                                                                                                                                                                                \o stack[self]]
+                                                                                                                                                        /\ pc' = [pc EXCEPT ![self] = "sj_push"]
+                                                                                                                                                        /\ UNCHANGED << gfired, 
+                                                                                                                                                                        gwaker, 
+                                                                                                                                                                        parkTok, 
+                                                                                                                                                                        rv, 
+                                                                                                                                                                        h, 
+                                                                                                                                                                        ww, 
+                                                                                                                                                                        bw, 
+                                                                                                                                                                        af, 
+                                                                                                                                                                        wf, 
+                                                                                                                                                                        wop, 
+                                                                                                                                                                        sf, 
+                                                                                                                                                                        sctx, 
+                                                                                                                                                                        xf, 
+                                                                                                                                                                        pf, 
+                                                                                                                                                                        pctx, 
+                                                                                                                                                                        pq, 
+                                                                                                                                                                        pj, 
+                                                                                                                                                                        pd >>
+                                                                                                                                                   ELSE /\ IF K(bcur[self]) = "dropf"
+                                                                                                                                                              THEN /\ /\ stack' = [stack EXCEPT ![self] = << [ procedure |->  "DropFuture",
+                                                                                                                                                                                                               pc        |->  "rb_step",
+                                                                                                                                                                                                               xf        |->  xf[self] ] >>
+                                                                                                                                                                                                           \o stack[self]]
+                                                                                                                                                                      /\ xf' = [xf EXCEPT ![self] = OpTab[bcur[self]].f]
+                                                                                                                                                                   /\ pc' = [pc EXCEPT ![self] = "z_df"]
+                                                                                                                                                                   /\ UNCHANGED << gfired, 
+                                                                                                                                                                                   gwaker, 
+                                                                                                                                                                                   parkTok, 
+                                                                                                                                                                                   rv, 
+                                                                                                                                                                                   h, 
+                                                                                                                                                                                   ww, 
+                                                                                                                                                                                   bw, 
+                                                                                                                                                                                   af, 
+                                                                                                                                                                                   wf, 
+                                                                                                                                                                                   wop, 
+                                                                                                                                                                                   sf, 
+                                                                                                                                                                                   sctx, 
+                                                                                                                                                                                   pf, 
+                                                                                                                                                                                   pctx, 
+                                                                                                                                                                                   pq, 
+                                                                                                                                                                                   pj, 
+                                                                                                                                                                                   pd >>
+                                                                                                                                                              ELSE /\ IF K(bcur[self]) \in {"fire", "resume", "drop_resumer"}
+                                                                                                                                                                         THEN /\ h' = (IF K(bcur[self]) = "fire" THEN ObsFire(h, GateOfOp(bcur[self])) ELSE ObsResume(h, self, OpTab[bcur[self]].f))
+                                                                                                                                                                              /\ gfired' = (gfired \cup {GateOfOp(bcur[self])})
+                                                                                                                                                                              /\ bw' = [bw EXCEPT ![self] = gwaker[GateOfOp(bcur[self])]]
+                                                                                                                                                                              /\ parkTok' = Unpark(parkTok, gthreads[GateOfOp(bcur[self])] \cup TaskOf(gwaker[GateOfOp(bcur[self])]))
+                                                                                                                                                                              /\ gwaker' = [gwaker EXCEPT ![GateOfOp(bcur[self])] = NoW]
+                                                                                                                                                                              /\ rv' = [rv EXCEPT ![self] = 0]
+                                                                                                                                                                              /\ IF IsLocking(bw'[self])
+                                                                                                                                                                                    THEN /\ /\ stack' = [stack EXCEPT ![self] = << [ procedure |->  "Wake",
+                                                                                                                                                                                                                                     pc        |->  "rb_step",
+                                                                                                                                                                                                                                     ww        |->  ww[self] ] >>
+                                                                                                                                                                                                                                 \o stack[self]]
+                                                                                                                                                                                            /\ ww' = [ww EXCEPT ![self] = bw'[self]]
+                                                                                                                                                                                         /\ pc' = [pc EXCEPT ![self] = "wk_lock"]
+                                                                                                                                                                                    ELSE /\ pc' = [pc EXCEPT ![self] = "rb_step"]
+                                                                                                                                                                                         /\ UNCHANGED << stack, 
+                                                                                                                                                                                                         ww >>
+                                                                                                                                                                              /\ UNCHANGED << af, 
+                                                                                                                                                                                              wf, 
+                                                                                                                                                                                              wop, 
+                                                                                                                                                                                              sf, 
+                                                                                                                                                                                              sctx, 
+                                                                                                                                                                                              pf, 
+                                                                                                                                                                                              pctx, 
+                                                                                                                                                                                              pq, 
+                                                                                                                                                                                              pj, 
+                                                                                                                                                                                              pd >>
+                                                                                                                                                                         ELSE /\ IF K(bcur[self]) = "await"
+                                                                                                                                                                                    THEN /\ /\ af' = [af EXCEPT ![self] = OpTab[bcur[self]].f]
+                                                                                                                                                                                            /\ stack' = [stack EXCEPT ![self] = << [ procedure |->  "Await",
+                                                                                                                                                                                                                                     pc        |->  "rb_step",
+                                                                                                                                                                                                                                     af        |->  af[self] ] >>
+                                                                                                                                                                                                                                 \o stack[self]]
+                                                                                                                                                                                         /\ pc' = [pc EXCEPT ![self] = "z_aw_poll"]
+                                                                                                                                                                                         /\ UNCHANGED << rv, 
+                                                                                                                                                                                                         wf, 
+                                                                                                                                                                                                         wop, 
+                                                                                                                                                                                                         sf, 
+                                                                                                                                                                                                         sctx, 
+                                                                                                                                                                                                         pf, 
+                                                                                                                                                                                                         pctx, 
+                                                                                                                                                                                                         pq, 
+                                                                                                                                                                                                         pj, 
+                                                                                                                                                                                                         pd >>
+                                                                                                                                                                                    ELSE /\ IF K(bcur[self]) = "poll"
+                                                                                                                                                                                               THEN /\ IF K(OpTab[bcur[self]].f) = "fsync"
+                                                                                                                                                                                                          THEN /\ /\ sctx' = [sctx EXCEPT ![self] = NoW]
+                                                                                                                                                                                                                  /\ sf' = [sf EXCEPT ![self] = OpTab[bcur[self]].f]
+                                                                                                                                                                                                                  /\ stack' = [stack EXCEPT ![self] = << [ procedure |->  "PollSync",
+                                                                                                                                                                                                                                                           pc        |->  "z_polled",
+                                                                                                                                                                                                                                                           sf        |->  sf[self],
+                                                                                                                                                                                                                                                           sctx      |->  sctx[self] ] >>
+                                                                                                                                                                                                                                                       \o stack[self]]
+                                                                                                                                                                                                               /\ pc' = [pc EXCEPT ![self] = "z_ps"]
+                                                                                                                                                                                                               /\ UNCHANGED << pf, 
+                                                                                                                                                                                                                               pctx, 
+                                                                                                                                                                                                                               pq, 
+                                                                                                                                                                                                                               pj, 
+                                                                                                                                                                                                                               pd >>
+                                                                                                                                                                                                          ELSE /\ /\ pctx' = [pctx EXCEPT ![self] = NoW]
+                                                                                                                                                                                                                  /\ pf' = [pf EXCEPT ![self] = OpTab[bcur[self]].f]
+                                                                                                                                                                                                                  /\ stack' = [stack EXCEPT ![self] = << [ procedure |->  "PollFuture",
+                                                                                                                                                                                                                                                           pc        |->  "z_polled",
+                                                                                                                                                                                                                                                           pq        |->  pq[self],
+                                                                                                                                                                                                                                                           pj        |->  pj[self],
+                                                                                                                                                                                                                                                           pd        |->  pd[self],
+                                                                                                                                                                                                                                                           pf        |->  pf[self],
+                                                                                                                                                                                                                                                           pctx      |->  pctx[self] ] >>
+                                                                                                                                                                                                                                                       \o stack[self]]
+                                                                                                                                                                                                               /\ pq' = [pq EXCEPT ![self] = 0]
+                                                                                                                                                                                                               /\ pj' = [pj EXCEPT ![self] = 0]
+                                                                                                                                                                                                               /\ pd' = [pd EXCEPT ![self] = 0]
+                                                                                                                                                                                                               /\ pc' = [pc EXCEPT ![self] = "pf_decide"]
+                                                                                                                                                                                                               /\ UNCHANGED << sf, 
+                                                                                                                                                                                                                               sctx >>
+                                                                                                                                                                                                    /\ UNCHANGED << rv, 
+                                                                                                                                                                                                                    wf, 
+                                                                                                                                                                                                                    wop >>
+                                                                                                                                                                                               ELSE /\ IF K(bcur[self]) = "wait_sync"
+                                                                                                                                                                                                          THEN /\ /\ stack' = [stack EXCEPT ![self] = << [ procedure |->  "WaitSync",
+                                                                                                                                                                                                                                                           pc        |->  "rb_step",
+                                                                                                                                                                                                                                                           wf        |->  wf[self],
+                                                                                                                                                                                                                                                           wop       |->  wop[self] ] >>
+                                                                                                                                                                                                                                                       \o stack[self]]
+                                                                                                                                                                                                                  /\ wf' = [wf EXCEPT ![self] = OpTab[bcur[self]].f]
+                                                                                                                                                                                                                  /\ wop' = [wop EXCEPT ![self] = bcur[self]]
+                                                                                                                                                                                                               /\ pc' = [pc EXCEPT ![self] = "fs_take"]
+                                                                                                                                                                                                               /\ rv' = rv
+                                                                                                                                                                                                          ELSE /\ IF K(bcur[self]) = "set_max"
+                                                                                                                                                                                                                     THEN /\ pc' = [pc EXCEPT ![self] = "mx_set"]
+                                                                                                                                                                                                                          /\ UNCHANGED << rv, 
+                                                                                                                                                                                                                                          stack >>
+                                                                                                                                                                                                                     ELSE /\ IF K(bcur[self]) = "despawn"
+                                                                                                                                                                                                                                THEN /\ stack' = [stack EXCEPT ![self] = << [ procedure |->  "Despawn",
+                                                                                                                                                                                                                                                                              pc        |->  "rb_step" ] >>
+                                                                                                                                                                                                                                                                          \o stack[self]]
+                                                                                                                                                                                                                                     /\ pc' = [pc EXCEPT ![self] = "ds_max"]
+                                                                                                                                                                                                                                     /\ rv' = rv
+                                                                                                                                                                                                                                ELSE /\ rv' = [rv EXCEPT ![self] = 0]
+                                                                                                                                                                                                                                     /\ pc' = [pc EXCEPT ![self] = "rb_step"]
+                                                                                                                                                                                                                                     /\ stack' = stack
+                                                                                                                                                                                                               /\ UNCHANGED << wf, 
+                                                                                                                                                                                                                               wop >>
+                                                                                                                                                                                                    /\ UNCHANGED << sf, 
+                                                                                                                                                                                                                    sctx, 
+                                                                                                                                                                                                                    pf, 
+                                                                                                                                                                                                                    pctx, 
+                                                                                                                                                                                                                    pq, 
+                                                                                                                                                                                                                    pj, 
+                                                                                                                                                                                                                    pd >>
+                                                                                                                                                                                         /\ af' = af
+                                                                                                                                                                              /\ UNCHANGED << gfired, 
+                                                                                                                                                                                              gwaker, 
+                                                                                                                                                                                              parkTok, 
+                                                                                                                                                                                              h, 
+                                                                                                                                                                                              ww, 
+                                                                                                                                                                                              bw >>
+                                                                                                                                                                   /\ xf' = xf
+                                                                                                                                                        /\ UNCHANGED << jkind, 
+                                                                                                                                                                        sq, 
+                                                                                                                                                                        sj >>
+                                                                                                                       /\ UNCHANGED << tq, 
+                                                                                                                                       top >>
+                                                                                                 /\ dp' = dp
+                                                                                      /\ UNCHANGED << np, 
+                                                                                                      nbp >>
+                                                                           /\ UNCHANGED << inItems, 
+                                                                                           inClosed, 
+                                                                                           inWaker >>
+                                                                /\ cop' = cop
+                                                     /\ UNCHANGED << strong, 
+                                                                     yq, yop >>
                     /\ UNCHANGED << qstate, qpoll, jobs, wakeBlocked, schedule, 
                                     pthreads, nspawned, palive, busy, 
                                     busyLocked, inbox, chanOpen, pfin, thrHeld, 
@@ -1747,9 +2412,12 @@ z_dispatch(self) == /\ pc[self] = "z_dispatch"
                                     dwSt, dwW, dblTaken, dblW1, dblW2, nextDW, 
                                     ready, cwait, cnotif, cvHeld, sdres, 
                                     jpanic, sfst, slotSt, qrSent, qrWaker, 
-                                    dnState, dnWaker, rwb, rneed, dsl, dead, 
-                                    sti, rq, rsq, bown, bwk, bi, bcur, jq, jj, 
-                                    jwk, fj, dq, dj, oq, oop, omode, oj, nq >>
+                                    dnState, dnWaker, rwb, rneed, dsl, atomic, 
+                                    ppPending, ppClosed, ppNotify, ppNC, ppBP, 
+                                    ppDepth, ppAlive, ppHeld, pollFn, chuteFn, 
+                                    pwTaken, nextPoll, ppItem, dead, sti, rq, 
+                                    rsq, bown, bwk, bi, bcur, jq, jj, jwk, fj, 
+                                    dq, dj, oq, oop, omode, oj, kj, pp, nq >>
 
 z_then(self) == /\ pc[self] = "z_then"
                 /\ IF rv[self] = 0 /\ OpTab[bcur[self]].then = "await"
@@ -1777,11 +2445,15 @@ z_then(self) == /\ pc[self] = "z_then"
                                 gthreads, dwSt, dwW, dblTaken, dblW1, dblW2, 
                                 nextDW, ready, cwait, cnotif, cvHeld, sdres, 
                                 jpanic, sfst, slotSt, qrSent, qrWaker, dnState, 
-                                dnWaker, parkTok, rv, rwb, rneed, dsl, h, dead, 
-                                sti, rq, sq, sj, ww, rsq, bown, bwk, bi, bcur, 
-                                bw, jq, jj, jwk, fj, dq, dj, oq, oop, omode, 
-                                oj, yq, yop, tq, top, wf, wop, sf, sctx, pf, 
-                                pctx, pq, pj, pd, nq >>
+                                dnWaker, parkTok, rv, rwb, rneed, dsl, atomic, 
+                                strong, ppPending, ppClosed, ppNotify, ppNC, 
+                                ppBP, ppDepth, ppAlive, ppHeld, inItems, 
+                                inClosed, inWaker, pollFn, chuteFn, pwTaken, 
+                                nextPoll, ppItem, h, dead, sti, rq, sq, sj, ww, 
+                                rsq, bown, bwk, bi, bcur, bw, jq, jj, jwk, fj, 
+                                dq, dj, oq, oop, omode, oj, yq, yop, tq, top, 
+                                wf, wop, sf, sctx, cop, kj, pp, np, nbp, dp, 
+                                pf, pctx, pq, pj, pd, nq >>
 
 z_polled(self) == /\ pc[self] = "z_polled"
                   /\ IF rv[self] \in {0, 3, 4}
@@ -1797,11 +2469,38 @@ z_polled(self) == /\ pc[self] = "z_polled"
                                   nextDW, ready, cwait, cnotif, cvHeld, sdres, 
                                   jpanic, sfst, slotSt, qrSent, qrWaker, 
                                   dnState, dnWaker, parkTok, rv, rwb, rneed, 
-                                  dsl, stack, dead, sti, rq, sq, sj, ww, rsq, 
-                                  bown, bwk, bi, bcur, bw, jq, jj, jwk, fj, dq, 
-                                  dj, oq, oop, omode, oj, yq, yop, tq, top, af, 
-                                  wf, wop, sf, sctx, xf, pf, pctx, pq, pj, pd, 
-                                  nq >>
+                                  dsl, atomic, strong, ppPending, ppClosed, 
+                                  ppNotify, ppNC, ppBP, ppDepth, ppAlive, 
+                                  ppHeld, inItems, inClosed, inWaker, pollFn, 
+                                  chuteFn, pwTaken, nextPoll, ppItem, stack, 
+                                  dead, sti, rq, sq, sj, ww, rsq, bown, bwk, 
+                                  bi, bcur, bw, jq, jj, jwk, fj, dq, dj, oq, 
+                                  oop, omode, oj, yq, yop, tq, top, af, wf, 
+                                  wop, sf, sctx, xf, cop, kj, pp, np, nbp, dp, 
+                                  pf, pctx, pq, pj, pd, nq >>
+
+pp_setdepth(self) == /\ pc[self] = "pp_setdepth"
+                     /\ ppDepth' = [ppDepth EXCEPT ![OpTab[bcur[self]].p] = OpTab[bcur[self]].n]
+                     /\ rv' = [rv EXCEPT ![self] = 0]
+                     /\ pc' = [pc EXCEPT ![self] = "rb_step"]
+                     /\ UNCHANGED << qstate, qpoll, jobs, wakeBlocked, 
+                                     schedule, pthreads, nspawned, palive, 
+                                     busy, busyLocked, inbox, chanOpen, pfin, 
+                                     thrHeld, maxThreads, jkind, jaw, fres, 
+                                     fwaker, gfired, gwaker, gthreads, dwSt, 
+                                     dwW, dblTaken, dblW1, dblW2, nextDW, 
+                                     ready, cwait, cnotif, cvHeld, sdres, 
+                                     jpanic, sfst, slotSt, qrSent, qrWaker, 
+                                     dnState, dnWaker, parkTok, rwb, rneed, 
+                                     dsl, atomic, strong, ppPending, ppClosed, 
+                                     ppNotify, ppNC, ppBP, ppAlive, ppHeld, 
+                                     inItems, inClosed, inWaker, pollFn, 
+                                     chuteFn, pwTaken, nextPoll, ppItem, h, 
+                                     stack, dead, sti, rq, sq, sj, ww, rsq, 
+                                     bown, bwk, bi, bcur, bw, jq, jj, jwk, fj, 
+                                     dq, dj, oq, oop, omode, oj, yq, yop, tq, 
+                                     top, af, wf, wop, sf, sctx, xf, cop, kj, 
+                                     pp, np, nbp, dp, pf, pctx, pq, pj, pd, nq >>
 
 mx_set(self) == /\ pc[self] = "mx_set"
                 /\ maxThreads' = OpTab[bcur[self]].n
@@ -1815,15 +2514,19 @@ mx_set(self) == /\ pc[self] = "mx_set"
                                 dwW, dblTaken, dblW1, dblW2, nextDW, ready, 
                                 cwait, cnotif, cvHeld, sdres, jpanic, sfst, 
                                 slotSt, qrSent, qrWaker, dnState, dnWaker, 
-                                parkTok, rwb, rneed, dsl, stack, dead, sti, rq, 
-                                sq, sj, ww, rsq, bown, bwk, bi, bcur, bw, jq, 
-                                jj, jwk, fj, dq, dj, oq, oop, omode, oj, yq, 
-                                yop, tq, top, af, wf, wop, sf, sctx, xf, pf, 
-                                pctx, pq, pj, pd, nq >>
+                                parkTok, rwb, rneed, dsl, atomic, strong, 
+                                ppPending, ppClosed, ppNotify, ppNC, ppBP, 
+                                ppDepth, ppAlive, ppHeld, inItems, inClosed, 
+                                inWaker, pollFn, chuteFn, pwTaken, nextPoll, 
+                                ppItem, stack, dead, sti, rq, sq, sj, ww, rsq, 
+                                bown, bwk, bi, bcur, bw, jq, jj, jwk, fj, dq, 
+                                dj, oq, oop, omode, oj, yq, yop, tq, top, af, 
+                                wf, wop, sf, sctx, xf, cop, kj, pp, np, nbp, 
+                                dp, pf, pctx, pq, pj, pd, nq >>
 
 RunOps(self) == rb_step(self) \/ z_finish(self) \/ rb_block(self)
                    \/ z_dispatch(self) \/ z_then(self) \/ z_polled(self)
-                   \/ mx_set(self)
+                   \/ pp_setdepth(self) \/ mx_set(self)
 
 z_rj(self) == /\ pc[self] = "z_rj"
               /\ IF K(jj[self]) \in {"desync", "sync", "try_sync"}
@@ -1845,7 +2548,8 @@ z_rj(self) == /\ pc[self] = "z_rj"
                          /\ bw' = [bw EXCEPT ![self] = NoW]
                          /\ pc' = [pc EXCEPT ![self] = "rb_step"]
                          /\ UNCHANGED << gwaker, sdres, slotSt, qrSent, 
-                                         parkTok, rv, ww, jq, jj, jwk >>
+                                         parkTok, rv, strong, chuteFn, ww, jq, 
+                                         jj, jwk, yq, yop, kj, pp >>
                     ELSE /\ IF K(jj[self]) = "fdesync"
                                THEN /\ IF jaw[jj[self]] = 0
                                           THEN /\ h' = ObsStart(h, self, jj[self])
@@ -1904,7 +2608,8 @@ z_rj(self) == /\ pc[self] = "z_rj"
                                                                           bw >>
                                                /\ h' = h
                                     /\ UNCHANGED << sdres, slotSt, qrSent, 
-                                                    parkTok, ww >>
+                                                    parkTok, strong, chuteFn, 
+                                                    ww, yq, yop, kj, pp >>
                                ELSE /\ IF K(jj[self]) = "after"
                                           THEN /\ IF OpTab[jj[self]].g \in gfired
                                                      THEN /\ h' = ObsStart(h, self, jj[self])
@@ -1945,10 +2650,11 @@ z_rj(self) == /\ pc[self] = "z_rj"
                                                                           bw >>
                                                /\ UNCHANGED << sdres, slotSt, 
                                                                qrSent, parkTok, 
-                                                               ww >>
-                                          ELSE /\ IF K(jj[self]) = "drop_obj"
-                                                     THEN /\ h' = ObsFreed(h, O(jj[self]))
-                                                          /\ IF jkind[jj[self]] = "syncdrain"
+                                                               strong, chuteFn, 
+                                                               ww, yq, yop, kj, 
+                                                               pp >>
+                                          ELSE /\ IF K(jj[self]) \in {"pipe", "pipe_in"}
+                                                     THEN /\ IF jkind[jj[self]] = "syncdrain"
                                                                 THEN /\ sdres' = [sdres EXCEPT ![jj[self]] = TRUE]
                                                                 ELSE /\ TRUE
                                                                      /\ sdres' = sdres
@@ -1962,75 +2668,181 @@ z_rj(self) == /\ pc[self] = "z_rj"
                                                                           slotSt, 
                                                                           qrSent, 
                                                                           parkTok, 
-                                                                          ww >>
-                                                     ELSE /\ IF K(jj[self]) = "wait_sync"
-                                                                THEN /\ pc' = [pc EXCEPT ![self] = "ws_take"]
+                                                                          strong, 
+                                                                          chuteFn, 
+                                                                          h, 
+                                                                          ww, 
+                                                                          yq, 
+                                                                          yop, 
+                                                                          kj, 
+                                                                          pp >>
+                                                     ELSE /\ IF K(jj[self]) = "pipepoll"
+                                                                THEN /\ /\ kj' = [kj EXCEPT ![self] = jj[self]]
+                                                                        /\ pp' = [pp EXCEPT ![self] = OpTab[jj[self]].p]
+                                                                        /\ stack' = [stack EXCEPT ![self] = << [ procedure |->  "PipePoll",
+                                                                                                                 pc        |->  "z_pp_gc",
+                                                                                                                 kj        |->  kj[self],
+                                                                                                                 pp        |->  pp[self] ] >>
+                                                                                                             \o stack[self]]
+                                                                     /\ pc' = [pc EXCEPT ![self] = "pp_fn"]
                                                                      /\ UNCHANGED << gwaker, 
+                                                                                     sdres, 
                                                                                      slotSt, 
                                                                                      qrSent, 
                                                                                      parkTok, 
                                                                                      rv, 
-                                                                                     stack, 
+                                                                                     strong, 
+                                                                                     chuteFn, 
+                                                                                     h, 
                                                                                      ww, 
                                                                                      jq, 
                                                                                      jj, 
-                                                                                     jwk >>
-                                                                ELSE /\ IF K(jj[self]) = "fsync"
-                                                                           THEN /\ IF slotSt[jj[self]] = 0
-                                                                                      THEN /\ slotSt' = [slotSt EXCEPT ![jj[self]] = 1]
-                                                                                           /\ qrSent' = [qrSent EXCEPT ![jj[self]] = TRUE]
-                                                                                           /\ IF IsLocking(qrWaker[jj[self]])
-                                                                                                 THEN /\ /\ stack' = [stack EXCEPT ![self] = << [ procedure |->  "Wake",
-                                                                                                                                                  pc        |->  "z_slot2",
-                                                                                                                                                  ww        |->  ww[self] ] >>
-                                                                                                                                              \o stack[self]]
-                                                                                                         /\ ww' = [ww EXCEPT ![self] = qrWaker[jj[self]]]
-                                                                                                      /\ pc' = [pc EXCEPT ![self] = "wk_lock"]
-                                                                                                      /\ UNCHANGED parkTok
-                                                                                                 ELSE /\ parkTok' = Unpark(parkTok, TaskOf(qrWaker[jj[self]]))
-                                                                                                      /\ pc' = [pc EXCEPT ![self] = "z_slot2"]
-                                                                                                      /\ UNCHANGED << stack, 
-                                                                                                                      ww >>
-                                                                                      ELSE /\ pc' = [pc EXCEPT ![self] = "z_slot2"]
-                                                                                           /\ UNCHANGED << slotSt, 
-                                                                                                           qrSent, 
-                                                                                                           parkTok, 
-                                                                                                           stack, 
-                                                                                                           ww >>
+                                                                                     jwk, 
+                                                                                     yq, 
+                                                                                     yop >>
+                                                                ELSE /\ IF K(jj[self]) = "chute_dropfn"
+                                                                           THEN /\ IF chuteFn[OpTab[jj[self]].p]
+                                                                                      THEN /\ h' = PFlag(PFlag(h, OpTab[jj[self]].p, "in_dropped"), OpTab[jj[self]].p, "closure_dropped")
+                                                                                           /\ chuteFn' = [chuteFn EXCEPT ![OpTab[jj[self]].p] = FALSE]
+                                                                                      ELSE /\ TRUE
+                                                                                           /\ UNCHANGED << chuteFn, 
+                                                                                                           h >>
+                                                                                /\ rv' = [rv EXCEPT ![self] = 0]
+                                                                                /\ pc' = [pc EXCEPT ![self] = Head(stack[self]).pc]
+                                                                                /\ jq' = [jq EXCEPT ![self] = Head(stack[self]).jq]
+                                                                                /\ jj' = [jj EXCEPT ![self] = Head(stack[self]).jj]
+                                                                                /\ jwk' = [jwk EXCEPT ![self] = Head(stack[self]).jwk]
+                                                                                /\ stack' = [stack EXCEPT ![self] = Tail(stack[self])]
                                                                                 /\ UNCHANGED << gwaker, 
-                                                                                                rv, 
-                                                                                                jq, 
-                                                                                                jj, 
-                                                                                                jwk >>
-                                                                           ELSE /\ IF jaw[jj[self]] = 0
-                                                                                      THEN /\ pc' = [pc EXCEPT ![self] = "sus_signal"]
-                                                                                           /\ UNCHANGED << gwaker, 
-                                                                                                           rv, 
-                                                                                                           stack, 
-                                                                                                           jq, 
-                                                                                                           jj, 
-                                                                                                           jwk >>
-                                                                                      ELSE /\ IF OpTab[jj[self]].g \in gfired
-                                                                                                 THEN /\ pc' = [pc EXCEPT ![self] = "sus_inner"]
-                                                                                                      /\ UNCHANGED << gwaker, 
-                                                                                                                      rv, 
-                                                                                                                      stack, 
+                                                                                                sdres, 
+                                                                                                slotSt, 
+                                                                                                qrSent, 
+                                                                                                parkTok, 
+                                                                                                strong, 
+                                                                                                ww, 
+                                                                                                yq, 
+                                                                                                yop >>
+                                                                           ELSE /\ IF K(jj[self]) = "chute_release"
+                                                                                      THEN /\ strong' = [strong EXCEPT ![O(PipeOp(OpTab[jj[self]].p))] = strong[O(PipeOp(OpTab[jj[self]].p))] - 1]
+                                                                                           /\ IF strong'[O(PipeOp(OpTab[jj[self]].p))] = 1 - 1
+                                                                                                 THEN /\ /\ stack' = [stack EXCEPT ![self] = << [ procedure |->  "Sync",
+                                                                                                                                                  pc        |->  "z_rj_ok",
+                                                                                                                                                  yq        |->  yq[self],
+                                                                                                                                                  yop       |->  yop[self] ] >>
+                                                                                                                                              \o stack[self]]
+                                                                                                         /\ yop' = [yop EXCEPT ![self] = ChuteJob(OpTab[jj[self]].p, "pipe_free")]
+                                                                                                         /\ yq' = [yq EXCEPT ![self] = O(PipeOp(OpTab[jj[self]].p))]
+                                                                                                      /\ pc' = [pc EXCEPT ![self] = "sy_decide"]
+                                                                                                      /\ UNCHANGED << rv, 
                                                                                                                       jq, 
                                                                                                                       jj, 
                                                                                                                       jwk >>
-                                                                                                 ELSE /\ gwaker' = [gwaker EXCEPT ![OpTab[jj[self]].g] = jwk[self]]
-                                                                                                      /\ rv' = [rv EXCEPT ![self] = 5]
+                                                                                                 ELSE /\ rv' = [rv EXCEPT ![self] = 0]
                                                                                                       /\ pc' = [pc EXCEPT ![self] = Head(stack[self]).pc]
                                                                                                       /\ jq' = [jq EXCEPT ![self] = Head(stack[self]).jq]
                                                                                                       /\ jj' = [jj EXCEPT ![self] = Head(stack[self]).jj]
                                                                                                       /\ jwk' = [jwk EXCEPT ![self] = Head(stack[self]).jwk]
                                                                                                       /\ stack' = [stack EXCEPT ![self] = Tail(stack[self])]
-                                                                                /\ UNCHANGED << slotSt, 
-                                                                                                qrSent, 
-                                                                                                parkTok, 
-                                                                                                ww >>
-                                                          /\ UNCHANGED << sdres, 
-                                                                          h >>
+                                                                                                      /\ UNCHANGED << yq, 
+                                                                                                                      yop >>
+                                                                                           /\ UNCHANGED << gwaker, 
+                                                                                                           sdres, 
+                                                                                                           slotSt, 
+                                                                                                           qrSent, 
+                                                                                                           parkTok, 
+                                                                                                           h, 
+                                                                                                           ww >>
+                                                                                      ELSE /\ IF K(jj[self]) \in {"drop_obj", "pipe_free"}
+                                                                                                 THEN /\ h' = ObsFreed(h, O(jj[self]))
+                                                                                                      /\ IF jkind[jj[self]] = "syncdrain"
+                                                                                                            THEN /\ sdres' = [sdres EXCEPT ![jj[self]] = TRUE]
+                                                                                                            ELSE /\ TRUE
+                                                                                                                 /\ sdres' = sdres
+                                                                                                      /\ rv' = [rv EXCEPT ![self] = 0]
+                                                                                                      /\ pc' = [pc EXCEPT ![self] = Head(stack[self]).pc]
+                                                                                                      /\ jq' = [jq EXCEPT ![self] = Head(stack[self]).jq]
+                                                                                                      /\ jj' = [jj EXCEPT ![self] = Head(stack[self]).jj]
+                                                                                                      /\ jwk' = [jwk EXCEPT ![self] = Head(stack[self]).jwk]
+                                                                                                      /\ stack' = [stack EXCEPT ![self] = Tail(stack[self])]
+                                                                                                      /\ UNCHANGED << gwaker, 
+                                                                                                                      slotSt, 
+                                                                                                                      qrSent, 
+                                                                                                                      parkTok, 
+                                                                                                                      ww >>
+                                                                                                 ELSE /\ IF K(jj[self]) = "wait_sync"
+                                                                                                            THEN /\ pc' = [pc EXCEPT ![self] = "ws_take"]
+                                                                                                                 /\ UNCHANGED << gwaker, 
+                                                                                                                                 slotSt, 
+                                                                                                                                 qrSent, 
+                                                                                                                                 parkTok, 
+                                                                                                                                 rv, 
+                                                                                                                                 stack, 
+                                                                                                                                 ww, 
+                                                                                                                                 jq, 
+                                                                                                                                 jj, 
+                                                                                                                                 jwk >>
+                                                                                                            ELSE /\ IF K(jj[self]) = "fsync"
+                                                                                                                       THEN /\ IF slotSt[jj[self]] = 0
+                                                                                                                                  THEN /\ slotSt' = [slotSt EXCEPT ![jj[self]] = 1]
+                                                                                                                                       /\ qrSent' = [qrSent EXCEPT ![jj[self]] = TRUE]
+                                                                                                                                       /\ IF IsLocking(qrWaker[jj[self]])
+                                                                                                                                             THEN /\ /\ stack' = [stack EXCEPT ![self] = << [ procedure |->  "Wake",
+                                                                                                                                                                                              pc        |->  "z_slot2",
+                                                                                                                                                                                              ww        |->  ww[self] ] >>
+                                                                                                                                                                                          \o stack[self]]
+                                                                                                                                                     /\ ww' = [ww EXCEPT ![self] = qrWaker[jj[self]]]
+                                                                                                                                                  /\ pc' = [pc EXCEPT ![self] = "wk_lock"]
+                                                                                                                                                  /\ UNCHANGED parkTok
+                                                                                                                                             ELSE /\ parkTok' = Unpark(parkTok, TaskOf(qrWaker[jj[self]]))
+                                                                                                                                                  /\ pc' = [pc EXCEPT ![self] = "z_slot2"]
+                                                                                                                                                  /\ UNCHANGED << stack, 
+                                                                                                                                                                  ww >>
+                                                                                                                                  ELSE /\ pc' = [pc EXCEPT ![self] = "z_slot2"]
+                                                                                                                                       /\ UNCHANGED << slotSt, 
+                                                                                                                                                       qrSent, 
+                                                                                                                                                       parkTok, 
+                                                                                                                                                       stack, 
+                                                                                                                                                       ww >>
+                                                                                                                            /\ UNCHANGED << gwaker, 
+                                                                                                                                            rv, 
+                                                                                                                                            jq, 
+                                                                                                                                            jj, 
+                                                                                                                                            jwk >>
+                                                                                                                       ELSE /\ IF jaw[jj[self]] = 0
+                                                                                                                                  THEN /\ pc' = [pc EXCEPT ![self] = "sus_signal"]
+                                                                                                                                       /\ UNCHANGED << gwaker, 
+                                                                                                                                                       rv, 
+                                                                                                                                                       stack, 
+                                                                                                                                                       jq, 
+                                                                                                                                                       jj, 
+                                                                                                                                                       jwk >>
+                                                                                                                                  ELSE /\ IF OpTab[jj[self]].g \in gfired
+                                                                                                                                             THEN /\ pc' = [pc EXCEPT ![self] = "sus_inner"]
+                                                                                                                                                  /\ UNCHANGED << gwaker, 
+                                                                                                                                                                  rv, 
+                                                                                                                                                                  stack, 
+                                                                                                                                                                  jq, 
+                                                                                                                                                                  jj, 
+                                                                                                                                                                  jwk >>
+                                                                                                                                             ELSE /\ gwaker' = [gwaker EXCEPT ![OpTab[jj[self]].g] = jwk[self]]
+                                                                                                                                                  /\ rv' = [rv EXCEPT ![self] = 5]
+                                                                                                                                                  /\ pc' = [pc EXCEPT ![self] = Head(stack[self]).pc]
+                                                                                                                                                  /\ jq' = [jq EXCEPT ![self] = Head(stack[self]).jq]
+                                                                                                                                                  /\ jj' = [jj EXCEPT ![self] = Head(stack[self]).jj]
+                                                                                                                                                  /\ jwk' = [jwk EXCEPT ![self] = Head(stack[self]).jwk]
+                                                                                                                                                  /\ stack' = [stack EXCEPT ![self] = Tail(stack[self])]
+                                                                                                                            /\ UNCHANGED << slotSt, 
+                                                                                                                                            qrSent, 
+                                                                                                                                            parkTok, 
+                                                                                                                                            ww >>
+                                                                                                      /\ UNCHANGED << sdres, 
+                                                                                                                      h >>
+                                                                                           /\ UNCHANGED << strong, 
+                                                                                                           yq, 
+                                                                                                           yop >>
+                                                                                /\ UNCHANGED chuteFn
+                                                                     /\ UNCHANGED << kj, 
+                                                                                     pp >>
                                                /\ UNCHANGED << rsq, bown, bwk, 
                                                                bi, bcur, bw >>
               /\ UNCHANGED << qstate, qpoll, jobs, wakeBlocked, schedule, 
@@ -2039,10 +2851,13 @@ z_rj(self) == /\ pc[self] = "z_rj"
                               jkind, jaw, fres, fwaker, gfired, gthreads, dwSt, 
                               dwW, dblTaken, dblW1, dblW2, nextDW, ready, 
                               cwait, cnotif, cvHeld, jpanic, sfst, qrWaker, 
-                              dnState, dnWaker, rwb, rneed, dsl, dead, sti, rq, 
-                              sq, sj, fj, dq, dj, oq, oop, omode, oj, yq, yop, 
-                              tq, top, af, wf, wop, sf, sctx, xf, pf, pctx, pq, 
-                              pj, pd, nq >>
+                              dnState, dnWaker, rwb, rneed, dsl, atomic, 
+                              ppPending, ppClosed, ppNotify, ppNC, ppBP, 
+                              ppDepth, ppAlive, ppHeld, inItems, inClosed, 
+                              inWaker, pollFn, pwTaken, nextPoll, ppItem, dead, 
+                              sti, rq, sq, sj, fj, dq, dj, oq, oop, omode, oj, 
+                              tq, top, af, wf, wop, sf, sctx, xf, cop, np, nbp, 
+                              dp, pf, pctx, pq, pj, pd, nq >>
 
 z_rj_ret(self) == /\ pc[self] = "z_rj_ret"
                   /\ pc' = [pc EXCEPT ![self] = Head(stack[self]).pc]
@@ -2058,10 +2873,69 @@ z_rj_ret(self) == /\ pc[self] = "z_rj_ret"
                                   nextDW, ready, cwait, cnotif, cvHeld, sdres, 
                                   jpanic, sfst, slotSt, qrSent, qrWaker, 
                                   dnState, dnWaker, parkTok, rv, rwb, rneed, 
-                                  dsl, h, dead, sti, rq, sq, sj, ww, rsq, bown, 
-                                  bwk, bi, bcur, bw, fj, dq, dj, oq, oop, 
-                                  omode, oj, yq, yop, tq, top, af, wf, wop, sf, 
-                                  sctx, xf, pf, pctx, pq, pj, pd, nq >>
+                                  dsl, atomic, strong, ppPending, ppClosed, 
+                                  ppNotify, ppNC, ppBP, ppDepth, ppAlive, 
+                                  ppHeld, inItems, inClosed, inWaker, pollFn, 
+                                  chuteFn, pwTaken, nextPoll, ppItem, h, dead, 
+                                  sti, rq, sq, sj, ww, rsq, bown, bwk, bi, 
+                                  bcur, bw, fj, dq, dj, oq, oop, omode, oj, yq, 
+                                  yop, tq, top, af, wf, wop, sf, sctx, xf, cop, 
+                                  kj, pp, np, nbp, dp, pf, pctx, pq, pj, pd, 
+                                  nq >>
+
+z_rj_ok(self) == /\ pc[self] = "z_rj_ok"
+                 /\ rv' = [rv EXCEPT ![self] = 0]
+                 /\ pc' = [pc EXCEPT ![self] = Head(stack[self]).pc]
+                 /\ jq' = [jq EXCEPT ![self] = Head(stack[self]).jq]
+                 /\ jj' = [jj EXCEPT ![self] = Head(stack[self]).jj]
+                 /\ jwk' = [jwk EXCEPT ![self] = Head(stack[self]).jwk]
+                 /\ stack' = [stack EXCEPT ![self] = Tail(stack[self])]
+                 /\ UNCHANGED << qstate, qpoll, jobs, wakeBlocked, schedule, 
+                                 pthreads, nspawned, palive, busy, busyLocked, 
+                                 inbox, chanOpen, pfin, thrHeld, maxThreads, 
+                                 jkind, jaw, fres, fwaker, gfired, gwaker, 
+                                 gthreads, dwSt, dwW, dblTaken, dblW1, dblW2, 
+                                 nextDW, ready, cwait, cnotif, cvHeld, sdres, 
+                                 jpanic, sfst, slotSt, qrSent, qrWaker, 
+                                 dnState, dnWaker, parkTok, rwb, rneed, dsl, 
+                                 atomic, strong, ppPending, ppClosed, ppNotify, 
+                                 ppNC, ppBP, ppDepth, ppAlive, ppHeld, inItems, 
+                                 inClosed, inWaker, pollFn, chuteFn, pwTaken, 
+                                 nextPoll, ppItem, h, dead, sti, rq, sq, sj, 
+                                 ww, rsq, bown, bwk, bi, bcur, bw, fj, dq, dj, 
+                                 oq, oop, omode, oj, yq, yop, tq, top, af, wf, 
+                                 wop, sf, sctx, xf, cop, kj, pp, np, nbp, dp, 
+                                 pf, pctx, pq, pj, pd, nq >>
+
+z_pp_gc(self) == /\ pc[self] = "z_pp_gc"
+                 /\ IF pollFn[OpTab[jj[self]].p] /\ rv[self] = 0 /\ ~(\/ HoldsCtx(inWaker[OpTab[jj[self]].p])
+                                                                      \/ (CoreAlive(OpTab[jj[self]].p) /\ (HoldsCtx(ppNC[OpTab[jj[self]].p]) \/ HoldsCtx(ppBP[OpTab[jj[self]].p])))
+                                                                      \/ \E j \in PollJobs(OpTab[jj[self]].p) \ {jj[self]} : jkind[j] = "fut" /\ fres[j] = "none")
+                       THEN /\ pollFn' = [pollFn EXCEPT ![OpTab[jj[self]].p] = FALSE]
+                            /\ h' = PFlag(PFlag(h, OpTab[jj[self]].p, "in_dropped"), OpTab[jj[self]].p, "closure_dropped")
+                       ELSE /\ TRUE
+                            /\ UNCHANGED << pollFn, h >>
+                 /\ pc' = [pc EXCEPT ![self] = Head(stack[self]).pc]
+                 /\ jq' = [jq EXCEPT ![self] = Head(stack[self]).jq]
+                 /\ jj' = [jj EXCEPT ![self] = Head(stack[self]).jj]
+                 /\ jwk' = [jwk EXCEPT ![self] = Head(stack[self]).jwk]
+                 /\ stack' = [stack EXCEPT ![self] = Tail(stack[self])]
+                 /\ UNCHANGED << qstate, qpoll, jobs, wakeBlocked, schedule, 
+                                 pthreads, nspawned, palive, busy, busyLocked, 
+                                 inbox, chanOpen, pfin, thrHeld, maxThreads, 
+                                 jkind, jaw, fres, fwaker, gfired, gwaker, 
+                                 gthreads, dwSt, dwW, dblTaken, dblW1, dblW2, 
+                                 nextDW, ready, cwait, cnotif, cvHeld, sdres, 
+                                 jpanic, sfst, slotSt, qrSent, qrWaker, 
+                                 dnState, dnWaker, parkTok, rv, rwb, rneed, 
+                                 dsl, atomic, strong, ppPending, ppClosed, 
+                                 ppNotify, ppNC, ppBP, ppDepth, ppAlive, 
+                                 ppHeld, inItems, inClosed, inWaker, chuteFn, 
+                                 pwTaken, nextPoll, ppItem, dead, sti, rq, sq, 
+                                 sj, ww, rsq, bown, bwk, bi, bcur, bw, fj, dq, 
+                                 dj, oq, oop, omode, oj, yq, yop, tq, top, af, 
+                                 wf, wop, sf, sctx, xf, cop, kj, pp, np, nbp, 
+                                 dp, pf, pctx, pq, pj, pd, nq >>
 
 z_slot2(self) == /\ pc[self] = "z_slot2"
                  /\ IF dnState[jj[self]] # "open"
@@ -2086,11 +2960,15 @@ z_slot2(self) == /\ pc[self] = "z_slot2"
                                  gthreads, dwSt, dwW, dblTaken, dblW1, dblW2, 
                                  nextDW, ready, cwait, cnotif, cvHeld, sdres, 
                                  jpanic, sfst, slotSt, qrSent, qrWaker, 
-                                 dnState, parkTok, rwb, rneed, dsl, h, dead, 
-                                 sti, rq, sq, sj, ww, rsq, bown, bwk, bi, bcur, 
-                                 bw, fj, dq, dj, oq, oop, omode, oj, yq, yop, 
-                                 tq, top, af, wf, wop, sf, sctx, xf, pf, pctx, 
-                                 pq, pj, pd, nq >>
+                                 dnState, parkTok, rwb, rneed, dsl, atomic, 
+                                 strong, ppPending, ppClosed, ppNotify, ppNC, 
+                                 ppBP, ppDepth, ppAlive, ppHeld, inItems, 
+                                 inClosed, inWaker, pollFn, chuteFn, pwTaken, 
+                                 nextPoll, ppItem, h, dead, sti, rq, sq, sj, 
+                                 ww, rsq, bown, bwk, bi, bcur, bw, fj, dq, dj, 
+                                 oq, oop, omode, oj, yq, yop, tq, top, af, wf, 
+                                 wop, sf, sctx, xf, cop, kj, pp, np, nbp, dp, 
+                                 pf, pctx, pq, pj, pd, nq >>
 
 sus_signal(self) == /\ pc[self] = "sus_signal"
                     /\ LET w == fwaker[jj[self]] IN
@@ -2115,11 +2993,16 @@ sus_signal(self) == /\ pc[self] = "sus_signal"
                                     dblW2, nextDW, ready, cwait, cnotif, 
                                     cvHeld, sdres, jpanic, sfst, slotSt, 
                                     qrSent, qrWaker, dnState, dnWaker, rv, rwb, 
-                                    rneed, dsl, h, dead, sti, rq, sq, sj, rsq, 
-                                    bown, bwk, bi, bcur, bw, jq, jj, jwk, fj, 
-                                    dq, dj, oq, oop, omode, oj, yq, yop, tq, 
-                                    top, af, wf, wop, sf, sctx, xf, pf, pctx, 
-                                    pq, pj, pd, nq >>
+                                    rneed, dsl, atomic, strong, ppPending, 
+                                    ppClosed, ppNotify, ppNC, ppBP, ppDepth, 
+                                    ppAlive, ppHeld, inItems, inClosed, 
+                                    inWaker, pollFn, chuteFn, pwTaken, 
+                                    nextPoll, ppItem, h, dead, sti, rq, sq, sj, 
+                                    rsq, bown, bwk, bi, bcur, bw, jq, jj, jwk, 
+                                    fj, dq, dj, oq, oop, omode, oj, yq, yop, 
+                                    tq, top, af, wf, wop, sf, sctx, xf, cop, 
+                                    kj, pp, np, nbp, dp, pf, pctx, pq, pj, pd, 
+                                    nq >>
 
 sus_sigdrop(self) == /\ pc[self] = "sus_sigdrop"
                      /\ jaw' = [jaw EXCEPT ![jj[self]] = 1]
@@ -2141,11 +3024,16 @@ sus_sigdrop(self) == /\ pc[self] = "sus_sigdrop"
                                      dblW1, dblW2, nextDW, ready, cwait, 
                                      cnotif, cvHeld, sdres, jpanic, sfst, 
                                      slotSt, qrSent, qrWaker, dnState, dnWaker, 
-                                     parkTok, rwb, rneed, dsl, h, dead, sti, 
+                                     parkTok, rwb, rneed, dsl, atomic, strong, 
+                                     ppPending, ppClosed, ppNotify, ppNC, ppBP, 
+                                     ppDepth, ppAlive, ppHeld, inItems, 
+                                     inClosed, inWaker, pollFn, chuteFn, 
+                                     pwTaken, nextPoll, ppItem, h, dead, sti, 
                                      rq, sq, sj, ww, rsq, bown, bwk, bi, bcur, 
                                      bw, fj, dq, dj, oq, oop, omode, oj, yq, 
                                      yop, tq, top, af, wf, wop, sf, sctx, xf, 
-                                     pf, pctx, pq, pj, pd, nq >>
+                                     cop, kj, pp, np, nbp, dp, pf, pctx, pq, 
+                                     pj, pd, nq >>
 
 sus_inner(self) == /\ pc[self] = "sus_inner"
                    /\ TRUE
@@ -2158,11 +3046,16 @@ sus_inner(self) == /\ pc[self] = "sus_inner"
                                    dblTaken, dblW1, dblW2, nextDW, ready, 
                                    cwait, cnotif, cvHeld, sdres, jpanic, sfst, 
                                    slotSt, qrSent, qrWaker, dnState, dnWaker, 
-                                   parkTok, rv, rwb, rneed, dsl, h, stack, 
-                                   dead, sti, rq, sq, sj, ww, rsq, bown, bwk, 
-                                   bi, bcur, bw, jq, jj, jwk, fj, dq, dj, oq, 
-                                   oop, omode, oj, yq, yop, tq, top, af, wf, 
-                                   wop, sf, sctx, xf, pf, pctx, pq, pj, pd, nq >>
+                                   parkTok, rv, rwb, rneed, dsl, atomic, 
+                                   strong, ppPending, ppClosed, ppNotify, ppNC, 
+                                   ppBP, ppDepth, ppAlive, ppHeld, inItems, 
+                                   inClosed, inWaker, pollFn, chuteFn, pwTaken, 
+                                   nextPoll, ppItem, h, stack, dead, sti, rq, 
+                                   sq, sj, ww, rsq, bown, bwk, bi, bcur, bw, 
+                                   jq, jj, jwk, fj, dq, dj, oq, oop, omode, oj, 
+                                   yq, yop, tq, top, af, wf, wop, sf, sctx, xf, 
+                                   cop, kj, pp, np, nbp, dp, pf, pctx, pq, pj, 
+                                   pd, nq >>
 
 sus_innerdrop(self) == /\ pc[self] = "sus_innerdrop"
                        /\ rv' = [rv EXCEPT ![self] = 0]
@@ -2180,10 +3073,15 @@ sus_innerdrop(self) == /\ pc[self] = "sus_innerdrop"
                                        ready, cwait, cnotif, cvHeld, sdres, 
                                        jpanic, sfst, slotSt, qrSent, qrWaker, 
                                        dnState, dnWaker, parkTok, rwb, rneed, 
-                                       dsl, h, dead, sti, rq, sq, sj, ww, rsq, 
-                                       bown, bwk, bi, bcur, bw, fj, dq, dj, oq, 
-                                       oop, omode, oj, yq, yop, tq, top, af, 
-                                       wf, wop, sf, sctx, xf, pf, pctx, pq, pj, 
+                                       dsl, atomic, strong, ppPending, 
+                                       ppClosed, ppNotify, ppNC, ppBP, ppDepth, 
+                                       ppAlive, ppHeld, inItems, inClosed, 
+                                       inWaker, pollFn, chuteFn, pwTaken, 
+                                       nextPoll, ppItem, h, dead, sti, rq, sq, 
+                                       sj, ww, rsq, bown, bwk, bi, bcur, bw, 
+                                       fj, dq, dj, oq, oop, omode, oj, yq, yop, 
+                                       tq, top, af, wf, wop, sf, sctx, xf, cop, 
+                                       kj, pp, np, nbp, dp, pf, pctx, pq, pj, 
                                        pd, nq >>
 
 ws_take(self) == /\ pc[self] = "ws_take"
@@ -2211,16 +3109,20 @@ ws_take(self) == /\ pc[self] = "ws_take"
                                  dwSt, dwW, dblTaken, dblW1, dblW2, nextDW, 
                                  ready, cwait, cnotif, cvHeld, jpanic, sfst, 
                                  slotSt, qrSent, qrWaker, dnState, dnWaker, 
-                                 parkTok, rwb, rneed, dsl, h, dead, sti, rq, 
-                                 sq, sj, ww, rsq, bown, bwk, bi, bcur, bw, fj, 
-                                 dq, dj, oq, oop, omode, oj, yq, yop, tq, top, 
-                                 af, wf, wop, sf, sctx, xf, pf, pctx, pq, pj, 
-                                 pd, nq >>
+                                 parkTok, rwb, rneed, dsl, atomic, strong, 
+                                 ppPending, ppClosed, ppNotify, ppNC, ppBP, 
+                                 ppDepth, ppAlive, ppHeld, inItems, inClosed, 
+                                 inWaker, pollFn, chuteFn, pwTaken, nextPoll, 
+                                 ppItem, h, dead, sti, rq, sq, sj, ww, rsq, 
+                                 bown, bwk, bi, bcur, bw, fj, dq, dj, oq, oop, 
+                                 omode, oj, yq, yop, tq, top, af, wf, wop, sf, 
+                                 sctx, xf, cop, kj, pp, np, nbp, dp, pf, pctx, 
+                                 pq, pj, pd, nq >>
 
-RunJob(self) == z_rj(self) \/ z_rj_ret(self) \/ z_slot2(self)
-                   \/ sus_signal(self) \/ sus_sigdrop(self)
-                   \/ sus_inner(self) \/ sus_innerdrop(self)
-                   \/ ws_take(self)
+RunJob(self) == z_rj(self) \/ z_rj_ret(self) \/ z_rj_ok(self)
+                   \/ z_pp_gc(self) \/ z_slot2(self) \/ sus_signal(self)
+                   \/ sus_sigdrop(self) \/ sus_inner(self)
+                   \/ sus_innerdrop(self) \/ ws_take(self)
 
 fj_lock(self) == /\ pc[self] = "fj_lock"
                  /\ IF jkind[fj[self]] \in {"fut", "slot"}
@@ -2252,10 +3154,14 @@ fj_lock(self) == /\ pc[self] = "fj_lock"
                                  dwW, dblTaken, dblW1, dblW2, nextDW, cwait, 
                                  cvHeld, sdres, jpanic, sfst, slotSt, qrSent, 
                                  qrWaker, dnState, dnWaker, rv, rwb, rneed, 
-                                 dsl, h, dead, sti, rq, sq, sj, rsq, bown, bwk, 
-                                 bi, bcur, bw, jq, jj, jwk, dq, dj, oq, oop, 
-                                 omode, oj, yq, yop, tq, top, af, wf, wop, sf, 
-                                 sctx, xf, pf, pctx, pq, pj, pd, nq >>
+                                 dsl, atomic, strong, ppPending, ppClosed, 
+                                 ppNotify, ppNC, ppBP, ppDepth, ppAlive, 
+                                 ppHeld, inItems, inClosed, inWaker, pollFn, 
+                                 chuteFn, pwTaken, nextPoll, ppItem, h, dead, 
+                                 sti, rq, sq, sj, rsq, bown, bwk, bi, bcur, bw, 
+                                 jq, jj, jwk, dq, dj, oq, oop, omode, oj, yq, 
+                                 yop, tq, top, af, wf, wop, sf, sctx, xf, cop, 
+                                 kj, pp, np, nbp, dp, pf, pctx, pq, pj, pd, nq >>
 
 z_fj_chk(self) == /\ pc[self] = "z_fj_chk"
                   /\ IF jpanic[fj[self]] /\ jkind[fj[self]] = "fut"
@@ -2272,10 +3178,15 @@ z_fj_chk(self) == /\ pc[self] = "z_fj_chk"
                                   nextDW, ready, cwait, cnotif, cvHeld, sdres, 
                                   jpanic, sfst, slotSt, qrSent, qrWaker, 
                                   dnState, dnWaker, parkTok, rv, rwb, rneed, 
-                                  dsl, h, dead, sti, rq, sq, sj, ww, rsq, bown, 
-                                  bwk, bi, bcur, bw, jq, jj, jwk, dq, dj, oq, 
-                                  oop, omode, oj, yq, yop, tq, top, af, wf, 
-                                  wop, sf, sctx, xf, pf, pctx, pq, pj, pd, nq >>
+                                  dsl, atomic, strong, ppPending, ppClosed, 
+                                  ppNotify, ppNC, ppBP, ppDepth, ppAlive, 
+                                  ppHeld, inItems, inClosed, inWaker, pollFn, 
+                                  chuteFn, pwTaken, nextPoll, ppItem, h, dead, 
+                                  sti, rq, sq, sj, ww, rsq, bown, bwk, bi, 
+                                  bcur, bw, jq, jj, jwk, dq, dj, oq, oop, 
+                                  omode, oj, yq, yop, tq, top, af, wf, wop, sf, 
+                                  sctx, xf, cop, kj, pp, np, nbp, dp, pf, pctx, 
+                                  pq, pj, pd, nq >>
 
 fj_sigdrop(self) == /\ pc[self] = "fj_sigdrop"
                     /\ pc' = [pc EXCEPT ![self] = Head(stack[self]).pc]
@@ -2289,11 +3200,16 @@ fj_sigdrop(self) == /\ pc[self] = "fj_sigdrop"
                                     dblTaken, dblW1, dblW2, nextDW, ready, 
                                     cwait, cnotif, cvHeld, sdres, jpanic, sfst, 
                                     slotSt, qrSent, qrWaker, dnState, dnWaker, 
-                                    parkTok, rv, rwb, rneed, dsl, h, dead, sti, 
-                                    rq, sq, sj, ww, rsq, bown, bwk, bi, bcur, 
-                                    bw, jq, jj, jwk, dq, dj, oq, oop, omode, 
-                                    oj, yq, yop, tq, top, af, wf, wop, sf, 
-                                    sctx, xf, pf, pctx, pq, pj, pd, nq >>
+                                    parkTok, rv, rwb, rneed, dsl, atomic, 
+                                    strong, ppPending, ppClosed, ppNotify, 
+                                    ppNC, ppBP, ppDepth, ppAlive, ppHeld, 
+                                    inItems, inClosed, inWaker, pollFn, 
+                                    chuteFn, pwTaken, nextPoll, ppItem, h, 
+                                    dead, sti, rq, sq, sj, ww, rsq, bown, bwk, 
+                                    bi, bcur, bw, jq, jj, jwk, dq, dj, oq, oop, 
+                                    omode, oj, yq, yop, tq, top, af, wf, wop, 
+                                    sf, sctx, xf, cop, kj, pp, np, nbp, dp, pf, 
+                                    pctx, pq, pj, pd, nq >>
 
 FinishJob(self) == fj_lock(self) \/ z_fj_chk(self) \/ fj_sigdrop(self)
 
@@ -2320,11 +3236,15 @@ pd_deq(self) == /\ pc[self] = "pd_deq"
                                 dwSt, dwW, dblTaken, dblW1, dblW2, nextDW, 
                                 ready, cwait, cnotif, cvHeld, sdres, jpanic, 
                                 sfst, slotSt, qrSent, qrWaker, dnState, 
-                                dnWaker, parkTok, rv, rwb, rneed, dsl, h, dead, 
-                                sti, rq, sq, sj, ww, rsq, bown, bwk, bi, bcur, 
-                                bw, fj, dq, oq, oop, omode, oj, yq, yop, tq, 
-                                top, af, wf, wop, sf, sctx, xf, pf, pctx, pq, 
-                                pj, pd, nq >>
+                                dnWaker, parkTok, rv, rwb, rneed, dsl, atomic, 
+                                strong, ppPending, ppClosed, ppNotify, ppNC, 
+                                ppBP, ppDepth, ppAlive, ppHeld, inItems, 
+                                inClosed, inWaker, pollFn, chuteFn, pwTaken, 
+                                nextPoll, ppItem, h, dead, sti, rq, sq, sj, ww, 
+                                rsq, bown, bwk, bi, bcur, bw, fj, dq, oq, oop, 
+                                omode, oj, yq, yop, tq, top, af, wf, wop, sf, 
+                                sctx, xf, cop, kj, pp, np, nbp, dp, pf, pctx, 
+                                pq, pj, pd, nq >>
 
 z_pd_after(self) == /\ pc[self] = "z_pd_after"
                     /\ IF rv[self] = 5
@@ -2357,11 +3277,16 @@ z_pd_after(self) == /\ pc[self] = "z_pd_after"
                                     dblTaken, dblW1, dblW2, nextDW, ready, 
                                     cwait, cnotif, cvHeld, sdres, jpanic, sfst, 
                                     slotSt, qrSent, qrWaker, dnState, dnWaker, 
-                                    parkTok, rv, rwb, rneed, dsl, h, dead, sti, 
-                                    rq, sq, sj, ww, rsq, bown, bwk, bi, bcur, 
-                                    bw, jq, jj, jwk, dq, dj, oq, oop, omode, 
-                                    oj, yq, yop, tq, top, af, wf, wop, sf, 
-                                    sctx, xf, pf, pctx, pq, pj, pd, nq >>
+                                    parkTok, rv, rwb, rneed, dsl, atomic, 
+                                    strong, ppPending, ppClosed, ppNotify, 
+                                    ppNC, ppBP, ppDepth, ppAlive, ppHeld, 
+                                    inItems, inClosed, inWaker, pollFn, 
+                                    chuteFn, pwTaken, nextPoll, ppItem, h, 
+                                    dead, sti, rq, sq, sj, ww, rsq, bown, bwk, 
+                                    bi, bcur, bw, jq, jj, jwk, dq, dj, oq, oop, 
+                                    omode, oj, yq, yop, tq, top, af, wf, wop, 
+                                    sf, sctx, xf, cop, kj, pp, np, nbp, dp, pf, 
+                                    pctx, pq, pj, pd, nq >>
 
 pd_requeue(self) == /\ pc[self] = "pd_requeue"
                     /\ jobs' = [jobs EXCEPT ![dq[self]] = << dj[self] >> \o jobs[dq[self]]]
@@ -2374,12 +3299,16 @@ pd_requeue(self) == /\ pc[self] = "pd_requeue"
                                     dblTaken, dblW1, dblW2, nextDW, ready, 
                                     cwait, cnotif, cvHeld, sdres, jpanic, sfst, 
                                     slotSt, qrSent, qrWaker, dnState, dnWaker, 
-                                    parkTok, rv, rwb, rneed, dsl, h, stack, 
-                                    dead, sti, rq, sq, sj, ww, rsq, bown, bwk, 
-                                    bi, bcur, bw, jq, jj, jwk, fj, dq, dj, oq, 
-                                    oop, omode, oj, yq, yop, tq, top, af, wf, 
-                                    wop, sf, sctx, xf, pf, pctx, pq, pj, pd, 
-                                    nq >>
+                                    parkTok, rv, rwb, rneed, dsl, atomic, 
+                                    strong, ppPending, ppClosed, ppNotify, 
+                                    ppNC, ppBP, ppDepth, ppAlive, ppHeld, 
+                                    inItems, inClosed, inWaker, pollFn, 
+                                    chuteFn, pwTaken, nextPoll, ppItem, h, 
+                                    stack, dead, sti, rq, sq, sj, ww, rsq, 
+                                    bown, bwk, bi, bcur, bw, jq, jj, jwk, fj, 
+                                    dq, dj, oq, oop, omode, oj, yq, yop, tq, 
+                                    top, af, wf, wop, sf, sctx, xf, cop, kj, 
+                                    pp, np, nbp, dp, pf, pctx, pq, pj, pd, nq >>
 
 pd_park(self) == /\ pc[self] = "pd_park"
                  /\ IF qstate[dq[self]] = "Running"
@@ -2402,11 +3331,15 @@ pd_park(self) == /\ pc[self] = "pd_park"
                                  dwSt, dwW, dblTaken, dblW1, dblW2, nextDW, 
                                  ready, cwait, cnotif, cvHeld, sdres, jpanic, 
                                  sfst, slotSt, qrSent, qrWaker, dnState, 
-                                 dnWaker, parkTok, rwb, rneed, dsl, h, dead, 
-                                 sti, rq, sq, sj, ww, rsq, bown, bwk, bi, bcur, 
-                                 bw, jq, jj, jwk, fj, oq, oop, omode, oj, yq, 
-                                 yop, tq, top, af, wf, wop, sf, sctx, xf, pf, 
-                                 pctx, pq, pj, pd, nq >>
+                                 dnWaker, parkTok, rwb, rneed, dsl, atomic, 
+                                 strong, ppPending, ppClosed, ppNotify, ppNC, 
+                                 ppBP, ppDepth, ppAlive, ppHeld, inItems, 
+                                 inClosed, inWaker, pollFn, chuteFn, pwTaken, 
+                                 nextPoll, ppItem, h, dead, sti, rq, sq, sj, 
+                                 ww, rsq, bown, bwk, bi, bcur, bw, jq, jj, jwk, 
+                                 fj, oq, oop, omode, oj, yq, yop, tq, top, af, 
+                                 wf, wop, sf, sctx, xf, cop, kj, pp, np, nbp, 
+                                 dp, pf, pctx, pq, pj, pd, nq >>
 
 pd_end(self) == /\ pc[self] = "pd_end"
                 /\ IF jobs[dq[self]] = << >>
@@ -2435,11 +3368,15 @@ pd_end(self) == /\ pc[self] = "pd_end"
                                 dwSt, dwW, dblTaken, dblW1, dblW2, nextDW, 
                                 ready, cwait, cnotif, cvHeld, sdres, jpanic, 
                                 sfst, slotSt, qrSent, qrWaker, dnState, 
-                                dnWaker, parkTok, rwb, rneed, dsl, h, dead, 
-                                sti, rq, sq, sj, ww, rsq, bown, bwk, bi, bcur, 
-                                bw, jq, jj, jwk, fj, oq, oop, omode, oj, yq, 
-                                yop, tq, top, af, wf, wop, sf, sctx, xf, pf, 
-                                pctx, pq, pj, pd, nq >>
+                                dnWaker, parkTok, rwb, rneed, dsl, atomic, 
+                                strong, ppPending, ppClosed, ppNotify, ppNC, 
+                                ppBP, ppDepth, ppAlive, ppHeld, inItems, 
+                                inClosed, inWaker, pollFn, chuteFn, pwTaken, 
+                                nextPoll, ppItem, h, dead, sti, rq, sq, sj, ww, 
+                                rsq, bown, bwk, bi, bcur, bw, jq, jj, jwk, fj, 
+                                oq, oop, omode, oj, yq, yop, tq, top, af, wf, 
+                                wop, sf, sctx, xf, cop, kj, pp, np, nbp, dp, 
+                                pf, pctx, pq, pj, pd, nq >>
 
 pd_panic(self) == /\ pc[self] = "pd_panic"
                   /\ qstate' = [qstate EXCEPT ![dq[self]] = "Panicked"]
@@ -2455,11 +3392,15 @@ pd_panic(self) == /\ pc[self] = "pd_panic"
                                   dwSt, dwW, dblTaken, dblW1, dblW2, nextDW, 
                                   ready, cwait, cnotif, cvHeld, sdres, jpanic, 
                                   sfst, slotSt, qrSent, qrWaker, dnState, 
-                                  dnWaker, parkTok, rwb, rneed, dsl, h, dead, 
-                                  sti, rq, sq, sj, ww, rsq, bown, bwk, bi, 
-                                  bcur, bw, jq, jj, jwk, fj, oq, oop, omode, 
-                                  oj, yq, yop, tq, top, af, wf, wop, sf, sctx, 
-                                  xf, pf, pctx, pq, pj, pd, nq >>
+                                  dnWaker, parkTok, rwb, rneed, dsl, atomic, 
+                                  strong, ppPending, ppClosed, ppNotify, ppNC, 
+                                  ppBP, ppDepth, ppAlive, ppHeld, inItems, 
+                                  inClosed, inWaker, pollFn, chuteFn, pwTaken, 
+                                  nextPoll, ppItem, h, dead, sti, rq, sq, sj, 
+                                  ww, rsq, bown, bwk, bi, bcur, bw, jq, jj, 
+                                  jwk, fj, oq, oop, omode, oj, yq, yop, tq, 
+                                  top, af, wf, wop, sf, sctx, xf, cop, kj, pp, 
+                                  np, nbp, dp, pf, pctx, pq, pj, pd, nq >>
 
 PoolDrain(self) == pd_deq(self) \/ z_pd_after(self) \/ pd_requeue(self)
                       \/ pd_park(self) \/ pd_end(self) \/ pd_panic(self)
@@ -2498,10 +3439,14 @@ ro_deq(self) == /\ pc[self] = "ro_deq"
                                 dwSt, dwW, dblTaken, dblW1, dblW2, nextDW, 
                                 ready, cwait, cnotif, cvHeld, sdres, jpanic, 
                                 sfst, slotSt, qrSent, qrWaker, dnState, 
-                                dnWaker, parkTok, rwb, rneed, dsl, h, dead, 
-                                sti, rq, sq, sj, ww, rsq, bown, bwk, bi, bcur, 
-                                bw, fj, dq, dj, yq, yop, tq, top, af, wf, wop, 
-                                sf, sctx, xf, pf, pctx, pq, pj, pd, nq >>
+                                dnWaker, parkTok, rwb, rneed, dsl, atomic, 
+                                strong, ppPending, ppClosed, ppNotify, ppNC, 
+                                ppBP, ppDepth, ppAlive, ppHeld, inItems, 
+                                inClosed, inWaker, pollFn, chuteFn, pwTaken, 
+                                nextPoll, ppItem, h, dead, sti, rq, sq, sj, ww, 
+                                rsq, bown, bwk, bi, bcur, bw, fj, dq, dj, yq, 
+                                yop, tq, top, af, wf, wop, sf, sctx, xf, cop, 
+                                kj, pp, np, nbp, dp, pf, pctx, pq, pj, pd, nq >>
 
 z_ro_after(self) == /\ pc[self] = "z_ro_after"
                     /\ IF rv[self] = 5
@@ -2534,11 +3479,16 @@ z_ro_after(self) == /\ pc[self] = "z_ro_after"
                                     dblTaken, dblW1, dblW2, nextDW, ready, 
                                     cwait, cnotif, cvHeld, sdres, jpanic, sfst, 
                                     slotSt, qrSent, qrWaker, dnState, dnWaker, 
-                                    parkTok, rv, rwb, rneed, dsl, h, dead, sti, 
-                                    rq, sq, sj, ww, rsq, bown, bwk, bi, bcur, 
-                                    bw, jq, jj, jwk, dq, dj, oq, oop, omode, 
-                                    oj, yq, yop, tq, top, af, wf, wop, sf, 
-                                    sctx, xf, pf, pctx, pq, pj, pd, nq >>
+                                    parkTok, rv, rwb, rneed, dsl, atomic, 
+                                    strong, ppPending, ppClosed, ppNotify, 
+                                    ppNC, ppBP, ppDepth, ppAlive, ppHeld, 
+                                    inItems, inClosed, inWaker, pollFn, 
+                                    chuteFn, pwTaken, nextPoll, ppItem, h, 
+                                    dead, sti, rq, sq, sj, ww, rsq, bown, bwk, 
+                                    bi, bcur, bw, jq, jj, jwk, dq, dj, oq, oop, 
+                                    omode, oj, yq, yop, tq, top, af, wf, wop, 
+                                    sf, sctx, xf, cop, kj, pp, np, nbp, dp, pf, 
+                                    pctx, pq, pj, pd, nq >>
 
 z_ro_done(self) == /\ pc[self] = "z_ro_done"
                    /\ IF omode[self] = "sd" /\ ~sdres[oop[self]]
@@ -2559,11 +3509,15 @@ z_ro_done(self) == /\ pc[self] = "z_ro_done"
                                    dblTaken, dblW1, dblW2, nextDW, ready, 
                                    cwait, cnotif, cvHeld, sdres, jpanic, sfst, 
                                    slotSt, qrSent, qrWaker, dnState, dnWaker, 
-                                   parkTok, rwb, rneed, dsl, h, dead, sti, rq, 
-                                   sq, sj, ww, rsq, bown, bwk, bi, bcur, bw, 
-                                   jq, jj, jwk, fj, dq, dj, yq, yop, tq, top, 
-                                   af, wf, wop, sf, sctx, xf, pf, pctx, pq, pj, 
-                                   pd, nq >>
+                                   parkTok, rwb, rneed, dsl, atomic, strong, 
+                                   ppPending, ppClosed, ppNotify, ppNC, ppBP, 
+                                   ppDepth, ppAlive, ppHeld, inItems, inClosed, 
+                                   inWaker, pollFn, chuteFn, pwTaken, nextPoll, 
+                                   ppItem, h, dead, sti, rq, sq, sj, ww, rsq, 
+                                   bown, bwk, bi, bcur, bw, jq, jj, jwk, fj, 
+                                   dq, dj, yq, yop, tq, top, af, wf, wop, sf, 
+                                   sctx, xf, cop, kj, pp, np, nbp, dp, pf, 
+                                   pctx, pq, pj, pd, nq >>
 
 z_ro_panic(self) == /\ pc[self] = "z_ro_panic"
                     /\ rv' = [rv EXCEPT ![self] = 9]
@@ -2581,11 +3535,15 @@ z_ro_panic(self) == /\ pc[self] = "z_ro_panic"
                                     dblTaken, dblW1, dblW2, nextDW, ready, 
                                     cwait, cnotif, cvHeld, sdres, jpanic, sfst, 
                                     slotSt, qrSent, qrWaker, dnState, dnWaker, 
-                                    parkTok, rwb, rneed, dsl, h, dead, sti, rq, 
-                                    sq, sj, ww, rsq, bown, bwk, bi, bcur, bw, 
-                                    jq, jj, jwk, fj, dq, dj, yq, yop, tq, top, 
-                                    af, wf, wop, sf, sctx, xf, pf, pctx, pq, 
-                                    pj, pd, nq >>
+                                    parkTok, rwb, rneed, dsl, atomic, strong, 
+                                    ppPending, ppClosed, ppNotify, ppNC, ppBP, 
+                                    ppDepth, ppAlive, ppHeld, inItems, 
+                                    inClosed, inWaker, pollFn, chuteFn, 
+                                    pwTaken, nextPoll, ppItem, h, dead, sti, 
+                                    rq, sq, sj, ww, rsq, bown, bwk, bi, bcur, 
+                                    bw, jq, jj, jwk, fj, dq, dj, yq, yop, tq, 
+                                    top, af, wf, wop, sf, sctx, xf, cop, kj, 
+                                    pp, np, nbp, dp, pf, pctx, pq, pj, pd, nq >>
 
 ro_park(self) == /\ pc[self] = "ro_park"
                  /\ IF qstate[oq[self]] = "AwokenWhileRunning"
@@ -2601,7 +3559,7 @@ ro_park(self) == /\ pc[self] = "ro_park"
                                                                     \o stack[self]]
                             /\ pc' = [pc EXCEPT ![self] = "z_rj"]
                        ELSE /\ Assert(qstate[oq[self]] = "Running", 
-                                      "Failure of assertion at line 443, column 5.")
+                                      "Failure of assertion at line 547, column 5.")
                             /\ qstate' = [qstate EXCEPT ![oq[self]] = "WaitingForUnpark"]
                             /\ pc' = [pc EXCEPT ![self] = "ro_check"]
                             /\ UNCHANGED << stack, jq, jj, jwk >>
@@ -2612,11 +3570,15 @@ ro_park(self) == /\ pc[self] = "ro_park"
                                  dwSt, dwW, dblTaken, dblW1, dblW2, nextDW, 
                                  ready, cwait, cnotif, cvHeld, sdres, jpanic, 
                                  sfst, slotSt, qrSent, qrWaker, dnState, 
-                                 dnWaker, parkTok, rv, rwb, rneed, dsl, h, 
-                                 dead, sti, rq, sq, sj, ww, rsq, bown, bwk, bi, 
-                                 bcur, bw, fj, dq, dj, oq, oop, omode, oj, yq, 
-                                 yop, tq, top, af, wf, wop, sf, sctx, xf, pf, 
-                                 pctx, pq, pj, pd, nq >>
+                                 dnWaker, parkTok, rv, rwb, rneed, dsl, atomic, 
+                                 strong, ppPending, ppClosed, ppNotify, ppNC, 
+                                 ppBP, ppDepth, ppAlive, ppHeld, inItems, 
+                                 inClosed, inWaker, pollFn, chuteFn, pwTaken, 
+                                 nextPoll, ppItem, h, dead, sti, rq, sq, sj, 
+                                 ww, rsq, bown, bwk, bi, bcur, bw, fj, dq, dj, 
+                                 oq, oop, omode, oj, yq, yop, tq, top, af, wf, 
+                                 wop, sf, sctx, xf, cop, kj, pp, np, nbp, dp, 
+                                 pf, pctx, pq, pj, pd, nq >>
 
 ro_check(self) == /\ pc[self] = "ro_check"
                   /\ IF qstate[oq[self]] \in {"Running", "AwokenWhileRunning"}
@@ -2631,7 +3593,7 @@ ro_check(self) == /\ pc[self] = "ro_check"
                                                                      \o stack[self]]
                              /\ pc' = [pc EXCEPT ![self] = "z_rj"]
                         ELSE /\ Assert(qstate[oq[self]] = "WaitingForUnpark", 
-                                       "Failure of assertion at line 450, column 12.")
+                                       "Failure of assertion at line 554, column 12.")
                              /\ pc' = [pc EXCEPT ![self] = "ro_parked"]
                              /\ UNCHANGED << stack, jq, jj, jwk >>
                   /\ UNCHANGED << qstate, qpoll, jobs, wakeBlocked, schedule, 
@@ -2642,10 +3604,15 @@ ro_check(self) == /\ pc[self] = "ro_check"
                                   nextDW, ready, cwait, cnotif, cvHeld, sdres, 
                                   jpanic, sfst, slotSt, qrSent, qrWaker, 
                                   dnState, dnWaker, parkTok, rv, rwb, rneed, 
-                                  dsl, h, dead, sti, rq, sq, sj, ww, rsq, bown, 
-                                  bwk, bi, bcur, bw, fj, dq, dj, oq, oop, 
-                                  omode, oj, yq, yop, tq, top, af, wf, wop, sf, 
-                                  sctx, xf, pf, pctx, pq, pj, pd, nq >>
+                                  dsl, atomic, strong, ppPending, ppClosed, 
+                                  ppNotify, ppNC, ppBP, ppDepth, ppAlive, 
+                                  ppHeld, inItems, inClosed, inWaker, pollFn, 
+                                  chuteFn, pwTaken, nextPoll, ppItem, h, dead, 
+                                  sti, rq, sq, sj, ww, rsq, bown, bwk, bi, 
+                                  bcur, bw, fj, dq, dj, oq, oop, omode, oj, yq, 
+                                  yop, tq, top, af, wf, wop, sf, sctx, xf, cop, 
+                                  kj, pp, np, nbp, dp, pf, pctx, pq, pj, pd, 
+                                  nq >>
 
 ro_parked(self) == /\ pc[self] = "ro_parked"
                    /\ parkTok[self]
@@ -2660,11 +3627,15 @@ ro_parked(self) == /\ pc[self] = "ro_parked"
                                    dblTaken, dblW1, dblW2, nextDW, ready, 
                                    cwait, cnotif, cvHeld, sdres, jpanic, sfst, 
                                    slotSt, qrSent, qrWaker, dnState, dnWaker, 
-                                   rv, rwb, rneed, dsl, stack, dead, sti, rq, 
-                                   sq, sj, ww, rsq, bown, bwk, bi, bcur, bw, 
-                                   jq, jj, jwk, fj, dq, dj, oq, oop, omode, oj, 
-                                   yq, yop, tq, top, af, wf, wop, sf, sctx, xf, 
-                                   pf, pctx, pq, pj, pd, nq >>
+                                   rv, rwb, rneed, dsl, atomic, strong, 
+                                   ppPending, ppClosed, ppNotify, ppNC, ppBP, 
+                                   ppDepth, ppAlive, ppHeld, inItems, inClosed, 
+                                   inWaker, pollFn, chuteFn, pwTaken, nextPoll, 
+                                   ppItem, stack, dead, sti, rq, sq, sj, ww, 
+                                   rsq, bown, bwk, bi, bcur, bw, jq, jj, jwk, 
+                                   fj, dq, dj, oq, oop, omode, oj, yq, yop, tq, 
+                                   top, af, wf, wop, sf, sctx, xf, cop, kj, pp, 
+                                   np, nbp, dp, pf, pctx, pq, pj, pd, nq >>
 
 RunOne(self) == ro_deq(self) \/ z_ro_after(self) \/ z_ro_done(self)
                    \/ z_ro_panic(self) \/ ro_park(self) \/ ro_check(self)
@@ -2717,10 +3688,15 @@ sy_decide(self) == /\ pc[self] = "sy_decide"
                                    dblW1, dblW2, nextDW, ready, cwait, cnotif, 
                                    cvHeld, sdres, jpanic, sfst, slotSt, qrSent, 
                                    qrWaker, dnState, dnWaker, parkTok, rwb, 
-                                   rneed, dsl, h, dead, sti, rq, sq, sj, ww, 
-                                   rsq, bown, bwk, bi, bcur, bw, fj, dq, dj, 
-                                   oq, oop, omode, oj, tq, top, af, wf, wop, 
-                                   sf, sctx, xf, pf, pctx, pq, pj, pd, nq >>
+                                   rneed, dsl, atomic, strong, ppPending, 
+                                   ppClosed, ppNotify, ppNC, ppBP, ppDepth, 
+                                   ppAlive, ppHeld, inItems, inClosed, inWaker, 
+                                   pollFn, chuteFn, pwTaken, nextPoll, ppItem, 
+                                   h, dead, sti, rq, sq, sj, ww, rsq, bown, 
+                                   bwk, bi, bcur, bw, fj, dq, dj, oq, oop, 
+                                   omode, oj, tq, top, af, wf, wop, sf, sctx, 
+                                   xf, cop, kj, pp, np, nbp, dp, pf, pctx, pq, 
+                                   pj, pd, nq >>
 
 z_si_chk(self) == /\ pc[self] = "z_si_chk"
                   /\ IF rv[self] = 9
@@ -2734,11 +3710,15 @@ z_si_chk(self) == /\ pc[self] = "z_si_chk"
                                   nextDW, ready, cwait, cnotif, cvHeld, sdres, 
                                   jpanic, sfst, slotSt, qrSent, qrWaker, 
                                   dnState, dnWaker, parkTok, rv, rwb, rneed, 
-                                  dsl, h, stack, dead, sti, rq, sq, sj, ww, 
-                                  rsq, bown, bwk, bi, bcur, bw, jq, jj, jwk, 
-                                  fj, dq, dj, oq, oop, omode, oj, yq, yop, tq, 
-                                  top, af, wf, wop, sf, sctx, xf, pf, pctx, pq, 
-                                  pj, pd, nq >>
+                                  dsl, atomic, strong, ppPending, ppClosed, 
+                                  ppNotify, ppNC, ppBP, ppDepth, ppAlive, 
+                                  ppHeld, inItems, inClosed, inWaker, pollFn, 
+                                  chuteFn, pwTaken, nextPoll, ppItem, h, stack, 
+                                  dead, sti, rq, sq, sj, ww, rsq, bown, bwk, 
+                                  bi, bcur, bw, jq, jj, jwk, fj, dq, dj, oq, 
+                                  oop, omode, oj, yq, yop, tq, top, af, wf, 
+                                  wop, sf, sctx, xf, cop, kj, pp, np, nbp, dp, 
+                                  pf, pctx, pq, pj, pd, nq >>
 
 si_idle(self) == /\ pc[self] = "si_idle"
                  /\ qstate' = [qstate EXCEPT ![yq[self]] = "Idle"]
@@ -2755,11 +3735,15 @@ si_idle(self) == /\ pc[self] = "si_idle"
                                  dwSt, dwW, dblTaken, dblW1, dblW2, nextDW, 
                                  ready, cwait, cnotif, cvHeld, sdres, jpanic, 
                                  sfst, slotSt, qrSent, qrWaker, dnState, 
-                                 dnWaker, parkTok, rv, rwb, rneed, dsl, h, 
-                                 dead, sti, sq, sj, ww, rsq, bown, bwk, bi, 
-                                 bcur, bw, jq, jj, jwk, fj, dq, dj, oq, oop, 
-                                 omode, oj, yq, yop, tq, top, af, wf, wop, sf, 
-                                 sctx, xf, pf, pctx, pq, pj, pd, nq >>
+                                 dnWaker, parkTok, rv, rwb, rneed, dsl, atomic, 
+                                 strong, ppPending, ppClosed, ppNotify, ppNC, 
+                                 ppBP, ppDepth, ppAlive, ppHeld, inItems, 
+                                 inClosed, inWaker, pollFn, chuteFn, pwTaken, 
+                                 nextPoll, ppItem, h, dead, sti, sq, sj, ww, 
+                                 rsq, bown, bwk, bi, bcur, bw, jq, jj, jwk, fj, 
+                                 dq, dj, oq, oop, omode, oj, yq, yop, tq, top, 
+                                 af, wf, wop, sf, sctx, xf, cop, kj, pp, np, 
+                                 nbp, dp, pf, pctx, pq, pj, pd, nq >>
 
 z_si_ret(self) == /\ pc[self] = "z_si_ret"
                   /\ rv' = [rv EXCEPT ![self] = 0]
@@ -2775,10 +3759,15 @@ z_si_ret(self) == /\ pc[self] = "z_si_ret"
                                   nextDW, ready, cwait, cnotif, cvHeld, sdres, 
                                   jpanic, sfst, slotSt, qrSent, qrWaker, 
                                   dnState, dnWaker, parkTok, rwb, rneed, dsl, 
-                                  h, dead, sti, rq, sq, sj, ww, rsq, bown, bwk, 
-                                  bi, bcur, bw, jq, jj, jwk, fj, dq, dj, oq, 
-                                  oop, omode, oj, tq, top, af, wf, wop, sf, 
-                                  sctx, xf, pf, pctx, pq, pj, pd, nq >>
+                                  atomic, strong, ppPending, ppClosed, 
+                                  ppNotify, ppNC, ppBP, ppDepth, ppAlive, 
+                                  ppHeld, inItems, inClosed, inWaker, pollFn, 
+                                  chuteFn, pwTaken, nextPoll, ppItem, h, dead, 
+                                  sti, rq, sq, sj, ww, rsq, bown, bwk, bi, 
+                                  bcur, bw, jq, jj, jwk, fj, dq, dj, oq, oop, 
+                                  omode, oj, tq, top, af, wf, wop, sf, sctx, 
+                                  xf, cop, kj, pp, np, nbp, dp, pf, pctx, pq, 
+                                  pj, pd, nq >>
 
 sd_push(self) == /\ pc[self] = "sd_push"
                  /\ jkind' = [jkind EXCEPT ![yop[self]] = "syncdrain"]
@@ -2802,10 +3791,14 @@ sd_push(self) == /\ pc[self] = "sd_push"
                                  dwSt, dwW, dblTaken, dblW1, dblW2, nextDW, 
                                  ready, cwait, cnotif, cvHeld, sdres, jpanic, 
                                  sfst, slotSt, qrSent, qrWaker, dnState, 
-                                 dnWaker, parkTok, rv, rwb, rneed, dsl, h, 
-                                 dead, sti, rq, sq, sj, ww, rsq, bown, bwk, bi, 
-                                 bcur, bw, jq, jj, jwk, fj, dq, dj, yq, yop, 
-                                 tq, top, af, wf, wop, sf, sctx, xf, pf, pctx, 
+                                 dnWaker, parkTok, rv, rwb, rneed, dsl, atomic, 
+                                 strong, ppPending, ppClosed, ppNotify, ppNC, 
+                                 ppBP, ppDepth, ppAlive, ppHeld, inItems, 
+                                 inClosed, inWaker, pollFn, chuteFn, pwTaken, 
+                                 nextPoll, ppItem, h, dead, sti, rq, sq, sj, 
+                                 ww, rsq, bown, bwk, bi, bcur, bw, jq, jj, jwk, 
+                                 fj, dq, dj, yq, yop, tq, top, af, wf, wop, sf, 
+                                 sctx, xf, cop, kj, pp, np, nbp, dp, pf, pctx, 
                                  pq, pj, pd, nq >>
 
 z_sd_chk(self) == /\ pc[self] = "z_sd_chk"
@@ -2820,11 +3813,15 @@ z_sd_chk(self) == /\ pc[self] = "z_sd_chk"
                                   nextDW, ready, cwait, cnotif, cvHeld, sdres, 
                                   jpanic, sfst, slotSt, qrSent, qrWaker, 
                                   dnState, dnWaker, parkTok, rv, rwb, rneed, 
-                                  dsl, h, stack, dead, sti, rq, sq, sj, ww, 
-                                  rsq, bown, bwk, bi, bcur, bw, jq, jj, jwk, 
-                                  fj, dq, dj, oq, oop, omode, oj, yq, yop, tq, 
-                                  top, af, wf, wop, sf, sctx, xf, pf, pctx, pq, 
-                                  pj, pd, nq >>
+                                  dsl, atomic, strong, ppPending, ppClosed, 
+                                  ppNotify, ppNC, ppBP, ppDepth, ppAlive, 
+                                  ppHeld, inItems, inClosed, inWaker, pollFn, 
+                                  chuteFn, pwTaken, nextPoll, ppItem, h, stack, 
+                                  dead, sti, rq, sq, sj, ww, rsq, bown, bwk, 
+                                  bi, bcur, bw, jq, jj, jwk, fj, dq, dj, oq, 
+                                  oop, omode, oj, yq, yop, tq, top, af, wf, 
+                                  wop, sf, sctx, xf, cop, kj, pp, np, nbp, dp, 
+                                  pf, pctx, pq, pj, pd, nq >>
 
 sd_idle(self) == /\ pc[self] = "sd_idle"
                  /\ qstate' = [qstate EXCEPT ![yq[self]] = "Idle"]
@@ -2841,11 +3838,15 @@ sd_idle(self) == /\ pc[self] = "sd_idle"
                                  dwSt, dwW, dblTaken, dblW1, dblW2, nextDW, 
                                  ready, cwait, cnotif, cvHeld, sdres, jpanic, 
                                  sfst, slotSt, qrSent, qrWaker, dnState, 
-                                 dnWaker, parkTok, rv, rwb, rneed, dsl, h, 
-                                 dead, sti, sq, sj, ww, rsq, bown, bwk, bi, 
-                                 bcur, bw, jq, jj, jwk, fj, dq, dj, oq, oop, 
-                                 omode, oj, yq, yop, tq, top, af, wf, wop, sf, 
-                                 sctx, xf, pf, pctx, pq, pj, pd, nq >>
+                                 dnWaker, parkTok, rv, rwb, rneed, dsl, atomic, 
+                                 strong, ppPending, ppClosed, ppNotify, ppNC, 
+                                 ppBP, ppDepth, ppAlive, ppHeld, inItems, 
+                                 inClosed, inWaker, pollFn, chuteFn, pwTaken, 
+                                 nextPoll, ppItem, h, dead, sti, sq, sj, ww, 
+                                 rsq, bown, bwk, bi, bcur, bw, jq, jj, jwk, fj, 
+                                 dq, dj, oq, oop, omode, oj, yq, yop, tq, top, 
+                                 af, wf, wop, sf, sctx, xf, cop, kj, pp, np, 
+                                 nbp, dp, pf, pctx, pq, pj, pd, nq >>
 
 sb_reg(self) == /\ pc[self] = "sb_reg"
                 /\ wakeBlocked' = [wakeBlocked EXCEPT ![yq[self]] = Append(wakeBlocked[yq[self]], yop[self])]
@@ -2858,11 +3859,15 @@ sb_reg(self) == /\ pc[self] = "sb_reg"
                                 dwSt, dwW, dblTaken, dblW1, dblW2, nextDW, 
                                 ready, cwait, cnotif, sdres, jpanic, sfst, 
                                 slotSt, qrSent, qrWaker, dnState, dnWaker, 
-                                parkTok, rv, rwb, rneed, dsl, h, stack, dead, 
-                                sti, rq, sq, sj, ww, rsq, bown, bwk, bi, bcur, 
-                                bw, jq, jj, jwk, fj, dq, dj, oq, oop, omode, 
-                                oj, yq, yop, tq, top, af, wf, wop, sf, sctx, 
-                                xf, pf, pctx, pq, pj, pd, nq >>
+                                parkTok, rv, rwb, rneed, dsl, atomic, strong, 
+                                ppPending, ppClosed, ppNotify, ppNC, ppBP, 
+                                ppDepth, ppAlive, ppHeld, inItems, inClosed, 
+                                inWaker, pollFn, chuteFn, pwTaken, nextPoll, 
+                                ppItem, h, stack, dead, sti, rq, sq, sj, ww, 
+                                rsq, bown, bwk, bi, bcur, bw, jq, jj, jwk, fj, 
+                                dq, dj, oq, oop, omode, oj, yq, yop, tq, top, 
+                                af, wf, wop, sf, sctx, xf, cop, kj, pp, np, 
+                                nbp, dp, pf, pctx, pq, pj, pd, nq >>
 
 sb_push(self) == /\ pc[self] = "sb_push"
                  /\ jkind' = [jkind EXCEPT ![yop[self]] = "syncbg"]
@@ -2883,15 +3888,20 @@ sb_push(self) == /\ pc[self] = "sb_push"
                                  dwSt, dwW, dblTaken, dblW1, dblW2, nextDW, 
                                  ready, cwait, cnotif, cvHeld, sdres, jpanic, 
                                  sfst, slotSt, qrSent, qrWaker, dnState, 
-                                 dnWaker, parkTok, rv, rwb, rneed, dsl, h, 
-                                 dead, sti, sq, sj, ww, rsq, bown, bwk, bi, 
-                                 bcur, bw, jq, jj, jwk, fj, dq, dj, oq, oop, 
-                                 omode, oj, yq, yop, tq, top, af, wf, wop, sf, 
-                                 sctx, xf, pf, pctx, pq, pj, pd, nq >>
+                                 dnWaker, parkTok, rv, rwb, rneed, dsl, atomic, 
+                                 strong, ppPending, ppClosed, ppNotify, ppNC, 
+                                 ppBP, ppDepth, ppAlive, ppHeld, inItems, 
+                                 inClosed, inWaker, pollFn, chuteFn, pwTaken, 
+                                 nextPoll, ppItem, h, dead, sti, sq, sj, ww, 
+                                 rsq, bown, bwk, bi, bcur, bw, jq, jj, jwk, fj, 
+                                 dq, dj, oq, oop, omode, oj, yq, yop, tq, top, 
+                                 af, wf, wop, sf, sctx, xf, cop, kj, pp, np, 
+                                 nbp, dp, pf, pctx, pq, pj, pd, nq >>
 
 sb_lock(self) == /\ pc[self] = "sb_lock"
                  /\ IF ready[yop[self]]
-                       THEN /\ pc' = [pc EXCEPT ![self] = "sb_fin"]
+                       THEN /\ cvHeld' = [cvHeld EXCEPT ![yop[self]] = FALSE]
+                            /\ pc' = [pc EXCEPT ![self] = "sb_fin"]
                             /\ UNCHANGED << qstate, schedule, cwait, cnotif >>
                        ELSE /\ IF FixD3 /\ Claimable(yq[self])
                                   THEN /\ qstate' = [qstate EXCEPT ![yq[self]] = "Running"]
@@ -2902,18 +3912,23 @@ sb_lock(self) == /\ pc[self] = "sb_lock"
                                        /\ cnotif' = [cnotif EXCEPT ![yop[self]] = FALSE]
                                        /\ pc' = [pc EXCEPT ![self] = "sb_wait"]
                                        /\ UNCHANGED << qstate, schedule >>
+                            /\ UNCHANGED cvHeld
                  /\ UNCHANGED << qpoll, jobs, wakeBlocked, pthreads, nspawned, 
                                  palive, busy, busyLocked, inbox, chanOpen, 
                                  pfin, thrHeld, maxThreads, jkind, jaw, fres, 
                                  fwaker, gfired, gwaker, gthreads, dwSt, dwW, 
-                                 dblTaken, dblW1, dblW2, nextDW, ready, cvHeld, 
-                                 sdres, jpanic, sfst, slotSt, qrSent, qrWaker, 
+                                 dblTaken, dblW1, dblW2, nextDW, ready, sdres, 
+                                 jpanic, sfst, slotSt, qrSent, qrWaker, 
                                  dnState, dnWaker, parkTok, rv, rwb, rneed, 
-                                 dsl, h, stack, dead, sti, rq, sq, sj, ww, rsq, 
-                                 bown, bwk, bi, bcur, bw, jq, jj, jwk, fj, dq, 
-                                 dj, oq, oop, omode, oj, yq, yop, tq, top, af, 
-                                 wf, wop, sf, sctx, xf, pf, pctx, pq, pj, pd, 
-                                 nq >>
+                                 dsl, atomic, strong, ppPending, ppClosed, 
+                                 ppNotify, ppNC, ppBP, ppDepth, ppAlive, 
+                                 ppHeld, inItems, inClosed, inWaker, pollFn, 
+                                 chuteFn, pwTaken, nextPoll, ppItem, h, stack, 
+                                 dead, sti, rq, sq, sj, ww, rsq, bown, bwk, bi, 
+                                 bcur, bw, jq, jj, jwk, fj, dq, dj, oq, oop, 
+                                 omode, oj, yq, yop, tq, top, af, wf, wop, sf, 
+                                 sctx, xf, cop, kj, pp, np, nbp, dp, pf, pctx, 
+                                 pq, pj, pd, nq >>
 
 sb_claim(self) == /\ pc[self] = "sb_claim"
                   /\ IF qstate[yq[self]] \in {"Pending", "Idle"}
@@ -2929,11 +3944,15 @@ sb_claim(self) == /\ pc[self] = "sb_claim"
                                   dblTaken, dblW1, dblW2, nextDW, ready, cwait, 
                                   cnotif, cvHeld, sdres, jpanic, sfst, slotSt, 
                                   qrSent, qrWaker, dnState, dnWaker, parkTok, 
-                                  rv, rwb, rneed, dsl, h, stack, dead, sti, rq, 
-                                  sq, sj, ww, rsq, bown, bwk, bi, bcur, bw, jq, 
-                                  jj, jwk, fj, dq, dj, oq, oop, omode, oj, yq, 
-                                  yop, tq, top, af, wf, wop, sf, sctx, xf, pf, 
-                                  pctx, pq, pj, pd, nq >>
+                                  rv, rwb, rneed, dsl, atomic, strong, 
+                                  ppPending, ppClosed, ppNotify, ppNC, ppBP, 
+                                  ppDepth, ppAlive, ppHeld, inItems, inClosed, 
+                                  inWaker, pollFn, chuteFn, pwTaken, nextPoll, 
+                                  ppItem, h, stack, dead, sti, rq, sq, sj, ww, 
+                                  rsq, bown, bwk, bi, bcur, bw, jq, jj, jwk, 
+                                  fj, dq, dj, oq, oop, omode, oj, yq, yop, tq, 
+                                  top, af, wf, wop, sf, sctx, xf, cop, kj, pp, 
+                                  np, nbp, dp, pf, pctx, pq, pj, pd, nq >>
 
 sb_chk(self) == /\ pc[self] = "sb_chk"
                 /\ IF ~ready[yop[self]]
@@ -2958,11 +3977,15 @@ sb_chk(self) == /\ pc[self] = "sb_chk"
                                 gthreads, dwSt, dwW, dblTaken, dblW1, dblW2, 
                                 nextDW, ready, cwait, cnotif, cvHeld, sdres, 
                                 jpanic, sfst, slotSt, qrSent, qrWaker, dnState, 
-                                dnWaker, parkTok, rv, rwb, rneed, dsl, h, dead, 
-                                sti, rq, sq, sj, ww, rsq, bown, bwk, bi, bcur, 
-                                bw, jq, jj, jwk, fj, dq, dj, yq, yop, tq, top, 
-                                af, wf, wop, sf, sctx, xf, pf, pctx, pq, pj, 
-                                pd, nq >>
+                                dnWaker, parkTok, rv, rwb, rneed, dsl, atomic, 
+                                strong, ppPending, ppClosed, ppNotify, ppNC, 
+                                ppBP, ppDepth, ppAlive, ppHeld, inItems, 
+                                inClosed, inWaker, pollFn, chuteFn, pwTaken, 
+                                nextPoll, ppItem, h, dead, sti, rq, sq, sj, ww, 
+                                rsq, bown, bwk, bi, bcur, bw, jq, jj, jwk, fj, 
+                                dq, dj, yq, yop, tq, top, af, wf, wop, sf, 
+                                sctx, xf, cop, kj, pp, np, nbp, dp, pf, pctx, 
+                                pq, pj, pd, nq >>
 
 sb_idle(self) == /\ pc[self] = "sb_idle"
                  /\ qstate' = [qstate EXCEPT ![yq[self]] = "Idle"]
@@ -2979,11 +4002,15 @@ sb_idle(self) == /\ pc[self] = "sb_idle"
                                  dwSt, dwW, dblTaken, dblW1, dblW2, nextDW, 
                                  ready, cwait, cnotif, cvHeld, sdres, jpanic, 
                                  sfst, slotSt, qrSent, qrWaker, dnState, 
-                                 dnWaker, parkTok, rv, rwb, rneed, dsl, h, 
-                                 dead, sti, sq, sj, ww, rsq, bown, bwk, bi, 
-                                 bcur, bw, jq, jj, jwk, fj, dq, dj, oq, oop, 
-                                 omode, oj, yq, yop, tq, top, af, wf, wop, sf, 
-                                 sctx, xf, pf, pctx, pq, pj, pd, nq >>
+                                 dnWaker, parkTok, rv, rwb, rneed, dsl, atomic, 
+                                 strong, ppPending, ppClosed, ppNotify, ppNC, 
+                                 ppBP, ppDepth, ppAlive, ppHeld, inItems, 
+                                 inClosed, inWaker, pollFn, chuteFn, pwTaken, 
+                                 nextPoll, ppItem, h, dead, sti, sq, sj, ww, 
+                                 rsq, bown, bwk, bi, bcur, bw, jq, jj, jwk, fj, 
+                                 dq, dj, oq, oop, omode, oj, yq, yop, tq, top, 
+                                 af, wf, wop, sf, sctx, xf, cop, kj, pp, np, 
+                                 nbp, dp, pf, pctx, pq, pj, pd, nq >>
 
 z_sb_chk(self) == /\ pc[self] = "z_sb_chk"
                   /\ IF rv[self] = 9
@@ -3005,11 +4032,15 @@ z_sb_chk(self) == /\ pc[self] = "z_sb_chk"
                                   gthreads, dwSt, dwW, dblTaken, dblW1, dblW2, 
                                   nextDW, ready, cwait, cnotif, sdres, jpanic, 
                                   sfst, slotSt, qrSent, qrWaker, dnState, 
-                                  dnWaker, parkTok, rwb, rneed, dsl, h, dead, 
-                                  sti, rq, sq, sj, ww, rsq, bown, bwk, bi, 
-                                  bcur, bw, jq, jj, jwk, fj, dq, dj, oq, oop, 
-                                  omode, oj, tq, top, af, wf, wop, sf, sctx, 
-                                  xf, pf, pctx, pq, pj, pd, nq >>
+                                  dnWaker, parkTok, rwb, rneed, dsl, atomic, 
+                                  strong, ppPending, ppClosed, ppNotify, ppNC, 
+                                  ppBP, ppDepth, ppAlive, ppHeld, inItems, 
+                                  inClosed, inWaker, pollFn, chuteFn, pwTaken, 
+                                  nextPoll, ppItem, h, dead, sti, rq, sq, sj, 
+                                  ww, rsq, bown, bwk, bi, bcur, bw, jq, jj, 
+                                  jwk, fj, dq, dj, oq, oop, omode, oj, tq, top, 
+                                  af, wf, wop, sf, sctx, xf, cop, kj, pp, np, 
+                                  nbp, dp, pf, pctx, pq, pj, pd, nq >>
 
 sb_wait(self) == /\ pc[self] = "sb_wait"
                  /\ cnotif[yop[self]]
@@ -3017,6 +4048,7 @@ sb_wait(self) == /\ pc[self] = "sb_wait"
                  /\ IF ready[yop[self]]
                        THEN /\ cwait' = [cwait EXCEPT ![yop[self]] = FALSE]
                             /\ cnotif' = [cnotif EXCEPT ![yop[self]] = FALSE]
+                            /\ cvHeld' = [cvHeld EXCEPT ![yop[self]] = FALSE]
                             /\ pc' = [pc EXCEPT ![self] = "sb_fin"]
                             /\ UNCHANGED << qstate, schedule >>
                        ELSE /\ IF ~FixD3
@@ -3035,21 +4067,25 @@ sb_wait(self) == /\ pc[self] = "sb_wait"
                                                   /\ UNCHANGED << qstate, 
                                                                   schedule, 
                                                                   cwait >>
+                            /\ UNCHANGED cvHeld
                  /\ UNCHANGED << qpoll, jobs, wakeBlocked, pthreads, nspawned, 
                                  palive, busy, busyLocked, inbox, chanOpen, 
                                  pfin, thrHeld, maxThreads, jkind, jaw, fres, 
                                  fwaker, gfired, gwaker, gthreads, dwSt, dwW, 
-                                 dblTaken, dblW1, dblW2, nextDW, ready, cvHeld, 
-                                 sdres, jpanic, sfst, slotSt, qrSent, qrWaker, 
+                                 dblTaken, dblW1, dblW2, nextDW, ready, sdres, 
+                                 jpanic, sfst, slotSt, qrSent, qrWaker, 
                                  dnState, dnWaker, parkTok, rv, rwb, rneed, 
-                                 dsl, stack, dead, sti, rq, sq, sj, ww, rsq, 
-                                 bown, bwk, bi, bcur, bw, jq, jj, jwk, fj, dq, 
-                                 dj, oq, oop, omode, oj, yq, yop, tq, top, af, 
-                                 wf, wop, sf, sctx, xf, pf, pctx, pq, pj, pd, 
-                                 nq >>
+                                 dsl, atomic, strong, ppPending, ppClosed, 
+                                 ppNotify, ppNC, ppBP, ppDepth, ppAlive, 
+                                 ppHeld, inItems, inClosed, inWaker, pollFn, 
+                                 chuteFn, pwTaken, nextPoll, ppItem, stack, 
+                                 dead, sti, rq, sq, sj, ww, rsq, bown, bwk, bi, 
+                                 bcur, bw, jq, jj, jwk, fj, dq, dj, oq, oop, 
+                                 omode, oj, yq, yop, tq, top, af, wf, wop, sf, 
+                                 sctx, xf, cop, kj, pp, np, nbp, dp, pf, pctx, 
+                                 pq, pj, pd, nq >>
 
 sb_fin(self) == /\ pc[self] = "sb_fin"
-                /\ cvHeld' = [cvHeld EXCEPT ![yop[self]] = FALSE]
                 /\ wakeBlocked' = [wakeBlocked EXCEPT ![yq[self]] = SelectSeq(wakeBlocked[yq[self]], LAMBDA x : (x # yop[self] /\ CvAlive(x)) \/ (x = yop[self] /\ \E t \in Procs : yop[self] \in SeqSet(rwb[t])))]
                 /\ rv' = [rv EXCEPT ![self] = 0]
                 /\ pc' = [pc EXCEPT ![self] = Head(stack[self]).pc]
@@ -3061,13 +4097,17 @@ sb_fin(self) == /\ pc[self] = "sb_fin"
                                 chanOpen, pfin, thrHeld, maxThreads, jkind, 
                                 jaw, fres, fwaker, gfired, gwaker, gthreads, 
                                 dwSt, dwW, dblTaken, dblW1, dblW2, nextDW, 
-                                ready, cwait, cnotif, sdres, jpanic, sfst, 
-                                slotSt, qrSent, qrWaker, dnState, dnWaker, 
-                                parkTok, rwb, rneed, dsl, h, dead, sti, rq, sq, 
-                                sj, ww, rsq, bown, bwk, bi, bcur, bw, jq, jj, 
-                                jwk, fj, dq, dj, oq, oop, omode, oj, tq, top, 
-                                af, wf, wop, sf, sctx, xf, pf, pctx, pq, pj, 
-                                pd, nq >>
+                                ready, cwait, cnotif, cvHeld, sdres, jpanic, 
+                                sfst, slotSt, qrSent, qrWaker, dnState, 
+                                dnWaker, parkTok, rwb, rneed, dsl, atomic, 
+                                strong, ppPending, ppClosed, ppNotify, ppNC, 
+                                ppBP, ppDepth, ppAlive, ppHeld, inItems, 
+                                inClosed, inWaker, pollFn, chuteFn, pwTaken, 
+                                nextPoll, ppItem, h, dead, sti, rq, sq, sj, ww, 
+                                rsq, bown, bwk, bi, bcur, bw, jq, jj, jwk, fj, 
+                                dq, dj, oq, oop, omode, oj, tq, top, af, wf, 
+                                wop, sf, sctx, xf, cop, kj, pp, np, nbp, dp, 
+                                pf, pctx, pq, pj, pd, nq >>
 
 sy_panic(self) == /\ pc[self] = "sy_panic"
                   /\ qstate' = [qstate EXCEPT ![yq[self]] = "Panicked"]
@@ -3083,11 +4123,15 @@ sy_panic(self) == /\ pc[self] = "sy_panic"
                                   dwSt, dwW, dblTaken, dblW1, dblW2, nextDW, 
                                   ready, cwait, cnotif, cvHeld, sdres, jpanic, 
                                   sfst, slotSt, qrSent, qrWaker, dnState, 
-                                  dnWaker, parkTok, rwb, rneed, dsl, h, dead, 
-                                  sti, rq, sq, sj, ww, rsq, bown, bwk, bi, 
-                                  bcur, bw, jq, jj, jwk, fj, dq, dj, oq, oop, 
-                                  omode, oj, tq, top, af, wf, wop, sf, sctx, 
-                                  xf, pf, pctx, pq, pj, pd, nq >>
+                                  dnWaker, parkTok, rwb, rneed, dsl, atomic, 
+                                  strong, ppPending, ppClosed, ppNotify, ppNC, 
+                                  ppBP, ppDepth, ppAlive, ppHeld, inItems, 
+                                  inClosed, inWaker, pollFn, chuteFn, pwTaken, 
+                                  nextPoll, ppItem, h, dead, sti, rq, sq, sj, 
+                                  ww, rsq, bown, bwk, bi, bcur, bw, jq, jj, 
+                                  jwk, fj, dq, dj, oq, oop, omode, oj, tq, top, 
+                                  af, wf, wop, sf, sctx, xf, cop, kj, pp, np, 
+                                  nbp, dp, pf, pctx, pq, pj, pd, nq >>
 
 Sync(self) == sy_decide(self) \/ z_si_chk(self) \/ si_idle(self)
                  \/ z_si_ret(self) \/ sd_push(self) \/ z_sd_chk(self)
@@ -3142,10 +4186,15 @@ ts_decide(self) == /\ pc[self] = "ts_decide"
                                    dblW1, dblW2, nextDW, ready, cwait, cnotif, 
                                    cvHeld, sdres, jpanic, sfst, slotSt, qrSent, 
                                    qrWaker, dnState, dnWaker, parkTok, rwb, 
-                                   rneed, dsl, h, dead, sti, rq, sq, sj, ww, 
-                                   rsq, bown, bwk, bi, bcur, bw, fj, dq, dj, 
-                                   oq, oop, omode, oj, yq, yop, af, wf, wop, 
-                                   sf, sctx, xf, pf, pctx, pq, pj, pd, nq >>
+                                   rneed, dsl, atomic, strong, ppPending, 
+                                   ppClosed, ppNotify, ppNC, ppBP, ppDepth, 
+                                   ppAlive, ppHeld, inItems, inClosed, inWaker, 
+                                   pollFn, chuteFn, pwTaken, nextPoll, ppItem, 
+                                   h, dead, sti, rq, sq, sj, ww, rsq, bown, 
+                                   bwk, bi, bcur, bw, fj, dq, dj, oq, oop, 
+                                   omode, oj, yq, yop, af, wf, wop, sf, sctx, 
+                                   xf, cop, kj, pp, np, nbp, dp, pf, pctx, pq, 
+                                   pj, pd, nq >>
 
 z_ts_chk(self) == /\ pc[self] = "z_ts_chk"
                   /\ IF rv[self] = 9
@@ -3159,11 +4208,15 @@ z_ts_chk(self) == /\ pc[self] = "z_ts_chk"
                                   nextDW, ready, cwait, cnotif, cvHeld, sdres, 
                                   jpanic, sfst, slotSt, qrSent, qrWaker, 
                                   dnState, dnWaker, parkTok, rv, rwb, rneed, 
-                                  dsl, h, stack, dead, sti, rq, sq, sj, ww, 
-                                  rsq, bown, bwk, bi, bcur, bw, jq, jj, jwk, 
-                                  fj, dq, dj, oq, oop, omode, oj, yq, yop, tq, 
-                                  top, af, wf, wop, sf, sctx, xf, pf, pctx, pq, 
-                                  pj, pd, nq >>
+                                  dsl, atomic, strong, ppPending, ppClosed, 
+                                  ppNotify, ppNC, ppBP, ppDepth, ppAlive, 
+                                  ppHeld, inItems, inClosed, inWaker, pollFn, 
+                                  chuteFn, pwTaken, nextPoll, ppItem, h, stack, 
+                                  dead, sti, rq, sq, sj, ww, rsq, bown, bwk, 
+                                  bi, bcur, bw, jq, jj, jwk, fj, dq, dj, oq, 
+                                  oop, omode, oj, yq, yop, tq, top, af, wf, 
+                                  wop, sf, sctx, xf, cop, kj, pp, np, nbp, dp, 
+                                  pf, pctx, pq, pj, pd, nq >>
 
 ts_idle(self) == /\ pc[self] = "ts_idle"
                  /\ qstate' = [qstate EXCEPT ![tq[self]] = "Idle"]
@@ -3180,11 +4233,15 @@ ts_idle(self) == /\ pc[self] = "ts_idle"
                                  dwSt, dwW, dblTaken, dblW1, dblW2, nextDW, 
                                  ready, cwait, cnotif, cvHeld, sdres, jpanic, 
                                  sfst, slotSt, qrSent, qrWaker, dnState, 
-                                 dnWaker, parkTok, rv, rwb, rneed, dsl, h, 
-                                 dead, sti, sq, sj, ww, rsq, bown, bwk, bi, 
-                                 bcur, bw, jq, jj, jwk, fj, dq, dj, oq, oop, 
-                                 omode, oj, yq, yop, tq, top, af, wf, wop, sf, 
-                                 sctx, xf, pf, pctx, pq, pj, pd, nq >>
+                                 dnWaker, parkTok, rv, rwb, rneed, dsl, atomic, 
+                                 strong, ppPending, ppClosed, ppNotify, ppNC, 
+                                 ppBP, ppDepth, ppAlive, ppHeld, inItems, 
+                                 inClosed, inWaker, pollFn, chuteFn, pwTaken, 
+                                 nextPoll, ppItem, h, dead, sti, sq, sj, ww, 
+                                 rsq, bown, bwk, bi, bcur, bw, jq, jj, jwk, fj, 
+                                 dq, dj, oq, oop, omode, oj, yq, yop, tq, top, 
+                                 af, wf, wop, sf, sctx, xf, cop, kj, pp, np, 
+                                 nbp, dp, pf, pctx, pq, pj, pd, nq >>
 
 z_ts_ret(self) == /\ pc[self] = "z_ts_ret"
                   /\ rv' = [rv EXCEPT ![self] = 0]
@@ -3200,10 +4257,15 @@ z_ts_ret(self) == /\ pc[self] = "z_ts_ret"
                                   nextDW, ready, cwait, cnotif, cvHeld, sdres, 
                                   jpanic, sfst, slotSt, qrSent, qrWaker, 
                                   dnState, dnWaker, parkTok, rwb, rneed, dsl, 
-                                  h, dead, sti, rq, sq, sj, ww, rsq, bown, bwk, 
-                                  bi, bcur, bw, jq, jj, jwk, fj, dq, dj, oq, 
-                                  oop, omode, oj, yq, yop, af, wf, wop, sf, 
-                                  sctx, xf, pf, pctx, pq, pj, pd, nq >>
+                                  atomic, strong, ppPending, ppClosed, 
+                                  ppNotify, ppNC, ppBP, ppDepth, ppAlive, 
+                                  ppHeld, inItems, inClosed, inWaker, pollFn, 
+                                  chuteFn, pwTaken, nextPoll, ppItem, h, dead, 
+                                  sti, rq, sq, sj, ww, rsq, bown, bwk, bi, 
+                                  bcur, bw, jq, jj, jwk, fj, dq, dj, oq, oop, 
+                                  omode, oj, yq, yop, af, wf, wop, sf, sctx, 
+                                  xf, cop, kj, pp, np, nbp, dp, pf, pctx, pq, 
+                                  pj, pd, nq >>
 
 ts_panic(self) == /\ pc[self] = "ts_panic"
                   /\ qstate' = [qstate EXCEPT ![tq[self]] = "Panicked"]
@@ -3219,11 +4281,15 @@ ts_panic(self) == /\ pc[self] = "ts_panic"
                                   dwSt, dwW, dblTaken, dblW1, dblW2, nextDW, 
                                   ready, cwait, cnotif, cvHeld, sdres, jpanic, 
                                   sfst, slotSt, qrSent, qrWaker, dnState, 
-                                  dnWaker, parkTok, rwb, rneed, dsl, h, dead, 
-                                  sti, rq, sq, sj, ww, rsq, bown, bwk, bi, 
-                                  bcur, bw, jq, jj, jwk, fj, dq, dj, oq, oop, 
-                                  omode, oj, yq, yop, af, wf, wop, sf, sctx, 
-                                  xf, pf, pctx, pq, pj, pd, nq >>
+                                  dnWaker, parkTok, rwb, rneed, dsl, atomic, 
+                                  strong, ppPending, ppClosed, ppNotify, ppNC, 
+                                  ppBP, ppDepth, ppAlive, ppHeld, inItems, 
+                                  inClosed, inWaker, pollFn, chuteFn, pwTaken, 
+                                  nextPoll, ppItem, h, dead, sti, rq, sq, sj, 
+                                  ww, rsq, bown, bwk, bi, bcur, bw, jq, jj, 
+                                  jwk, fj, dq, dj, oq, oop, omode, oj, yq, yop, 
+                                  af, wf, wop, sf, sctx, xf, cop, kj, pp, np, 
+                                  nbp, dp, pf, pctx, pq, pj, pd, nq >>
 
 TrySync(self) == ts_decide(self) \/ z_ts_chk(self) \/ ts_idle(self)
                     \/ z_ts_ret(self) \/ ts_panic(self)
@@ -3262,10 +4328,15 @@ z_aw_poll(self) == /\ pc[self] = "z_aw_poll"
                                    dblTaken, dblW1, dblW2, nextDW, ready, 
                                    cwait, cnotif, cvHeld, sdres, jpanic, sfst, 
                                    slotSt, qrSent, qrWaker, dnState, dnWaker, 
-                                   parkTok, rv, rwb, rneed, dsl, h, dead, sti, 
-                                   rq, sq, sj, ww, rsq, bown, bwk, bi, bcur, 
-                                   bw, jq, jj, jwk, fj, dq, dj, oq, oop, omode, 
-                                   oj, yq, yop, tq, top, af, wf, wop, xf, nq >>
+                                   parkTok, rv, rwb, rneed, dsl, atomic, 
+                                   strong, ppPending, ppClosed, ppNotify, ppNC, 
+                                   ppBP, ppDepth, ppAlive, ppHeld, inItems, 
+                                   inClosed, inWaker, pollFn, chuteFn, pwTaken, 
+                                   nextPoll, ppItem, h, dead, sti, rq, sq, sj, 
+                                   ww, rsq, bown, bwk, bi, bcur, bw, jq, jj, 
+                                   jwk, fj, dq, dj, oq, oop, omode, oj, yq, 
+                                   yop, tq, top, af, wf, wop, xf, cop, kj, pp, 
+                                   np, nbp, dp, nq >>
 
 z_aw_after(self) == /\ pc[self] = "z_aw_after"
                     /\ IF rv[self] = 5
@@ -3286,11 +4357,16 @@ z_aw_after(self) == /\ pc[self] = "z_aw_after"
                                     dblTaken, dblW1, dblW2, nextDW, ready, 
                                     cwait, cnotif, cvHeld, sdres, jpanic, sfst, 
                                     slotSt, qrSent, qrWaker, dnState, dnWaker, 
-                                    parkTok, rv, rwb, rneed, dsl, dead, sti, 
-                                    rq, sq, sj, ww, rsq, bown, bwk, bi, bcur, 
-                                    bw, jq, jj, jwk, fj, dq, dj, oq, oop, 
+                                    parkTok, rv, rwb, rneed, dsl, atomic, 
+                                    strong, ppPending, ppClosed, ppNotify, 
+                                    ppNC, ppBP, ppDepth, ppAlive, ppHeld, 
+                                    inItems, inClosed, inWaker, pollFn, 
+                                    chuteFn, pwTaken, nextPoll, ppItem, dead, 
+                                    sti, rq, sq, sj, ww, rsq, bown, bwk, bi, 
+                                    bcur, bw, jq, jj, jwk, fj, dq, dj, oq, oop, 
                                     omode, oj, yq, yop, tq, top, wf, wop, sf, 
-                                    sctx, xf, pf, pctx, pq, pj, pd, nq >>
+                                    sctx, xf, cop, kj, pp, np, nbp, dp, pf, 
+                                    pctx, pq, pj, pd, nq >>
 
 aw_park(self) == /\ pc[self] = "aw_park"
                  /\ parkTok[self]
@@ -3303,11 +4379,15 @@ aw_park(self) == /\ pc[self] = "aw_park"
                                  gthreads, dwSt, dwW, dblTaken, dblW1, dblW2, 
                                  nextDW, ready, cwait, cnotif, cvHeld, sdres, 
                                  jpanic, sfst, slotSt, qrSent, qrWaker, 
-                                 dnState, dnWaker, rv, rwb, rneed, dsl, h, 
-                                 stack, dead, sti, rq, sq, sj, ww, rsq, bown, 
-                                 bwk, bi, bcur, bw, jq, jj, jwk, fj, dq, dj, 
-                                 oq, oop, omode, oj, yq, yop, tq, top, af, wf, 
-                                 wop, sf, sctx, xf, pf, pctx, pq, pj, pd, nq >>
+                                 dnState, dnWaker, rv, rwb, rneed, dsl, atomic, 
+                                 strong, ppPending, ppClosed, ppNotify, ppNC, 
+                                 ppBP, ppDepth, ppAlive, ppHeld, inItems, 
+                                 inClosed, inWaker, pollFn, chuteFn, pwTaken, 
+                                 nextPoll, ppItem, h, stack, dead, sti, rq, sq, 
+                                 sj, ww, rsq, bown, bwk, bi, bcur, bw, jq, jj, 
+                                 jwk, fj, dq, dj, oq, oop, omode, oj, yq, yop, 
+                                 tq, top, af, wf, wop, sf, sctx, xf, cop, kj, 
+                                 pp, np, nbp, dp, pf, pctx, pq, pj, pd, nq >>
 
 Await(self) == z_aw_poll(self) \/ z_aw_after(self) \/ aw_park(self)
 
@@ -3346,11 +4426,15 @@ fs_take(self) == /\ pc[self] = "fs_take"
                                  dwSt, dwW, dblTaken, dblW1, dblW2, nextDW, 
                                  ready, cwait, cnotif, cvHeld, sdres, jpanic, 
                                  sfst, slotSt, qrSent, qrWaker, dnState, 
-                                 dnWaker, parkTok, rwb, rneed, dsl, dead, sti, 
-                                 rq, sq, sj, ww, rsq, bown, bwk, bi, bcur, bw, 
-                                 jq, jj, jwk, fj, dq, dj, oq, oop, omode, oj, 
-                                 tq, top, af, sf, sctx, xf, pf, pctx, pq, pj, 
-                                 pd, nq >>
+                                 dnWaker, parkTok, rwb, rneed, dsl, atomic, 
+                                 strong, ppPending, ppClosed, ppNotify, ppNC, 
+                                 ppBP, ppDepth, ppAlive, ppHeld, inItems, 
+                                 inClosed, inWaker, pollFn, chuteFn, pwTaken, 
+                                 nextPoll, ppItem, dead, sti, rq, sq, sj, ww, 
+                                 rsq, bown, bwk, bi, bcur, bw, jq, jj, jwk, fj, 
+                                 dq, dj, oq, oop, omode, oj, tq, top, af, sf, 
+                                 sctx, xf, cop, kj, pp, np, nbp, dp, pf, pctx, 
+                                 pq, pj, pd, nq >>
 
 z_fs_after(self) == /\ pc[self] = "z_fs_after"
                     /\ IF rv[self] = 0
@@ -3369,11 +4453,16 @@ z_fs_after(self) == /\ pc[self] = "z_fs_after"
                                     dblTaken, dblW1, dblW2, nextDW, ready, 
                                     cwait, cnotif, cvHeld, sdres, jpanic, sfst, 
                                     slotSt, qrSent, qrWaker, dnState, dnWaker, 
-                                    parkTok, rv, rwb, rneed, dsl, dead, sti, 
-                                    rq, sq, sj, ww, rsq, bown, bwk, bi, bcur, 
-                                    bw, jq, jj, jwk, fj, dq, dj, oq, oop, 
+                                    parkTok, rv, rwb, rneed, dsl, atomic, 
+                                    strong, ppPending, ppClosed, ppNotify, 
+                                    ppNC, ppBP, ppDepth, ppAlive, ppHeld, 
+                                    inItems, inClosed, inWaker, pollFn, 
+                                    chuteFn, pwTaken, nextPoll, ppItem, dead, 
+                                    sti, rq, sq, sj, ww, rsq, bown, bwk, bi, 
+                                    bcur, bw, jq, jj, jwk, fj, dq, dj, oq, oop, 
                                     omode, oj, yq, yop, tq, top, af, sf, sctx, 
-                                    xf, pf, pctx, pq, pj, pd, nq >>
+                                    xf, cop, kj, pp, np, nbp, dp, pf, pctx, pq, 
+                                    pj, pd, nq >>
 
 WaitSync(self) == fs_take(self) \/ z_fs_after(self)
 
@@ -3442,9 +4531,14 @@ z_ps(self) == /\ pc[self] = "z_ps"
                               dwW, dblTaken, dblW1, dblW2, nextDW, ready, 
                               cwait, cnotif, cvHeld, sdres, jpanic, sfst, 
                               slotSt, qrSent, qrWaker, dnState, dnWaker, 
-                              parkTok, rwb, rneed, dsl, h, dead, sti, rq, sq, 
-                              sj, ww, jq, jj, jwk, fj, dq, dj, oq, oop, omode, 
-                              oj, yq, yop, tq, top, af, wf, wop, xf, nq >>
+                              parkTok, rwb, rneed, dsl, atomic, strong, 
+                              ppPending, ppClosed, ppNotify, ppNC, ppBP, 
+                              ppDepth, ppAlive, ppHeld, inItems, inClosed, 
+                              inWaker, pollFn, chuteFn, pwTaken, nextPoll, 
+                              ppItem, h, dead, sti, rq, sq, sj, ww, jq, jj, 
+                              jwk, fj, dq, dj, oq, oop, omode, oj, yq, yop, tq, 
+                              top, af, wf, wop, xf, cop, kj, pp, np, nbp, dp, 
+                              nq >>
 
 z_ps_q(self) == /\ pc[self] = "z_ps_q"
                 /\ IF rv[self] \in {2, 4}
@@ -3492,10 +4586,14 @@ z_ps_q(self) == /\ pc[self] = "z_ps_q"
                                 gthreads, dwSt, dwW, dblTaken, dblW1, dblW2, 
                                 nextDW, ready, cwait, cnotif, cvHeld, sdres, 
                                 jpanic, slotSt, qrSent, dnWaker, parkTok, rwb, 
-                                rneed, dsl, dead, sti, rq, sq, sj, ww, jq, jj, 
-                                jwk, fj, dq, dj, oq, oop, omode, oj, yq, yop, 
-                                tq, top, af, wf, wop, xf, pf, pctx, pq, pj, pd, 
-                                nq >>
+                                rneed, dsl, atomic, strong, ppPending, 
+                                ppClosed, ppNotify, ppNC, ppBP, ppDepth, 
+                                ppAlive, ppHeld, inItems, inClosed, inWaker, 
+                                pollFn, chuteFn, pwTaken, nextPoll, ppItem, 
+                                dead, sti, rq, sq, sj, ww, jq, jj, jwk, fj, dq, 
+                                dj, oq, oop, omode, oj, yq, yop, tq, top, af, 
+                                wf, wop, xf, cop, kj, pp, np, nbp, dp, pf, 
+                                pctx, pq, pj, pd, nq >>
 
 z_ps_f(self) == /\ pc[self] = "z_ps_f"
                 /\ IF rv[self] = 5
@@ -3539,10 +4637,15 @@ z_ps_f(self) == /\ pc[self] = "z_ps_f"
                                 gthreads, dwSt, dwW, dblTaken, dblW1, dblW2, 
                                 nextDW, ready, cwait, cnotif, cvHeld, sdres, 
                                 jpanic, slotSt, qrSent, qrWaker, dnWaker, rv, 
-                                rwb, rneed, dsl, h, dead, sti, rq, sq, sj, rsq, 
-                                bown, bwk, bi, bcur, bw, jq, jj, jwk, fj, dq, 
-                                dj, oq, oop, omode, oj, yq, yop, tq, top, af, 
-                                wf, wop, xf, pf, pctx, pq, pj, pd, nq >>
+                                rwb, rneed, dsl, atomic, strong, ppPending, 
+                                ppClosed, ppNotify, ppNC, ppBP, ppDepth, 
+                                ppAlive, ppHeld, inItems, inClosed, inWaker, 
+                                pollFn, chuteFn, pwTaken, nextPoll, ppItem, h, 
+                                dead, sti, rq, sq, sj, rsq, bown, bwk, bi, 
+                                bcur, bw, jq, jj, jwk, fj, dq, dj, oq, oop, 
+                                omode, oj, yq, yop, tq, top, af, wf, wop, xf, 
+                                cop, kj, pp, np, nbp, dp, pf, pctx, pq, pj, pd, 
+                                nq >>
 
 z_ps_s(self) == /\ pc[self] = "z_ps_s"
                 /\ /\ pctx' = [pctx EXCEPT ![self] = sctx[self]]
@@ -3566,11 +4669,15 @@ z_ps_s(self) == /\ pc[self] = "z_ps_s"
                                 gthreads, dwSt, dwW, dblTaken, dblW1, dblW2, 
                                 nextDW, ready, cwait, cnotif, cvHeld, sdres, 
                                 jpanic, sfst, slotSt, qrSent, qrWaker, dnState, 
-                                dnWaker, parkTok, rv, rwb, rneed, dsl, h, dead, 
-                                sti, rq, sq, sj, ww, rsq, bown, bwk, bi, bcur, 
-                                bw, jq, jj, jwk, fj, dq, dj, oq, oop, omode, 
-                                oj, yq, yop, tq, top, af, wf, wop, sf, sctx, 
-                                xf, nq >>
+                                dnWaker, parkTok, rv, rwb, rneed, dsl, atomic, 
+                                strong, ppPending, ppClosed, ppNotify, ppNC, 
+                                ppBP, ppDepth, ppAlive, ppHeld, inItems, 
+                                inClosed, inWaker, pollFn, chuteFn, pwTaken, 
+                                nextPoll, ppItem, h, dead, sti, rq, sq, sj, ww, 
+                                rsq, bown, bwk, bi, bcur, bw, jq, jj, jwk, fj, 
+                                dq, dj, oq, oop, omode, oj, yq, yop, tq, top, 
+                                af, wf, wop, sf, sctx, xf, cop, kj, pp, np, 
+                                nbp, dp, nq >>
 
 z_ps_s2(self) == /\ pc[self] = "z_ps_s2"
                  /\ IF rv[self] = 5
@@ -3592,11 +4699,15 @@ z_ps_s2(self) == /\ pc[self] = "z_ps_s2"
                                  gthreads, dwSt, dwW, dblTaken, dblW1, dblW2, 
                                  nextDW, ready, cwait, cnotif, cvHeld, sdres, 
                                  jpanic, slotSt, qrSent, qrWaker, dnState, 
-                                 dnWaker, parkTok, rwb, rneed, dsl, h, dead, 
-                                 sti, rq, sq, sj, ww, rsq, bown, bwk, bi, bcur, 
-                                 bw, jq, jj, jwk, fj, dq, dj, oq, oop, omode, 
-                                 oj, yq, yop, tq, top, af, wf, wop, xf, pf, 
-                                 pctx, pq, pj, pd, nq >>
+                                 dnWaker, parkTok, rwb, rneed, dsl, atomic, 
+                                 strong, ppPending, ppClosed, ppNotify, ppNC, 
+                                 ppBP, ppDepth, ppAlive, ppHeld, inItems, 
+                                 inClosed, inWaker, pollFn, chuteFn, pwTaken, 
+                                 nextPoll, ppItem, h, dead, sti, rq, sq, sj, 
+                                 ww, rsq, bown, bwk, bi, bcur, bw, jq, jj, jwk, 
+                                 fj, dq, dj, oq, oop, omode, oj, yq, yop, tq, 
+                                 top, af, wf, wop, xf, cop, kj, pp, np, nbp, 
+                                 dp, pf, pctx, pq, pj, pd, nq >>
 
 z_ps_panic(self) == /\ pc[self] = "z_ps_panic"
                     /\ rv' = [rv EXCEPT ![self] = 2]
@@ -3612,11 +4723,16 @@ z_ps_panic(self) == /\ pc[self] = "z_ps_panic"
                                     dblTaken, dblW1, dblW2, nextDW, ready, 
                                     cwait, cnotif, cvHeld, sdres, jpanic, sfst, 
                                     slotSt, qrSent, qrWaker, dnState, dnWaker, 
-                                    parkTok, rwb, rneed, dsl, h, dead, sti, rq, 
-                                    sq, sj, ww, rsq, bown, bwk, bi, bcur, bw, 
-                                    jq, jj, jwk, fj, dq, dj, oq, oop, omode, 
-                                    oj, yq, yop, tq, top, af, wf, wop, xf, pf, 
-                                    pctx, pq, pj, pd, nq >>
+                                    parkTok, rwb, rneed, dsl, atomic, strong, 
+                                    ppPending, ppClosed, ppNotify, ppNC, ppBP, 
+                                    ppDepth, ppAlive, ppHeld, inItems, 
+                                    inClosed, inWaker, pollFn, chuteFn, 
+                                    pwTaken, nextPoll, ppItem, h, dead, sti, 
+                                    rq, sq, sj, ww, rsq, bown, bwk, bi, bcur, 
+                                    bw, jq, jj, jwk, fj, dq, dj, oq, oop, 
+                                    omode, oj, yq, yop, tq, top, af, wf, wop, 
+                                    xf, cop, kj, pp, np, nbp, dp, pf, pctx, pq, 
+                                    pj, pd, nq >>
 
 PollSync(self) == z_ps(self) \/ z_ps_q(self) \/ z_ps_f(self)
                      \/ z_ps_s(self) \/ z_ps_s2(self) \/ z_ps_panic(self)
@@ -3652,10 +4768,15 @@ z_df(self) == /\ pc[self] = "z_df"
                               gthreads, dwSt, dwW, dblTaken, dblW1, dblW2, 
                               nextDW, ready, cwait, cnotif, cvHeld, sdres, 
                               jpanic, slotSt, qrSent, qrWaker, dnWaker, 
-                              parkTok, rwb, rneed, dsl, dead, sti, rq, sq, sj, 
-                              rsq, bown, bwk, bi, bcur, bw, jq, jj, jwk, fj, 
-                              dq, dj, oq, oop, omode, oj, yq, yop, tq, top, af, 
-                              wf, wop, sf, sctx, pf, pctx, pq, pj, pd, nq >>
+                              parkTok, rwb, rneed, dsl, atomic, strong, 
+                              ppPending, ppClosed, ppNotify, ppNC, ppBP, 
+                              ppDepth, ppAlive, ppHeld, inItems, inClosed, 
+                              inWaker, pollFn, chuteFn, pwTaken, nextPoll, 
+                              ppItem, dead, sti, rq, sq, sj, rsq, bown, bwk, 
+                              bi, bcur, bw, jq, jj, jwk, fj, dq, dj, oq, oop, 
+                              omode, oj, yq, yop, tq, top, af, wf, wop, sf, 
+                              sctx, cop, kj, pp, np, nbp, dp, pf, pctx, pq, pj, 
+                              pd, nq >>
 
 z_df2(self) == /\ pc[self] = "z_df2"
                /\ rv' = [rv EXCEPT ![self] = 0]
@@ -3669,13 +4790,628 @@ z_df2(self) == /\ pc[self] = "z_df2"
                                gthreads, dwSt, dwW, dblTaken, dblW1, dblW2, 
                                nextDW, ready, cwait, cnotif, cvHeld, sdres, 
                                jpanic, sfst, slotSt, qrSent, qrWaker, dnState, 
-                               dnWaker, parkTok, rwb, rneed, dsl, h, dead, sti, 
-                               rq, sq, sj, ww, rsq, bown, bwk, bi, bcur, bw, 
-                               jq, jj, jwk, fj, dq, dj, oq, oop, omode, oj, yq, 
-                               yop, tq, top, af, wf, wop, sf, sctx, pf, pctx, 
-                               pq, pj, pd, nq >>
+                               dnWaker, parkTok, rwb, rneed, dsl, atomic, 
+                               strong, ppPending, ppClosed, ppNotify, ppNC, 
+                               ppBP, ppDepth, ppAlive, ppHeld, inItems, 
+                               inClosed, inWaker, pollFn, chuteFn, pwTaken, 
+                               nextPoll, ppItem, h, dead, sti, rq, sq, sj, ww, 
+                               rsq, bown, bwk, bi, bcur, bw, jq, jj, jwk, fj, 
+                               dq, dj, oq, oop, omode, oj, yq, yop, tq, top, 
+                               af, wf, wop, sf, sctx, cop, kj, pp, np, nbp, dp, 
+                               pf, pctx, pq, pj, pd, nq >>
 
 DropFuture(self) == z_df(self) \/ z_df2(self)
+
+z_pcr1(self) == /\ pc[self] = "z_pcr1"
+                /\ pollFn' = [pollFn EXCEPT ![OpTab[cop[self]].p] = TRUE]
+                /\ strong' = [strong EXCEPT ![O(cop[self])] = strong[O(cop[self])] + (IF K(cop[self]) = "pipe" THEN 2 ELSE 1)]
+                /\ ppAlive' = [ppAlive EXCEPT ![OpTab[cop[self]].p] = (K(cop[self]) = "pipe")]
+                /\ jkind' = [jkind EXCEPT ![NewPoll(OpTab[cop[self]].p)] = "fut"]
+                /\ nextPoll' = [nextPoll EXCEPT ![OpTab[cop[self]].p] = nextPoll[OpTab[cop[self]].p] + 1]
+                /\ /\ sj' = [sj EXCEPT ![self] = NewPoll(OpTab[cop[self]].p)]
+                   /\ sq' = [sq EXCEPT ![self] = O(cop[self])]
+                   /\ stack' = [stack EXCEPT ![self] = << [ procedure |->  "ScheduleJob",
+                                                            pc        |->  "z_pcr2",
+                                                            sq        |->  sq[self],
+                                                            sj        |->  sj[self] ] >>
+                                                        \o stack[self]]
+                /\ pc' = [pc EXCEPT ![self] = "sj_push"]
+                /\ UNCHANGED << qstate, qpoll, jobs, wakeBlocked, schedule, 
+                                pthreads, nspawned, palive, busy, busyLocked, 
+                                inbox, chanOpen, pfin, thrHeld, maxThreads, 
+                                jaw, fres, fwaker, gfired, gwaker, gthreads, 
+                                dwSt, dwW, dblTaken, dblW1, dblW2, nextDW, 
+                                ready, cwait, cnotif, cvHeld, sdres, jpanic, 
+                                sfst, slotSt, qrSent, qrWaker, dnState, 
+                                dnWaker, parkTok, rv, rwb, rneed, dsl, atomic, 
+                                ppPending, ppClosed, ppNotify, ppNC, ppBP, 
+                                ppDepth, ppHeld, inItems, inClosed, inWaker, 
+                                chuteFn, pwTaken, ppItem, h, dead, sti, rq, ww, 
+                                rsq, bown, bwk, bi, bcur, bw, jq, jj, jwk, fj, 
+                                dq, dj, oq, oop, omode, oj, yq, yop, tq, top, 
+                                af, wf, wop, sf, sctx, xf, cop, kj, pp, np, 
+                                nbp, dp, pf, pctx, pq, pj, pd, nq >>
+
+z_pcr2(self) == /\ pc[self] = "z_pcr2"
+                /\ strong' = [strong EXCEPT ![O(cop[self])] = strong[O(cop[self])] - 1]
+                /\ /\ stack' = [stack EXCEPT ![self] = << [ procedure |->  "Sync",
+                                                            pc        |->  "z_pcr3",
+                                                            yq        |->  yq[self],
+                                                            yop       |->  yop[self] ] >>
+                                                        \o stack[self]]
+                   /\ yop' = [yop EXCEPT ![self] = cop[self]]
+                   /\ yq' = [yq EXCEPT ![self] = O(cop[self])]
+                /\ pc' = [pc EXCEPT ![self] = "sy_decide"]
+                /\ UNCHANGED << qstate, qpoll, jobs, wakeBlocked, schedule, 
+                                pthreads, nspawned, palive, busy, busyLocked, 
+                                inbox, chanOpen, pfin, thrHeld, maxThreads, 
+                                jkind, jaw, fres, fwaker, gfired, gwaker, 
+                                gthreads, dwSt, dwW, dblTaken, dblW1, dblW2, 
+                                nextDW, ready, cwait, cnotif, cvHeld, sdres, 
+                                jpanic, sfst, slotSt, qrSent, qrWaker, dnState, 
+                                dnWaker, parkTok, rv, rwb, rneed, dsl, atomic, 
+                                ppPending, ppClosed, ppNotify, ppNC, ppBP, 
+                                ppDepth, ppAlive, ppHeld, inItems, inClosed, 
+                                inWaker, pollFn, chuteFn, pwTaken, nextPoll, 
+                                ppItem, h, dead, sti, rq, sq, sj, ww, rsq, 
+                                bown, bwk, bi, bcur, bw, jq, jj, jwk, fj, dq, 
+                                dj, oq, oop, omode, oj, tq, top, af, wf, wop, 
+                                sf, sctx, xf, cop, kj, pp, np, nbp, dp, pf, 
+                                pctx, pq, pj, pd, nq >>
+
+z_pcr3(self) == /\ pc[self] = "z_pcr3"
+                /\ pc' = [pc EXCEPT ![self] = Head(stack[self]).pc]
+                /\ cop' = [cop EXCEPT ![self] = Head(stack[self]).cop]
+                /\ stack' = [stack EXCEPT ![self] = Tail(stack[self])]
+                /\ UNCHANGED << qstate, qpoll, jobs, wakeBlocked, schedule, 
+                                pthreads, nspawned, palive, busy, busyLocked, 
+                                inbox, chanOpen, pfin, thrHeld, maxThreads, 
+                                jkind, jaw, fres, fwaker, gfired, gwaker, 
+                                gthreads, dwSt, dwW, dblTaken, dblW1, dblW2, 
+                                nextDW, ready, cwait, cnotif, cvHeld, sdres, 
+                                jpanic, sfst, slotSt, qrSent, qrWaker, dnState, 
+                                dnWaker, parkTok, rv, rwb, rneed, dsl, atomic, 
+                                strong, ppPending, ppClosed, ppNotify, ppNC, 
+                                ppBP, ppDepth, ppAlive, ppHeld, inItems, 
+                                inClosed, inWaker, pollFn, chuteFn, pwTaken, 
+                                nextPoll, ppItem, h, dead, sti, rq, sq, sj, ww, 
+                                rsq, bown, bwk, bi, bcur, bw, jq, jj, jwk, fj, 
+                                dq, dj, oq, oop, omode, oj, yq, yop, tq, top, 
+                                af, wf, wop, sf, sctx, xf, kj, pp, np, nbp, dp, 
+                                pf, pctx, pq, pj, pd, nq >>
+
+PipeCreate(self) == z_pcr1(self) \/ z_pcr2(self) \/ z_pcr3(self)
+
+pp_fn(self) == /\ pc[self] = "pp_fn"
+               /\ IF ~pollFn[pp[self]]
+                     THEN /\ rv' = [rv EXCEPT ![self] = 0]
+                          /\ pc' = [pc EXCEPT ![self] = Head(stack[self]).pc]
+                          /\ kj' = [kj EXCEPT ![self] = Head(stack[self]).kj]
+                          /\ pp' = [pp EXCEPT ![self] = Head(stack[self]).pp]
+                          /\ stack' = [stack EXCEPT ![self] = Tail(stack[self])]
+                          /\ UNCHANGED ppHeld
+                     ELSE /\ IF K(PipeOp(pp[self])) = "pipe_in"
+                                THEN /\ pc' = [pc EXCEPT ![self] = "pi_in"]
+                                     /\ UNCHANGED ppHeld
+                                ELSE /\ IF ~CoreAlive(pp[self])
+                                           THEN /\ pc' = [pc EXCEPT ![self] = "pp_dealloc"]
+                                                /\ UNCHANGED ppHeld
+                                           ELSE /\ ppHeld' = [ppHeld EXCEPT ![pp[self]] = ppHeld[pp[self]] + 1]
+                                                /\ pc' = [pc EXCEPT ![self] = "pp_bp"]
+                          /\ UNCHANGED << rv, stack, kj, pp >>
+               /\ UNCHANGED << qstate, qpoll, jobs, wakeBlocked, schedule, 
+                               pthreads, nspawned, palive, busy, busyLocked, 
+                               inbox, chanOpen, pfin, thrHeld, maxThreads, 
+                               jkind, jaw, fres, fwaker, gfired, gwaker, 
+                               gthreads, dwSt, dwW, dblTaken, dblW1, dblW2, 
+                               nextDW, ready, cwait, cnotif, cvHeld, sdres, 
+                               jpanic, sfst, slotSt, qrSent, qrWaker, dnState, 
+                               dnWaker, parkTok, rwb, rneed, dsl, atomic, 
+                               strong, ppPending, ppClosed, ppNotify, ppNC, 
+                               ppBP, ppDepth, ppAlive, inItems, inClosed, 
+                               inWaker, pollFn, chuteFn, pwTaken, nextPoll, 
+                               ppItem, h, dead, sti, rq, sq, sj, ww, rsq, bown, 
+                               bwk, bi, bcur, bw, jq, jj, jwk, fj, dq, dj, oq, 
+                               oop, omode, oj, yq, yop, tq, top, af, wf, wop, 
+                               sf, sctx, xf, cop, np, nbp, dp, pf, pctx, pq, 
+                               pj, pd, nq >>
+
+pp_bp(self) == /\ pc[self] = "pp_bp"
+               /\ IF Len(ppPending[pp[self]]) >= ppDepth[pp[self]]
+                     THEN /\ ppBP' = [ppBP EXCEPT ![pp[self]] = PW(kj[self])]
+                          /\ ppHeld' = [ppHeld EXCEPT ![pp[self]] = ppHeld[pp[self]] - 1]
+                          /\ rv' = [rv EXCEPT ![self] = 0]
+                          /\ pc' = [pc EXCEPT ![self] = Head(stack[self]).pc]
+                          /\ kj' = [kj EXCEPT ![self] = Head(stack[self]).kj]
+                          /\ pp' = [pp EXCEPT ![self] = Head(stack[self]).pp]
+                          /\ stack' = [stack EXCEPT ![self] = Tail(stack[self])]
+                     ELSE /\ IF ppClosed[pp[self]]
+                                THEN /\ pc' = [pc EXCEPT ![self] = "pp_closed"]
+                                ELSE /\ pc' = [pc EXCEPT ![self] = "pp_clear"]
+                          /\ UNCHANGED << rv, ppBP, ppHeld, stack, kj, pp >>
+               /\ UNCHANGED << qstate, qpoll, jobs, wakeBlocked, schedule, 
+                               pthreads, nspawned, palive, busy, busyLocked, 
+                               inbox, chanOpen, pfin, thrHeld, maxThreads, 
+                               jkind, jaw, fres, fwaker, gfired, gwaker, 
+                               gthreads, dwSt, dwW, dblTaken, dblW1, dblW2, 
+                               nextDW, ready, cwait, cnotif, cvHeld, sdres, 
+                               jpanic, sfst, slotSt, qrSent, qrWaker, dnState, 
+                               dnWaker, parkTok, rwb, rneed, dsl, atomic, 
+                               strong, ppPending, ppClosed, ppNotify, ppNC, 
+                               ppDepth, ppAlive, inItems, inClosed, inWaker, 
+                               pollFn, chuteFn, pwTaken, nextPoll, ppItem, h, 
+                               dead, sti, rq, sq, sj, ww, rsq, bown, bwk, bi, 
+                               bcur, bw, jq, jj, jwk, fj, dq, dj, oq, oop, 
+                               omode, oj, yq, yop, tq, top, af, wf, wop, sf, 
+                               sctx, xf, cop, np, nbp, dp, pf, pctx, pq, pj, 
+                               pd, nq >>
+
+pp_clear(self) == /\ pc[self] = "pp_clear"
+                  /\ IF FixD5 /\ ppClosed[pp[self]]
+                        THEN /\ ppHeld' = [ppHeld EXCEPT ![pp[self]] = ppHeld[pp[self]] - 1]
+                             /\ pc' = [pc EXCEPT ![self] = "pp_dealloc"]
+                             /\ ppNC' = ppNC
+                        ELSE /\ ppNC' = [ppNC EXCEPT ![pp[self]] = NoW]
+                             /\ pc' = [pc EXCEPT ![self] = "pp_in"]
+                             /\ UNCHANGED ppHeld
+                  /\ UNCHANGED << qstate, qpoll, jobs, wakeBlocked, schedule, 
+                                  pthreads, nspawned, palive, busy, busyLocked, 
+                                  inbox, chanOpen, pfin, thrHeld, maxThreads, 
+                                  jkind, jaw, fres, fwaker, gfired, gwaker, 
+                                  gthreads, dwSt, dwW, dblTaken, dblW1, dblW2, 
+                                  nextDW, ready, cwait, cnotif, cvHeld, sdres, 
+                                  jpanic, sfst, slotSt, qrSent, qrWaker, 
+                                  dnState, dnWaker, parkTok, rv, rwb, rneed, 
+                                  dsl, atomic, strong, ppPending, ppClosed, 
+                                  ppNotify, ppBP, ppDepth, ppAlive, inItems, 
+                                  inClosed, inWaker, pollFn, chuteFn, pwTaken, 
+                                  nextPoll, ppItem, h, stack, dead, sti, rq, 
+                                  sq, sj, ww, rsq, bown, bwk, bi, bcur, bw, jq, 
+                                  jj, jwk, fj, dq, dj, oq, oop, omode, oj, yq, 
+                                  yop, tq, top, af, wf, wop, sf, sctx, xf, cop, 
+                                  kj, pp, np, nbp, dp, pf, pctx, pq, pj, pd, 
+                                  nq >>
+
+pp_in(self) == /\ pc[self] = "pp_in"
+               /\ IF inItems[pp[self]] # << >>
+                     THEN /\ ppItem' = [ppItem EXCEPT ![kj[self]] = Head(inItems[pp[self]])]
+                          /\ inItems' = [inItems EXCEPT ![pp[self]] = Tail(inItems[pp[self]])]
+                          /\ pc' = [pc EXCEPT ![self] = "pp_proc"]
+                          /\ UNCHANGED << inWaker, h >>
+                     ELSE /\ IF inClosed[pp[self]]
+                                THEN /\ h' = PFlag(h, pp[self], "in_end")
+                                     /\ pc' = [pc EXCEPT ![self] = "pp_end"]
+                                     /\ UNCHANGED inWaker
+                                ELSE /\ inWaker' = [inWaker EXCEPT ![pp[self]] = PW(kj[self])]
+                                     /\ pc' = [pc EXCEPT ![self] = "pp_reg"]
+                                     /\ h' = h
+                          /\ UNCHANGED << inItems, ppItem >>
+               /\ UNCHANGED << qstate, qpoll, jobs, wakeBlocked, schedule, 
+                               pthreads, nspawned, palive, busy, busyLocked, 
+                               inbox, chanOpen, pfin, thrHeld, maxThreads, 
+                               jkind, jaw, fres, fwaker, gfired, gwaker, 
+                               gthreads, dwSt, dwW, dblTaken, dblW1, dblW2, 
+                               nextDW, ready, cwait, cnotif, cvHeld, sdres, 
+                               jpanic, sfst, slotSt, qrSent, qrWaker, dnState, 
+                               dnWaker, parkTok, rv, rwb, rneed, dsl, atomic, 
+                               strong, ppPending, ppClosed, ppNotify, ppNC, 
+                               ppBP, ppDepth, ppAlive, ppHeld, inClosed, 
+                               pollFn, chuteFn, pwTaken, nextPoll, stack, dead, 
+                               sti, rq, sq, sj, ww, rsq, bown, bwk, bi, bcur, 
+                               bw, jq, jj, jwk, fj, dq, dj, oq, oop, omode, oj, 
+                               yq, yop, tq, top, af, wf, wop, sf, sctx, xf, 
+                               cop, kj, pp, np, nbp, dp, pf, pctx, pq, pj, pd, 
+                               nq >>
+
+pp_reg(self) == /\ pc[self] = "pp_reg"
+                /\ IF FixD5 /\ ppClosed[pp[self]]
+                      THEN /\ ppHeld' = [ppHeld EXCEPT ![pp[self]] = ppHeld[pp[self]] - 1]
+                           /\ pc' = [pc EXCEPT ![self] = "pp_dealloc"]
+                           /\ UNCHANGED << rv, ppNC, stack, kj, pp >>
+                      ELSE /\ ppNC' = [ppNC EXCEPT ![pp[self]] = PW(kj[self])]
+                           /\ ppHeld' = [ppHeld EXCEPT ![pp[self]] = ppHeld[pp[self]] - 1]
+                           /\ rv' = [rv EXCEPT ![self] = 0]
+                           /\ pc' = [pc EXCEPT ![self] = Head(stack[self]).pc]
+                           /\ kj' = [kj EXCEPT ![self] = Head(stack[self]).kj]
+                           /\ pp' = [pp EXCEPT ![self] = Head(stack[self]).pp]
+                           /\ stack' = [stack EXCEPT ![self] = Tail(stack[self])]
+                /\ UNCHANGED << qstate, qpoll, jobs, wakeBlocked, schedule, 
+                                pthreads, nspawned, palive, busy, busyLocked, 
+                                inbox, chanOpen, pfin, thrHeld, maxThreads, 
+                                jkind, jaw, fres, fwaker, gfired, gwaker, 
+                                gthreads, dwSt, dwW, dblTaken, dblW1, dblW2, 
+                                nextDW, ready, cwait, cnotif, cvHeld, sdres, 
+                                jpanic, sfst, slotSt, qrSent, qrWaker, dnState, 
+                                dnWaker, parkTok, rwb, rneed, dsl, atomic, 
+                                strong, ppPending, ppClosed, ppNotify, ppBP, 
+                                ppDepth, ppAlive, inItems, inClosed, inWaker, 
+                                pollFn, chuteFn, pwTaken, nextPoll, ppItem, h, 
+                                dead, sti, rq, sq, sj, ww, rsq, bown, bwk, bi, 
+                                bcur, bw, jq, jj, jwk, fj, dq, dj, oq, oop, 
+                                omode, oj, yq, yop, tq, top, af, wf, wop, sf, 
+                                sctx, xf, cop, np, nbp, dp, pf, pctx, pq, pj, 
+                                pd, nq >>
+
+pp_end(self) == /\ pc[self] = "pp_end"
+                /\ ppClosed' = [ppClosed EXCEPT ![pp[self]] = TRUE]
+                /\ parkTok' = Unpark(parkTok, TaskOf(ppNotify[pp[self]]))
+                /\ ppNotify' = [ppNotify EXCEPT ![pp[self]] = NoW]
+                /\ ppHeld' = [ppHeld EXCEPT ![pp[self]] = ppHeld[pp[self]] - 1]
+                /\ pc' = [pc EXCEPT ![self] = "pp_dealloc"]
+                /\ UNCHANGED << qstate, qpoll, jobs, wakeBlocked, schedule, 
+                                pthreads, nspawned, palive, busy, busyLocked, 
+                                inbox, chanOpen, pfin, thrHeld, maxThreads, 
+                                jkind, jaw, fres, fwaker, gfired, gwaker, 
+                                gthreads, dwSt, dwW, dblTaken, dblW1, dblW2, 
+                                nextDW, ready, cwait, cnotif, cvHeld, sdres, 
+                                jpanic, sfst, slotSt, qrSent, qrWaker, dnState, 
+                                dnWaker, rv, rwb, rneed, dsl, atomic, strong, 
+                                ppPending, ppNC, ppBP, ppDepth, ppAlive, 
+                                inItems, inClosed, inWaker, pollFn, chuteFn, 
+                                pwTaken, nextPoll, ppItem, h, stack, dead, sti, 
+                                rq, sq, sj, ww, rsq, bown, bwk, bi, bcur, bw, 
+                                jq, jj, jwk, fj, dq, dj, oq, oop, omode, oj, 
+                                yq, yop, tq, top, af, wf, wop, sf, sctx, xf, 
+                                cop, kj, pp, np, nbp, dp, pf, pctx, pq, pj, pd, 
+                                nq >>
+
+pp_closed(self) == /\ pc[self] = "pp_closed"
+                   /\ parkTok' = Unpark(parkTok, TaskOf(ppNotify[pp[self]]))
+                   /\ ppNotify' = [ppNotify EXCEPT ![pp[self]] = NoW]
+                   /\ ppHeld' = [ppHeld EXCEPT ![pp[self]] = ppHeld[pp[self]] - 1]
+                   /\ pc' = [pc EXCEPT ![self] = "pp_dealloc"]
+                   /\ UNCHANGED << qstate, qpoll, jobs, wakeBlocked, schedule, 
+                                   pthreads, nspawned, palive, busy, 
+                                   busyLocked, inbox, chanOpen, pfin, thrHeld, 
+                                   maxThreads, jkind, jaw, fres, fwaker, 
+                                   gfired, gwaker, gthreads, dwSt, dwW, 
+                                   dblTaken, dblW1, dblW2, nextDW, ready, 
+                                   cwait, cnotif, cvHeld, sdres, jpanic, sfst, 
+                                   slotSt, qrSent, qrWaker, dnState, dnWaker, 
+                                   rv, rwb, rneed, dsl, atomic, strong, 
+                                   ppPending, ppClosed, ppNC, ppBP, ppDepth, 
+                                   ppAlive, inItems, inClosed, inWaker, pollFn, 
+                                   chuteFn, pwTaken, nextPoll, ppItem, h, 
+                                   stack, dead, sti, rq, sq, sj, ww, rsq, bown, 
+                                   bwk, bi, bcur, bw, jq, jj, jwk, fj, dq, dj, 
+                                   oq, oop, omode, oj, yq, yop, tq, top, af, 
+                                   wf, wop, sf, sctx, xf, cop, kj, pp, np, nbp, 
+                                   dp, pf, pctx, pq, pj, pd, nq >>
+
+pp_proc(self) == /\ pc[self] = "pp_proc"
+                 /\ h' = ObsProcStart(h, self, pp[self], ppItem[kj[self]])
+                 /\ pc' = [pc EXCEPT ![self] = "pp_body"]
+                 /\ UNCHANGED << qstate, qpoll, jobs, wakeBlocked, schedule, 
+                                 pthreads, nspawned, palive, busy, busyLocked, 
+                                 inbox, chanOpen, pfin, thrHeld, maxThreads, 
+                                 jkind, jaw, fres, fwaker, gfired, gwaker, 
+                                 gthreads, dwSt, dwW, dblTaken, dblW1, dblW2, 
+                                 nextDW, ready, cwait, cnotif, cvHeld, sdres, 
+                                 jpanic, sfst, slotSt, qrSent, qrWaker, 
+                                 dnState, dnWaker, parkTok, rv, rwb, rneed, 
+                                 dsl, atomic, strong, ppPending, ppClosed, 
+                                 ppNotify, ppNC, ppBP, ppDepth, ppAlive, 
+                                 ppHeld, inItems, inClosed, inWaker, pollFn, 
+                                 chuteFn, pwTaken, nextPoll, ppItem, stack, 
+                                 dead, sti, rq, sq, sj, ww, rsq, bown, bwk, bi, 
+                                 bcur, bw, jq, jj, jwk, fj, dq, dj, oq, oop, 
+                                 omode, oj, yq, yop, tq, top, af, wf, wop, sf, 
+                                 sctx, xf, cop, kj, pp, np, nbp, dp, pf, pctx, 
+                                 pq, pj, pd, nq >>
+
+pp_body(self) == /\ pc[self] = "pp_body"
+                 /\ h' = ObsProcEnd(h, self, pp[self], ppItem[kj[self]])
+                 /\ IF K(PipeOp(pp[self])) = "pipe_in"
+                       THEN /\ pc' = [pc EXCEPT ![self] = "pi_in"]
+                       ELSE /\ pc' = [pc EXCEPT ![self] = "pp_push"]
+                 /\ UNCHANGED << qstate, qpoll, jobs, wakeBlocked, schedule, 
+                                 pthreads, nspawned, palive, busy, busyLocked, 
+                                 inbox, chanOpen, pfin, thrHeld, maxThreads, 
+                                 jkind, jaw, fres, fwaker, gfired, gwaker, 
+                                 gthreads, dwSt, dwW, dblTaken, dblW1, dblW2, 
+                                 nextDW, ready, cwait, cnotif, cvHeld, sdres, 
+                                 jpanic, sfst, slotSt, qrSent, qrWaker, 
+                                 dnState, dnWaker, parkTok, rv, rwb, rneed, 
+                                 dsl, atomic, strong, ppPending, ppClosed, 
+                                 ppNotify, ppNC, ppBP, ppDepth, ppAlive, 
+                                 ppHeld, inItems, inClosed, inWaker, pollFn, 
+                                 chuteFn, pwTaken, nextPoll, ppItem, stack, 
+                                 dead, sti, rq, sq, sj, ww, rsq, bown, bwk, bi, 
+                                 bcur, bw, jq, jj, jwk, fj, dq, dj, oq, oop, 
+                                 omode, oj, yq, yop, tq, top, af, wf, wop, sf, 
+                                 sctx, xf, cop, kj, pp, np, nbp, dp, pf, pctx, 
+                                 pq, pj, pd, nq >>
+
+pp_push(self) == /\ pc[self] = "pp_push"
+                 /\ ppPending' = [ppPending EXCEPT ![pp[self]] = Append(ppPending[pp[self]], 10 * ppItem[kj[self]])]
+                 /\ parkTok' = Unpark(parkTok, TaskOf(ppNotify[pp[self]]))
+                 /\ ppNotify' = [ppNotify EXCEPT ![pp[self]] = NoW]
+                 /\ pc' = [pc EXCEPT ![self] = "pp_clear"]
+                 /\ UNCHANGED << qstate, qpoll, jobs, wakeBlocked, schedule, 
+                                 pthreads, nspawned, palive, busy, busyLocked, 
+                                 inbox, chanOpen, pfin, thrHeld, maxThreads, 
+                                 jkind, jaw, fres, fwaker, gfired, gwaker, 
+                                 gthreads, dwSt, dwW, dblTaken, dblW1, dblW2, 
+                                 nextDW, ready, cwait, cnotif, cvHeld, sdres, 
+                                 jpanic, sfst, slotSt, qrSent, qrWaker, 
+                                 dnState, dnWaker, rv, rwb, rneed, dsl, atomic, 
+                                 strong, ppClosed, ppNC, ppBP, ppDepth, 
+                                 ppAlive, ppHeld, inItems, inClosed, inWaker, 
+                                 pollFn, chuteFn, pwTaken, nextPoll, ppItem, h, 
+                                 stack, dead, sti, rq, sq, sj, ww, rsq, bown, 
+                                 bwk, bi, bcur, bw, jq, jj, jwk, fj, dq, dj, 
+                                 oq, oop, omode, oj, yq, yop, tq, top, af, wf, 
+                                 wop, sf, sctx, xf, cop, kj, pp, np, nbp, dp, 
+                                 pf, pctx, pq, pj, pd, nq >>
+
+pi_in(self) == /\ pc[self] = "pi_in"
+               /\ IF inItems[pp[self]] # << >>
+                     THEN /\ ppItem' = [ppItem EXCEPT ![kj[self]] = Head(inItems[pp[self]])]
+                          /\ inItems' = [inItems EXCEPT ![pp[self]] = Tail(inItems[pp[self]])]
+                          /\ pc' = [pc EXCEPT ![self] = "pp_proc"]
+                          /\ UNCHANGED << rv, inWaker, h, stack, kj, pp >>
+                     ELSE /\ IF inClosed[pp[self]]
+                                THEN /\ h' = PFlag(h, pp[self], "in_end")
+                                     /\ pc' = [pc EXCEPT ![self] = "pp_dealloc"]
+                                     /\ UNCHANGED << rv, inWaker, stack, kj, 
+                                                     pp >>
+                                ELSE /\ inWaker' = [inWaker EXCEPT ![pp[self]] = PW(kj[self])]
+                                     /\ rv' = [rv EXCEPT ![self] = 0]
+                                     /\ pc' = [pc EXCEPT ![self] = Head(stack[self]).pc]
+                                     /\ kj' = [kj EXCEPT ![self] = Head(stack[self]).kj]
+                                     /\ pp' = [pp EXCEPT ![self] = Head(stack[self]).pp]
+                                     /\ stack' = [stack EXCEPT ![self] = Tail(stack[self])]
+                                     /\ h' = h
+                          /\ UNCHANGED << inItems, ppItem >>
+               /\ UNCHANGED << qstate, qpoll, jobs, wakeBlocked, schedule, 
+                               pthreads, nspawned, palive, busy, busyLocked, 
+                               inbox, chanOpen, pfin, thrHeld, maxThreads, 
+                               jkind, jaw, fres, fwaker, gfired, gwaker, 
+                               gthreads, dwSt, dwW, dblTaken, dblW1, dblW2, 
+                               nextDW, ready, cwait, cnotif, cvHeld, sdres, 
+                               jpanic, sfst, slotSt, qrSent, qrWaker, dnState, 
+                               dnWaker, parkTok, rwb, rneed, dsl, atomic, 
+                               strong, ppPending, ppClosed, ppNotify, ppNC, 
+                               ppBP, ppDepth, ppAlive, ppHeld, inClosed, 
+                               pollFn, chuteFn, pwTaken, nextPoll, dead, sti, 
+                               rq, sq, sj, ww, rsq, bown, bwk, bi, bcur, bw, 
+                               jq, jj, jwk, fj, dq, dj, oq, oop, omode, oj, yq, 
+                               yop, tq, top, af, wf, wop, sf, sctx, xf, cop, 
+                               np, nbp, dp, pf, pctx, pq, pj, pd, nq >>
+
+pp_dealloc(self) == /\ pc[self] = "pp_dealloc"
+                    /\ IF pollFn[pp[self]]
+                          THEN /\ h' = PFlag(PFlag(h, pp[self], "in_dropped"), pp[self], "closure_dropped")
+                          ELSE /\ TRUE
+                               /\ h' = h
+                    /\ pollFn' = [pollFn EXCEPT ![pp[self]] = FALSE]
+                    /\ rv' = [rv EXCEPT ![self] = 0]
+                    /\ pc' = [pc EXCEPT ![self] = Head(stack[self]).pc]
+                    /\ kj' = [kj EXCEPT ![self] = Head(stack[self]).kj]
+                    /\ pp' = [pp EXCEPT ![self] = Head(stack[self]).pp]
+                    /\ stack' = [stack EXCEPT ![self] = Tail(stack[self])]
+                    /\ UNCHANGED << qstate, qpoll, jobs, wakeBlocked, schedule, 
+                                    pthreads, nspawned, palive, busy, 
+                                    busyLocked, inbox, chanOpen, pfin, thrHeld, 
+                                    maxThreads, jkind, jaw, fres, fwaker, 
+                                    gfired, gwaker, gthreads, dwSt, dwW, 
+                                    dblTaken, dblW1, dblW2, nextDW, ready, 
+                                    cwait, cnotif, cvHeld, sdres, jpanic, sfst, 
+                                    slotSt, qrSent, qrWaker, dnState, dnWaker, 
+                                    parkTok, rwb, rneed, dsl, atomic, strong, 
+                                    ppPending, ppClosed, ppNotify, ppNC, ppBP, 
+                                    ppDepth, ppAlive, ppHeld, inItems, 
+                                    inClosed, inWaker, chuteFn, pwTaken, 
+                                    nextPoll, ppItem, dead, sti, rq, sq, sj, 
+                                    ww, rsq, bown, bwk, bi, bcur, bw, jq, jj, 
+                                    jwk, fj, dq, dj, oq, oop, omode, oj, yq, 
+                                    yop, tq, top, af, wf, wop, sf, sctx, xf, 
+                                    cop, np, nbp, dp, pf, pctx, pq, pj, pd, nq >>
+
+PipePoll(self) == pp_fn(self) \/ pp_bp(self) \/ pp_clear(self)
+                     \/ pp_in(self) \/ pp_reg(self) \/ pp_end(self)
+                     \/ pp_closed(self) \/ pp_proc(self) \/ pp_body(self)
+                     \/ pp_push(self) \/ pi_in(self) \/ pp_dealloc(self)
+
+cn_poll(self) == /\ pc[self] = "cn_poll"
+                 /\ nbp' = [nbp EXCEPT ![self] = ppBP[np[self]]]
+                 /\ ppBP' = [ppBP EXCEPT ![np[self]] = NoW]
+                 /\ IF ppPending[np[self]] # << >>
+                       THEN /\ h' = ObsOut(h, np[self], Head(ppPending[np[self]]))
+                            /\ ppPending' = [ppPending EXCEPT ![np[self]] = Tail(ppPending[np[self]])]
+                            /\ rv' = [rv EXCEPT ![self] = 0]
+                            /\ UNCHANGED ppNotify
+                       ELSE /\ IF ppClosed[np[self]]
+                                  THEN /\ h' = ObsOutEnd(h, np[self])
+                                       /\ rv' = [rv EXCEPT ![self] = 0]
+                                       /\ UNCHANGED ppNotify
+                                  ELSE /\ ppNotify' = [ppNotify EXCEPT ![np[self]] = TASK(self)]
+                                       /\ rv' = [rv EXCEPT ![self] = 5]
+                                       /\ h' = h
+                            /\ UNCHANGED ppPending
+                 /\ IF IsLocking(nbp'[self])
+                       THEN /\ /\ stack' = [stack EXCEPT ![self] = << [ procedure |->  "Wake",
+                                                                        pc        |->  "z_cn_after",
+                                                                        ww        |->  ww[self] ] >>
+                                                                    \o stack[self]]
+                               /\ ww' = [ww EXCEPT ![self] = nbp'[self]]
+                            /\ pc' = [pc EXCEPT ![self] = "wk_lock"]
+                       ELSE /\ pc' = [pc EXCEPT ![self] = "z_cn_after"]
+                            /\ UNCHANGED << stack, ww >>
+                 /\ UNCHANGED << qstate, qpoll, jobs, wakeBlocked, schedule, 
+                                 pthreads, nspawned, palive, busy, busyLocked, 
+                                 inbox, chanOpen, pfin, thrHeld, maxThreads, 
+                                 jkind, jaw, fres, fwaker, gfired, gwaker, 
+                                 gthreads, dwSt, dwW, dblTaken, dblW1, dblW2, 
+                                 nextDW, ready, cwait, cnotif, cvHeld, sdres, 
+                                 jpanic, sfst, slotSt, qrSent, qrWaker, 
+                                 dnState, dnWaker, parkTok, rwb, rneed, dsl, 
+                                 atomic, strong, ppClosed, ppNC, ppDepth, 
+                                 ppAlive, ppHeld, inItems, inClosed, inWaker, 
+                                 pollFn, chuteFn, pwTaken, nextPoll, ppItem, 
+                                 dead, sti, rq, sq, sj, rsq, bown, bwk, bi, 
+                                 bcur, bw, jq, jj, jwk, fj, dq, dj, oq, oop, 
+                                 omode, oj, yq, yop, tq, top, af, wf, wop, sf, 
+                                 sctx, xf, cop, kj, pp, np, dp, pf, pctx, pq, 
+                                 pj, pd, nq >>
+
+z_cn_after(self) == /\ pc[self] = "z_cn_after"
+                    /\ IF rv[self] = 5
+                          THEN /\ pc' = [pc EXCEPT ![self] = "cn_park"]
+                               /\ UNCHANGED << stack, np, nbp >>
+                          ELSE /\ pc' = [pc EXCEPT ![self] = Head(stack[self]).pc]
+                               /\ nbp' = [nbp EXCEPT ![self] = Head(stack[self]).nbp]
+                               /\ np' = [np EXCEPT ![self] = Head(stack[self]).np]
+                               /\ stack' = [stack EXCEPT ![self] = Tail(stack[self])]
+                    /\ UNCHANGED << qstate, qpoll, jobs, wakeBlocked, schedule, 
+                                    pthreads, nspawned, palive, busy, 
+                                    busyLocked, inbox, chanOpen, pfin, thrHeld, 
+                                    maxThreads, jkind, jaw, fres, fwaker, 
+                                    gfired, gwaker, gthreads, dwSt, dwW, 
+                                    dblTaken, dblW1, dblW2, nextDW, ready, 
+                                    cwait, cnotif, cvHeld, sdres, jpanic, sfst, 
+                                    slotSt, qrSent, qrWaker, dnState, dnWaker, 
+                                    parkTok, rv, rwb, rneed, dsl, atomic, 
+                                    strong, ppPending, ppClosed, ppNotify, 
+                                    ppNC, ppBP, ppDepth, ppAlive, ppHeld, 
+                                    inItems, inClosed, inWaker, pollFn, 
+                                    chuteFn, pwTaken, nextPoll, ppItem, h, 
+                                    dead, sti, rq, sq, sj, ww, rsq, bown, bwk, 
+                                    bi, bcur, bw, jq, jj, jwk, fj, dq, dj, oq, 
+                                    oop, omode, oj, yq, yop, tq, top, af, wf, 
+                                    wop, sf, sctx, xf, cop, kj, pp, dp, pf, 
+                                    pctx, pq, pj, pd, nq >>
+
+cn_park(self) == /\ pc[self] = "cn_park"
+                 /\ parkTok[self]
+                 /\ parkTok' = [parkTok EXCEPT ![self] = FALSE]
+                 /\ pc' = [pc EXCEPT ![self] = "cn_poll"]
+                 /\ UNCHANGED << qstate, qpoll, jobs, wakeBlocked, schedule, 
+                                 pthreads, nspawned, palive, busy, busyLocked, 
+                                 inbox, chanOpen, pfin, thrHeld, maxThreads, 
+                                 jkind, jaw, fres, fwaker, gfired, gwaker, 
+                                 gthreads, dwSt, dwW, dblTaken, dblW1, dblW2, 
+                                 nextDW, ready, cwait, cnotif, cvHeld, sdres, 
+                                 jpanic, sfst, slotSt, qrSent, qrWaker, 
+                                 dnState, dnWaker, rv, rwb, rneed, dsl, atomic, 
+                                 strong, ppPending, ppClosed, ppNotify, ppNC, 
+                                 ppBP, ppDepth, ppAlive, ppHeld, inItems, 
+                                 inClosed, inWaker, pollFn, chuteFn, pwTaken, 
+                                 nextPoll, ppItem, h, stack, dead, sti, rq, sq, 
+                                 sj, ww, rsq, bown, bwk, bi, bcur, bw, jq, jj, 
+                                 jwk, fj, dq, dj, oq, oop, omode, oj, yq, yop, 
+                                 tq, top, af, wf, wop, sf, sctx, xf, cop, kj, 
+                                 pp, np, nbp, dp, pf, pctx, pq, pj, pd, nq >>
+
+PipeNext(self) == cn_poll(self) \/ z_cn_after(self) \/ cn_park(self)
+
+ps_drop(self) == /\ pc[self] = "ps_drop"
+                 /\ ppPending' = [ppPending EXCEPT ![dp[self]] = << >>]
+                 /\ ppClosed' = [ppClosed EXCEPT ![dp[self]] = TRUE]
+                 /\ atomic' = [atomic EXCEPT ![self] = TRUE]
+                 /\ IF IsLocking(ppNC[dp[self]])
+                       THEN /\ /\ stack' = [stack EXCEPT ![self] = << [ procedure |->  "Wake",
+                                                                        pc        |->  "z_ps2",
+                                                                        ww        |->  ww[self] ] >>
+                                                                    \o stack[self]]
+                               /\ ww' = [ww EXCEPT ![self] = ppNC[dp[self]]]
+                            /\ pc' = [pc EXCEPT ![self] = "wk_lock"]
+                       ELSE /\ pc' = [pc EXCEPT ![self] = "z_ps2"]
+                            /\ UNCHANGED << stack, ww >>
+                 /\ UNCHANGED << qstate, qpoll, jobs, wakeBlocked, schedule, 
+                                 pthreads, nspawned, palive, busy, busyLocked, 
+                                 inbox, chanOpen, pfin, thrHeld, maxThreads, 
+                                 jkind, jaw, fres, fwaker, gfired, gwaker, 
+                                 gthreads, dwSt, dwW, dblTaken, dblW1, dblW2, 
+                                 nextDW, ready, cwait, cnotif, cvHeld, sdres, 
+                                 jpanic, sfst, slotSt, qrSent, qrWaker, 
+                                 dnState, dnWaker, parkTok, rv, rwb, rneed, 
+                                 dsl, strong, ppNotify, ppNC, ppBP, ppDepth, 
+                                 ppAlive, ppHeld, inItems, inClosed, inWaker, 
+                                 pollFn, chuteFn, pwTaken, nextPoll, ppItem, h, 
+                                 dead, sti, rq, sq, sj, rsq, bown, bwk, bi, 
+                                 bcur, bw, jq, jj, jwk, fj, dq, dj, oq, oop, 
+                                 omode, oj, yq, yop, tq, top, af, wf, wop, sf, 
+                                 sctx, xf, cop, kj, pp, np, nbp, dp, pf, pctx, 
+                                 pq, pj, pd, nq >>
+
+z_ps2(self) == /\ pc[self] = "z_ps2"
+               /\ ppNC' = [ppNC EXCEPT ![dp[self]] = NoW]
+               /\ jkind' = [jkind EXCEPT ![ChuteJob(dp[self], "chute_release")] = "plain"]
+               /\ /\ sj' = [sj EXCEPT ![self] = ChuteJob(dp[self], "chute_release")]
+                  /\ sq' = [sq EXCEPT ![self] = Chute]
+                  /\ stack' = [stack EXCEPT ![self] = << [ procedure |->  "ScheduleJob",
+                                                           pc        |->  "z_ps3",
+                                                           sq        |->  sq[self],
+                                                           sj        |->  sj[self] ] >>
+                                                       \o stack[self]]
+               /\ pc' = [pc EXCEPT ![self] = "sj_push"]
+               /\ UNCHANGED << qstate, qpoll, jobs, wakeBlocked, schedule, 
+                               pthreads, nspawned, palive, busy, busyLocked, 
+                               inbox, chanOpen, pfin, thrHeld, maxThreads, jaw, 
+                               fres, fwaker, gfired, gwaker, gthreads, dwSt, 
+                               dwW, dblTaken, dblW1, dblW2, nextDW, ready, 
+                               cwait, cnotif, cvHeld, sdres, jpanic, sfst, 
+                               slotSt, qrSent, qrWaker, dnState, dnWaker, 
+                               parkTok, rv, rwb, rneed, dsl, atomic, strong, 
+                               ppPending, ppClosed, ppNotify, ppBP, ppDepth, 
+                               ppAlive, ppHeld, inItems, inClosed, inWaker, 
+                               pollFn, chuteFn, pwTaken, nextPoll, ppItem, h, 
+                               dead, sti, rq, ww, rsq, bown, bwk, bi, bcur, bw, 
+                               jq, jj, jwk, fj, dq, dj, oq, oop, omode, oj, yq, 
+                               yop, tq, top, af, wf, wop, sf, sctx, xf, cop, 
+                               kj, pp, np, nbp, dp, pf, pctx, pq, pj, pd, nq >>
+
+z_ps3(self) == /\ pc[self] = "z_ps3"
+               /\ atomic' = [atomic EXCEPT ![self] = FALSE]
+               /\ ppAlive' = [ppAlive EXCEPT ![dp[self]] = FALSE]
+               /\ rv' = [rv EXCEPT ![self] = 0]
+               /\ pc' = [pc EXCEPT ![self] = "z_ps_gc"]
+               /\ UNCHANGED << qstate, qpoll, jobs, wakeBlocked, schedule, 
+                               pthreads, nspawned, palive, busy, busyLocked, 
+                               inbox, chanOpen, pfin, thrHeld, maxThreads, 
+                               jkind, jaw, fres, fwaker, gfired, gwaker, 
+                               gthreads, dwSt, dwW, dblTaken, dblW1, dblW2, 
+                               nextDW, ready, cwait, cnotif, cvHeld, sdres, 
+                               jpanic, sfst, slotSt, qrSent, qrWaker, dnState, 
+                               dnWaker, parkTok, rwb, rneed, dsl, strong, 
+                               ppPending, ppClosed, ppNotify, ppNC, ppBP, 
+                               ppDepth, ppHeld, inItems, inClosed, inWaker, 
+                               pollFn, chuteFn, pwTaken, nextPoll, ppItem, h, 
+                               stack, dead, sti, rq, sq, sj, ww, rsq, bown, 
+                               bwk, bi, bcur, bw, jq, jj, jwk, fj, dq, dj, oq, 
+                               oop, omode, oj, yq, yop, tq, top, af, wf, wop, 
+                               sf, sctx, xf, cop, kj, pp, np, nbp, dp, pf, 
+                               pctx, pq, pj, pd, nq >>
+
+z_ps_gc(self) == /\ pc[self] = "z_ps_gc"
+                 /\ IF pollFn[dp[self]] /\ ~CtxAlive(dp[self])
+                       THEN /\ pollFn' = [pollFn EXCEPT ![dp[self]] = FALSE]
+                            /\ h' = PFlag(PFlag(h, dp[self], "in_dropped"), dp[self], "closure_dropped")
+                       ELSE /\ TRUE
+                            /\ UNCHANGED << pollFn, h >>
+                 /\ pc' = [pc EXCEPT ![self] = Head(stack[self]).pc]
+                 /\ dp' = [dp EXCEPT ![self] = Head(stack[self]).dp]
+                 /\ stack' = [stack EXCEPT ![self] = Tail(stack[self])]
+                 /\ UNCHANGED << qstate, qpoll, jobs, wakeBlocked, schedule, 
+                                 pthreads, nspawned, palive, busy, busyLocked, 
+                                 inbox, chanOpen, pfin, thrHeld, maxThreads, 
+                                 jkind, jaw, fres, fwaker, gfired, gwaker, 
+                                 gthreads, dwSt, dwW, dblTaken, dblW1, dblW2, 
+                                 nextDW, ready, cwait, cnotif, cvHeld, sdres, 
+                                 jpanic, sfst, slotSt, qrSent, qrWaker, 
+                                 dnState, dnWaker, parkTok, rv, rwb, rneed, 
+                                 dsl, atomic, strong, ppPending, ppClosed, 
+                                 ppNotify, ppNC, ppBP, ppDepth, ppAlive, 
+                                 ppHeld, inItems, inClosed, inWaker, chuteFn, 
+                                 pwTaken, nextPoll, ppItem, dead, sti, rq, sq, 
+                                 sj, ww, rsq, bown, bwk, bi, bcur, bw, jq, jj, 
+                                 jwk, fj, dq, dj, oq, oop, omode, oj, yq, yop, 
+                                 tq, top, af, wf, wop, sf, sctx, xf, cop, kj, 
+                                 pp, np, nbp, pf, pctx, pq, pj, pd, nq >>
+
+PipeDrop(self) == ps_drop(self) \/ z_ps2(self) \/ z_ps3(self)
+                     \/ z_ps_gc(self)
 
 ds_max(self) == /\ pc[self] = "ds_max"
                 /\ TRUE
@@ -3687,11 +5423,15 @@ ds_max(self) == /\ pc[self] = "ds_max"
                                 gthreads, dwSt, dwW, dblTaken, dblW1, dblW2, 
                                 nextDW, ready, cwait, cnotif, cvHeld, sdres, 
                                 jpanic, sfst, slotSt, qrSent, qrWaker, dnState, 
-                                dnWaker, parkTok, rv, rwb, rneed, dsl, h, 
-                                stack, dead, sti, rq, sq, sj, ww, rsq, bown, 
-                                bwk, bi, bcur, bw, jq, jj, jwk, fj, dq, dj, oq, 
-                                oop, omode, oj, yq, yop, tq, top, af, wf, wop, 
-                                sf, sctx, xf, pf, pctx, pq, pj, pd, nq >>
+                                dnWaker, parkTok, rv, rwb, rneed, dsl, atomic, 
+                                strong, ppPending, ppClosed, ppNotify, ppNC, 
+                                ppBP, ppDepth, ppAlive, ppHeld, inItems, 
+                                inClosed, inWaker, pollFn, chuteFn, pwTaken, 
+                                nextPoll, ppItem, h, stack, dead, sti, rq, sq, 
+                                sj, ww, rsq, bown, bwk, bi, bcur, bw, jq, jj, 
+                                jwk, fj, dq, dj, oq, oop, omode, oj, yq, yop, 
+                                tq, top, af, wf, wop, sf, sctx, xf, cop, kj, 
+                                pp, np, nbp, dp, pf, pctx, pq, pj, pd, nq >>
 
 ds_pop(self) == /\ pc[self] = "ds_pop"
                 /\ thrHeld = ""
@@ -3711,11 +5451,15 @@ ds_pop(self) == /\ pc[self] = "ds_pop"
                                 dblTaken, dblW1, dblW2, nextDW, ready, cwait, 
                                 cnotif, cvHeld, sdres, jpanic, sfst, slotSt, 
                                 qrSent, qrWaker, dnState, dnWaker, parkTok, 
-                                rwb, rneed, h, dead, sti, rq, sq, sj, ww, rsq, 
-                                bown, bwk, bi, bcur, bw, jq, jj, jwk, fj, dq, 
-                                dj, oq, oop, omode, oj, yq, yop, tq, top, af, 
-                                wf, wop, sf, sctx, xf, pf, pctx, pq, pj, pd, 
-                                nq >>
+                                rwb, rneed, atomic, strong, ppPending, 
+                                ppClosed, ppNotify, ppNC, ppBP, ppDepth, 
+                                ppAlive, ppHeld, inItems, inClosed, inWaker, 
+                                pollFn, chuteFn, pwTaken, nextPoll, ppItem, h, 
+                                dead, sti, rq, sq, sj, ww, rsq, bown, bwk, bi, 
+                                bcur, bw, jq, jj, jwk, fj, dq, dj, oq, oop, 
+                                omode, oj, yq, yop, tq, top, af, wf, wop, sf, 
+                                sctx, xf, cop, kj, pp, np, nbp, dp, pf, pctx, 
+                                pq, pj, pd, nq >>
 
 ds_join(self) == /\ pc[self] = "ds_join"
                  /\ pfin[Head(dsl[self])]
@@ -3734,11 +5478,15 @@ ds_join(self) == /\ pc[self] = "ds_join"
                                  gthreads, dwSt, dwW, dblTaken, dblW1, dblW2, 
                                  nextDW, ready, cwait, cnotif, cvHeld, sdres, 
                                  jpanic, sfst, slotSt, qrSent, qrWaker, 
-                                 dnState, dnWaker, parkTok, rwb, rneed, dead, 
-                                 sti, rq, sq, sj, ww, rsq, bown, bwk, bi, bcur, 
-                                 bw, jq, jj, jwk, fj, dq, dj, oq, oop, omode, 
-                                 oj, yq, yop, tq, top, af, wf, wop, sf, sctx, 
-                                 xf, pf, pctx, pq, pj, pd, nq >>
+                                 dnState, dnWaker, parkTok, rwb, rneed, atomic, 
+                                 strong, ppPending, ppClosed, ppNotify, ppNC, 
+                                 ppBP, ppDepth, ppAlive, ppHeld, inItems, 
+                                 inClosed, inWaker, pollFn, chuteFn, pwTaken, 
+                                 nextPoll, ppItem, dead, sti, rq, sq, sj, ww, 
+                                 rsq, bown, bwk, bi, bcur, bw, jq, jj, jwk, fj, 
+                                 dq, dj, oq, oop, omode, oj, yq, yop, tq, top, 
+                                 af, wf, wop, sf, sctx, xf, cop, kj, pp, np, 
+                                 nbp, dp, pf, pctx, pq, pj, pd, nq >>
 
 Despawn(self) == ds_max(self) \/ ds_pop(self) \/ ds_join(self)
 
@@ -3809,11 +5557,15 @@ pf_decide(self) == /\ pc[self] = "pf_decide"
                                    dblTaken, dblW1, dblW2, nextDW, ready, 
                                    cwait, cnotif, cvHeld, sdres, jpanic, sfst, 
                                    slotSt, qrSent, qrWaker, dnState, dnWaker, 
-                                   parkTok, rwb, rneed, dsl, h, dead, sti, rq, 
-                                   sq, sj, ww, rsq, bown, bwk, bi, bcur, bw, 
-                                   jq, jj, jwk, fj, dq, dj, oq, oop, omode, oj, 
-                                   yq, yop, tq, top, af, wf, wop, sf, sctx, xf, 
-                                   nq >>
+                                   parkTok, rwb, rneed, dsl, atomic, strong, 
+                                   ppPending, ppClosed, ppNotify, ppNC, ppBP, 
+                                   ppDepth, ppAlive, ppHeld, inItems, inClosed, 
+                                   inWaker, pollFn, chuteFn, pwTaken, nextPoll, 
+                                   ppItem, h, dead, sti, rq, sq, sj, ww, rsq, 
+                                   bown, bwk, bi, bcur, bw, jq, jj, jwk, fj, 
+                                   dq, dj, oq, oop, omode, oj, yq, yop, tq, 
+                                   top, af, wf, wop, sf, sctx, xf, cop, kj, pp, 
+                                   np, nbp, dp, nq >>
 
 dq_res(self) == /\ pc[self] = "dq_res"
                 /\ IF fres[pf[self]] = "some"
@@ -3833,11 +5585,15 @@ dq_res(self) == /\ pc[self] = "dq_res"
                                 dwSt, dwW, dblTaken, dblW1, dblW2, nextDW, 
                                 ready, cwait, cnotif, cvHeld, sdres, jpanic, 
                                 sfst, slotSt, qrSent, qrWaker, dnState, 
-                                dnWaker, parkTok, rwb, rneed, dsl, h, stack, 
-                                dead, sti, rq, sq, sj, ww, rsq, bown, bwk, bi, 
-                                bcur, bw, jq, jj, jwk, fj, dq, dj, oq, oop, 
-                                omode, oj, yq, yop, tq, top, af, wf, wop, sf, 
-                                sctx, xf, pf, pctx, pq, pj, pd, nq >>
+                                dnWaker, parkTok, rwb, rneed, dsl, atomic, 
+                                strong, ppPending, ppClosed, ppNotify, ppNC, 
+                                ppBP, ppDepth, ppAlive, ppHeld, inItems, 
+                                inClosed, inWaker, pollFn, chuteFn, pwTaken, 
+                                nextPoll, ppItem, h, stack, dead, sti, rq, sq, 
+                                sj, ww, rsq, bown, bwk, bi, bcur, bw, jq, jj, 
+                                jwk, fj, dq, dj, oq, oop, omode, oj, yq, yop, 
+                                tq, top, af, wf, wop, sf, sctx, xf, cop, kj, 
+                                pp, np, nbp, dp, pf, pctx, pq, pj, pd, nq >>
 
 dq_deq(self) == /\ pc[self] = "dq_deq"
                 /\ IF qstate[pq[self]] \in Waiting \/ jobs[pq[self]] = << >>
@@ -3865,10 +5621,15 @@ dq_deq(self) == /\ pc[self] = "dq_deq"
                                 dwSt, dwW, dblTaken, dblW1, dblW2, ready, 
                                 cwait, cnotif, cvHeld, sdres, jpanic, sfst, 
                                 slotSt, qrSent, qrWaker, dnState, dnWaker, 
-                                parkTok, rv, rwb, rneed, dsl, h, dead, sti, rq, 
-                                sq, sj, ww, rsq, bown, bwk, bi, bcur, bw, fj, 
-                                dq, dj, oq, oop, omode, oj, yq, yop, tq, top, 
-                                af, wf, wop, sf, sctx, xf, pf, pctx, pq, nq >>
+                                parkTok, rv, rwb, rneed, dsl, atomic, strong, 
+                                ppPending, ppClosed, ppNotify, ppNC, ppBP, 
+                                ppDepth, ppAlive, ppHeld, inItems, inClosed, 
+                                inWaker, pollFn, chuteFn, pwTaken, nextPoll, 
+                                ppItem, h, dead, sti, rq, sq, sj, ww, rsq, 
+                                bown, bwk, bi, bcur, bw, fj, dq, dj, oq, oop, 
+                                omode, oj, yq, yop, tq, top, af, wf, wop, sf, 
+                                sctx, xf, cop, kj, pp, np, nbp, dp, pf, pctx, 
+                                pq, nq >>
 
 z_dq_after(self) == /\ pc[self] = "z_dq_after"
                     /\ IF rv[self] = 5
@@ -3901,11 +5662,16 @@ z_dq_after(self) == /\ pc[self] = "z_dq_after"
                                     dblTaken, dblW1, dblW2, nextDW, ready, 
                                     cwait, cnotif, cvHeld, sdres, jpanic, sfst, 
                                     slotSt, qrSent, qrWaker, dnState, dnWaker, 
-                                    parkTok, rv, rwb, rneed, dsl, h, dead, sti, 
-                                    rq, sq, sj, ww, rsq, bown, bwk, bi, bcur, 
-                                    bw, jq, jj, jwk, dq, dj, oq, oop, omode, 
-                                    oj, yq, yop, tq, top, af, wf, wop, sf, 
-                                    sctx, xf, pf, pctx, pq, pj, pd, nq >>
+                                    parkTok, rv, rwb, rneed, dsl, atomic, 
+                                    strong, ppPending, ppClosed, ppNotify, 
+                                    ppNC, ppBP, ppDepth, ppAlive, ppHeld, 
+                                    inItems, inClosed, inWaker, pollFn, 
+                                    chuteFn, pwTaken, nextPoll, ppItem, h, 
+                                    dead, sti, rq, sq, sj, ww, rsq, bown, bwk, 
+                                    bi, bcur, bw, jq, jj, jwk, dq, dj, oq, oop, 
+                                    omode, oj, yq, yop, tq, top, af, wf, wop, 
+                                    sf, sctx, xf, cop, kj, pp, np, nbp, dp, pf, 
+                                    pctx, pq, pj, pd, nq >>
 
 dq_requeue(self) == /\ pc[self] = "dq_requeue"
                     /\ jobs' = [jobs EXCEPT ![pq[self]] = << pj[self] >> \o jobs[pq[self]]]
@@ -3918,12 +5684,16 @@ dq_requeue(self) == /\ pc[self] = "dq_requeue"
                                     dblTaken, dblW1, dblW2, nextDW, ready, 
                                     cwait, cnotif, cvHeld, sdres, jpanic, sfst, 
                                     slotSt, qrSent, qrWaker, dnState, dnWaker, 
-                                    parkTok, rv, rwb, rneed, dsl, h, stack, 
-                                    dead, sti, rq, sq, sj, ww, rsq, bown, bwk, 
-                                    bi, bcur, bw, jq, jj, jwk, fj, dq, dj, oq, 
-                                    oop, omode, oj, yq, yop, tq, top, af, wf, 
-                                    wop, sf, sctx, xf, pf, pctx, pq, pj, pd, 
-                                    nq >>
+                                    parkTok, rv, rwb, rneed, dsl, atomic, 
+                                    strong, ppPending, ppClosed, ppNotify, 
+                                    ppNC, ppBP, ppDepth, ppAlive, ppHeld, 
+                                    inItems, inClosed, inWaker, pollFn, 
+                                    chuteFn, pwTaken, nextPoll, ppItem, h, 
+                                    stack, dead, sti, rq, sq, sj, ww, rsq, 
+                                    bown, bwk, bi, bcur, bw, jq, jj, jwk, fj, 
+                                    dq, dj, oq, oop, omode, oj, yq, yop, tq, 
+                                    top, af, wf, wop, sf, sctx, xf, cop, kj, 
+                                    pp, np, nbp, dp, pf, pctx, pq, pj, pd, nq >>
 
 dq_res2(self) == /\ pc[self] = "dq_res2"
                  /\ IF fres[pf[self]] = "some"
@@ -3943,11 +5713,15 @@ dq_res2(self) == /\ pc[self] = "dq_res2"
                                  dwSt, dwW, dblTaken, dblW1, dblW2, nextDW, 
                                  ready, cwait, cnotif, cvHeld, sdres, jpanic, 
                                  sfst, slotSt, qrSent, qrWaker, dnState, 
-                                 dnWaker, parkTok, rwb, rneed, dsl, h, stack, 
-                                 dead, sti, rq, sq, sj, ww, rsq, bown, bwk, bi, 
-                                 bcur, bw, jq, jj, jwk, fj, dq, dj, oq, oop, 
-                                 omode, oj, yq, yop, tq, top, af, wf, wop, sf, 
-                                 sctx, xf, pf, pctx, pq, pj, pd, nq >>
+                                 dnWaker, parkTok, rwb, rneed, dsl, atomic, 
+                                 strong, ppPending, ppClosed, ppNotify, ppNC, 
+                                 ppBP, ppDepth, ppAlive, ppHeld, inItems, 
+                                 inClosed, inWaker, pollFn, chuteFn, pwTaken, 
+                                 nextPoll, ppItem, h, stack, dead, sti, rq, sq, 
+                                 sj, ww, rsq, bown, bwk, bi, bcur, bw, jq, jj, 
+                                 jwk, fj, dq, dj, oq, oop, omode, oj, yq, yop, 
+                                 tq, top, af, wf, wop, sf, sctx, xf, cop, kj, 
+                                 pp, np, nbp, dp, pf, pctx, pq, pj, pd, nq >>
 
 dq_waitwake(self) == /\ pc[self] = "dq_waitwake"
                      /\ qstate' = [qstate EXCEPT ![pq[self]] = "WaitingForWake"]
@@ -3961,11 +5735,16 @@ dq_waitwake(self) == /\ pc[self] = "dq_waitwake"
                                      ready, cwait, cnotif, cvHeld, sdres, 
                                      jpanic, sfst, slotSt, qrSent, qrWaker, 
                                      dnState, dnWaker, parkTok, rv, rwb, rneed, 
-                                     dsl, h, stack, dead, sti, rq, sq, sj, ww, 
-                                     rsq, bown, bwk, bi, bcur, bw, jq, jj, jwk, 
-                                     fj, dq, dj, oq, oop, omode, oj, yq, yop, 
-                                     tq, top, af, wf, wop, sf, sctx, xf, pf, 
-                                     pctx, pq, pj, pd, nq >>
+                                     dsl, atomic, strong, ppPending, ppClosed, 
+                                     ppNotify, ppNC, ppBP, ppDepth, ppAlive, 
+                                     ppHeld, inItems, inClosed, inWaker, 
+                                     pollFn, chuteFn, pwTaken, nextPoll, 
+                                     ppItem, h, stack, dead, sti, rq, sq, sj, 
+                                     ww, rsq, bown, bwk, bi, bcur, bw, jq, jj, 
+                                     jwk, fj, dq, dj, oq, oop, omode, oj, yq, 
+                                     yop, tq, top, af, wf, wop, sf, sctx, xf, 
+                                     cop, kj, pp, np, nbp, dp, pf, pctx, pq, 
+                                     pj, pd, nq >>
 
 dq_ww1(self) == /\ pc[self] = "dq_ww1"
                 /\ IF dwSt[pd[self]] = "Woken"
@@ -3987,11 +5766,15 @@ dq_ww1(self) == /\ pc[self] = "dq_ww1"
                                 gthreads, dblTaken, dblW1, dblW2, nextDW, 
                                 ready, cwait, cnotif, cvHeld, sdres, jpanic, 
                                 sfst, slotSt, qrSent, qrWaker, dnState, 
-                                dnWaker, parkTok, rv, rwb, rneed, dsl, h, dead, 
-                                sti, rq, sq, sj, rsq, bown, bwk, bi, bcur, bw, 
-                                jq, jj, jwk, fj, dq, dj, oq, oop, omode, oj, 
-                                yq, yop, tq, top, af, wf, wop, sf, sctx, xf, 
-                                pf, pctx, pq, pj, pd, nq >>
+                                dnWaker, parkTok, rv, rwb, rneed, dsl, atomic, 
+                                strong, ppPending, ppClosed, ppNotify, ppNC, 
+                                ppBP, ppDepth, ppAlive, ppHeld, inItems, 
+                                inClosed, inWaker, pollFn, chuteFn, pwTaken, 
+                                nextPoll, ppItem, h, dead, sti, rq, sq, sj, 
+                                rsq, bown, bwk, bi, bcur, bw, jq, jj, jwk, fj, 
+                                dq, dj, oq, oop, omode, oj, yq, yop, tq, top, 
+                                af, wf, wop, sf, sctx, xf, cop, kj, pp, np, 
+                                nbp, dp, pf, pctx, pq, pj, pd, nq >>
 
 z_dq_ready(self) == /\ pc[self] = "z_dq_ready"
                     /\ pc' = [pc EXCEPT ![self] = Head(stack[self]).pc]
@@ -4009,11 +5792,16 @@ z_dq_ready(self) == /\ pc[self] = "z_dq_ready"
                                     dblTaken, dblW1, dblW2, nextDW, ready, 
                                     cwait, cnotif, cvHeld, sdres, jpanic, sfst, 
                                     slotSt, qrSent, qrWaker, dnState, dnWaker, 
-                                    parkTok, rv, rwb, rneed, dsl, h, dead, sti, 
-                                    rq, sq, sj, ww, rsq, bown, bwk, bi, bcur, 
-                                    bw, jq, jj, jwk, fj, dq, dj, oq, oop, 
-                                    omode, oj, yq, yop, tq, top, af, wf, wop, 
-                                    sf, sctx, xf, nq >>
+                                    parkTok, rv, rwb, rneed, dsl, atomic, 
+                                    strong, ppPending, ppClosed, ppNotify, 
+                                    ppNC, ppBP, ppDepth, ppAlive, ppHeld, 
+                                    inItems, inClosed, inWaker, pollFn, 
+                                    chuteFn, pwTaken, nextPoll, ppItem, h, 
+                                    dead, sti, rq, sq, sj, ww, rsq, bown, bwk, 
+                                    bi, bcur, bw, jq, jj, jwk, fj, dq, dj, oq, 
+                                    oop, omode, oj, yq, yop, tq, top, af, wf, 
+                                    wop, sf, sctx, xf, cop, kj, pp, np, nbp, 
+                                    dp, nq >>
 
 dq_setwaker(self) == /\ pc[self] = "dq_setwaker"
                      /\ fwaker' = [fwaker EXCEPT ![pf[self]] = pctx[self]]
@@ -4026,12 +5814,17 @@ dq_setwaker(self) == /\ pc[self] = "dq_setwaker"
                                      dblTaken, dblW1, dblW2, nextDW, ready, 
                                      cwait, cnotif, cvHeld, sdres, jpanic, 
                                      sfst, slotSt, qrSent, qrWaker, dnState, 
-                                     dnWaker, parkTok, rv, rwb, rneed, dsl, h, 
-                                     stack, dead, sti, rq, sq, sj, ww, rsq, 
-                                     bown, bwk, bi, bcur, bw, jq, jj, jwk, fj, 
-                                     dq, dj, oq, oop, omode, oj, yq, yop, tq, 
-                                     top, af, wf, wop, sf, sctx, xf, pf, pctx, 
-                                     pq, pj, pd, nq >>
+                                     dnWaker, parkTok, rv, rwb, rneed, dsl, 
+                                     atomic, strong, ppPending, ppClosed, 
+                                     ppNotify, ppNC, ppBP, ppDepth, ppAlive, 
+                                     ppHeld, inItems, inClosed, inWaker, 
+                                     pollFn, chuteFn, pwTaken, nextPoll, 
+                                     ppItem, h, stack, dead, sti, rq, sq, sj, 
+                                     ww, rsq, bown, bwk, bi, bcur, bw, jq, jj, 
+                                     jwk, fj, dq, dj, oq, oop, omode, oj, yq, 
+                                     yop, tq, top, af, wf, wop, sf, sctx, xf, 
+                                     cop, kj, pp, np, nbp, dp, pf, pctx, pq, 
+                                     pj, pd, nq >>
 
 dq_waitpoll(self) == /\ pc[self] = "dq_waitpoll"
                      /\ qstate' = [qstate EXCEPT ![pq[self]] = "WaitingForPoll"]
@@ -4045,12 +5838,16 @@ dq_waitpoll(self) == /\ pc[self] = "dq_waitpoll"
                                      dblW2, nextDW, ready, cwait, cnotif, 
                                      cvHeld, sdres, jpanic, sfst, slotSt, 
                                      qrSent, qrWaker, dnState, dnWaker, 
-                                     parkTok, rv, rwb, rneed, dsl, h, stack, 
-                                     dead, sti, rq, sq, sj, ww, rsq, bown, bwk, 
-                                     bi, bcur, bw, jq, jj, jwk, fj, dq, dj, oq, 
-                                     oop, omode, oj, yq, yop, tq, top, af, wf, 
-                                     wop, sf, sctx, xf, pf, pctx, pq, pj, pd, 
-                                     nq >>
+                                     parkTok, rv, rwb, rneed, dsl, atomic, 
+                                     strong, ppPending, ppClosed, ppNotify, 
+                                     ppNC, ppBP, ppDepth, ppAlive, ppHeld, 
+                                     inItems, inClosed, inWaker, pollFn, 
+                                     chuteFn, pwTaken, nextPoll, ppItem, h, 
+                                     stack, dead, sti, rq, sq, sj, ww, rsq, 
+                                     bown, bwk, bi, bcur, bw, jq, jj, jwk, fj, 
+                                     dq, dj, oq, oop, omode, oj, yq, yop, tq, 
+                                     top, af, wf, wop, sf, sctx, xf, cop, kj, 
+                                     pp, np, nbp, dp, pf, pctx, pq, pj, pd, nq >>
 
 dq_ww2(self) == /\ pc[self] = "dq_ww2"
                 /\ dblW1' = [dblW1 EXCEPT ![pd[self]] = WQ(pq[self])]
@@ -4074,11 +5871,15 @@ dq_ww2(self) == /\ pc[self] = "dq_ww2"
                                 gthreads, dblTaken, nextDW, ready, cwait, 
                                 cnotif, cvHeld, sdres, jpanic, sfst, slotSt, 
                                 qrSent, qrWaker, dnState, dnWaker, parkTok, rv, 
-                                rwb, rneed, dsl, h, dead, sti, rq, sq, sj, rsq, 
-                                bown, bwk, bi, bcur, bw, jq, jj, jwk, fj, dq, 
-                                dj, oq, oop, omode, oj, yq, yop, tq, top, af, 
-                                wf, wop, sf, sctx, xf, pf, pctx, pq, pj, pd, 
-                                nq >>
+                                rwb, rneed, dsl, atomic, strong, ppPending, 
+                                ppClosed, ppNotify, ppNC, ppBP, ppDepth, 
+                                ppAlive, ppHeld, inItems, inClosed, inWaker, 
+                                pollFn, chuteFn, pwTaken, nextPoll, ppItem, h, 
+                                dead, sti, rq, sq, sj, rsq, bown, bwk, bi, 
+                                bcur, bw, jq, jj, jwk, fj, dq, dj, oq, oop, 
+                                omode, oj, yq, yop, tq, top, af, wf, wop, sf, 
+                                sctx, xf, cop, kj, pp, np, nbp, dp, pf, pctx, 
+                                pq, pj, pd, nq >>
 
 z_dq_pending(self) == /\ pc[self] = "z_dq_pending"
                       /\ rv' = [rv EXCEPT ![self] = 5]
@@ -4098,10 +5899,15 @@ z_dq_pending(self) == /\ pc[self] = "z_dq_pending"
                                       ready, cwait, cnotif, cvHeld, sdres, 
                                       jpanic, sfst, slotSt, qrSent, qrWaker, 
                                       dnState, dnWaker, parkTok, rwb, rneed, 
-                                      dsl, h, dead, sti, rq, sq, sj, ww, rsq, 
-                                      bown, bwk, bi, bcur, bw, jq, jj, jwk, fj, 
-                                      dq, dj, oq, oop, omode, oj, yq, yop, tq, 
-                                      top, af, wf, wop, sf, sctx, xf, nq >>
+                                      dsl, atomic, strong, ppPending, ppClosed, 
+                                      ppNotify, ppNC, ppBP, ppDepth, ppAlive, 
+                                      ppHeld, inItems, inClosed, inWaker, 
+                                      pollFn, chuteFn, pwTaken, nextPoll, 
+                                      ppItem, h, dead, sti, rq, sq, sj, ww, 
+                                      rsq, bown, bwk, bi, bcur, bw, jq, jj, 
+                                      jwk, fj, dq, dj, oq, oop, omode, oj, yq, 
+                                      yop, tq, top, af, wf, wop, sf, sctx, xf, 
+                                      cop, kj, pp, np, nbp, dp, nq >>
 
 dq_empty_w(self) == /\ pc[self] = "dq_empty_w"
                     /\ fwaker' = [fwaker EXCEPT ![pf[self]] = pctx[self]]
@@ -4114,11 +5920,16 @@ dq_empty_w(self) == /\ pc[self] = "dq_empty_w"
                                     dblW1, dblW2, nextDW, ready, cwait, cnotif, 
                                     cvHeld, sdres, jpanic, sfst, slotSt, 
                                     qrSent, qrWaker, dnState, dnWaker, parkTok, 
-                                    rv, rwb, rneed, dsl, h, stack, dead, sti, 
-                                    rq, sq, sj, ww, rsq, bown, bwk, bi, bcur, 
-                                    bw, jq, jj, jwk, fj, dq, dj, oq, oop, 
+                                    rv, rwb, rneed, dsl, atomic, strong, 
+                                    ppPending, ppClosed, ppNotify, ppNC, ppBP, 
+                                    ppDepth, ppAlive, ppHeld, inItems, 
+                                    inClosed, inWaker, pollFn, chuteFn, 
+                                    pwTaken, nextPoll, ppItem, h, stack, dead, 
+                                    sti, rq, sq, sj, ww, rsq, bown, bwk, bi, 
+                                    bcur, bw, jq, jj, jwk, fj, dq, dj, oq, oop, 
                                     omode, oj, yq, yop, tq, top, af, wf, wop, 
-                                    sf, sctx, xf, pf, pctx, pq, pj, pd, nq >>
+                                    sf, sctx, xf, cop, kj, pp, np, nbp, dp, pf, 
+                                    pctx, pq, pj, pd, nq >>
 
 dq_empty_idle(self) == /\ pc[self] = "dq_empty_idle"
                        /\ qstate' = [qstate EXCEPT ![pq[self]] = "Idle"]
@@ -4137,11 +5948,16 @@ dq_empty_idle(self) == /\ pc[self] = "dq_empty_idle"
                                        ready, cwait, cnotif, cvHeld, sdres, 
                                        jpanic, sfst, slotSt, qrSent, qrWaker, 
                                        dnState, dnWaker, parkTok, rv, rwb, 
-                                       rneed, dsl, h, dead, sti, sq, sj, ww, 
-                                       rsq, bown, bwk, bi, bcur, bw, jq, jj, 
-                                       jwk, fj, dq, dj, oq, oop, omode, oj, yq, 
-                                       yop, tq, top, af, wf, wop, sf, sctx, xf, 
-                                       pf, pctx, pq, pj, pd, nq >>
+                                       rneed, dsl, atomic, strong, ppPending, 
+                                       ppClosed, ppNotify, ppNC, ppBP, ppDepth, 
+                                       ppAlive, ppHeld, inItems, inClosed, 
+                                       inWaker, pollFn, chuteFn, pwTaken, 
+                                       nextPoll, ppItem, h, dead, sti, sq, sj, 
+                                       ww, rsq, bown, bwk, bi, bcur, bw, jq, 
+                                       jj, jwk, fj, dq, dj, oq, oop, omode, oj, 
+                                       yq, yop, tq, top, af, wf, wop, sf, sctx, 
+                                       xf, cop, kj, pp, np, nbp, dp, pf, pctx, 
+                                       pq, pj, pd, nq >>
 
 dq_idle(self) == /\ pc[self] = "dq_idle"
                  /\ qstate' = [qstate EXCEPT ![pq[self]] = "Idle"]
@@ -4158,11 +5974,15 @@ dq_idle(self) == /\ pc[self] = "dq_idle"
                                  dwSt, dwW, dblTaken, dblW1, dblW2, nextDW, 
                                  ready, cwait, cnotif, cvHeld, sdres, jpanic, 
                                  sfst, slotSt, qrSent, qrWaker, dnState, 
-                                 dnWaker, parkTok, rv, rwb, rneed, dsl, h, 
-                                 dead, sti, sq, sj, ww, rsq, bown, bwk, bi, 
-                                 bcur, bw, jq, jj, jwk, fj, dq, dj, oq, oop, 
-                                 omode, oj, yq, yop, tq, top, af, wf, wop, sf, 
-                                 sctx, xf, pf, pctx, pq, pj, pd, nq >>
+                                 dnWaker, parkTok, rv, rwb, rneed, dsl, atomic, 
+                                 strong, ppPending, ppClosed, ppNotify, ppNC, 
+                                 ppBP, ppDepth, ppAlive, ppHeld, inItems, 
+                                 inClosed, inWaker, pollFn, chuteFn, pwTaken, 
+                                 nextPoll, ppItem, h, dead, sti, sq, sj, ww, 
+                                 rsq, bown, bwk, bi, bcur, bw, jq, jj, jwk, fj, 
+                                 dq, dj, oq, oop, omode, oj, yq, yop, tq, top, 
+                                 af, wf, wop, sf, sctx, xf, cop, kj, pp, np, 
+                                 nbp, dp, pf, pctx, pq, pj, pd, nq >>
 
 dq_panic(self) == /\ pc[self] = "dq_panic"
                   /\ qstate' = [qstate EXCEPT ![pq[self]] = "Panicked"]
@@ -4181,11 +6001,15 @@ dq_panic(self) == /\ pc[self] = "dq_panic"
                                   dwSt, dwW, dblTaken, dblW1, dblW2, nextDW, 
                                   ready, cwait, cnotif, cvHeld, sdres, jpanic, 
                                   sfst, slotSt, qrSent, qrWaker, dnState, 
-                                  dnWaker, parkTok, rwb, rneed, dsl, h, dead, 
-                                  sti, rq, sq, sj, ww, rsq, bown, bwk, bi, 
-                                  bcur, bw, jq, jj, jwk, fj, dq, dj, oq, oop, 
-                                  omode, oj, yq, yop, tq, top, af, wf, wop, sf, 
-                                  sctx, xf, nq >>
+                                  dnWaker, parkTok, rwb, rneed, dsl, atomic, 
+                                  strong, ppPending, ppClosed, ppNotify, ppNC, 
+                                  ppBP, ppDepth, ppAlive, ppHeld, inItems, 
+                                  inClosed, inWaker, pollFn, chuteFn, pwTaken, 
+                                  nextPoll, ppItem, h, dead, sti, rq, sq, sj, 
+                                  ww, rsq, bown, bwk, bi, bcur, bw, jq, jj, 
+                                  jwk, fj, dq, dj, oq, oop, omode, oj, yq, yop, 
+                                  tq, top, af, wf, wop, sf, sctx, xf, cop, kj, 
+                                  pp, np, nbp, dp, nq >>
 
 PollFuture(self) == pf_decide(self) \/ dq_res(self) \/ dq_deq(self)
                        \/ z_dq_after(self) \/ dq_requeue(self)
@@ -4221,10 +6045,14 @@ c_start(self) == /\ pc[self] = "c_start"
                                  nextDW, ready, cwait, cnotif, cvHeld, sdres, 
                                  jpanic, sfst, slotSt, qrSent, qrWaker, 
                                  dnState, dnWaker, parkTok, rv, rwb, rneed, 
-                                 dsl, h, dead, sti, rq, sq, sj, ww, jq, jj, 
-                                 jwk, fj, dq, dj, oq, oop, omode, oj, yq, yop, 
-                                 tq, top, af, wf, wop, sf, sctx, xf, pf, pctx, 
-                                 pq, pj, pd, nq >>
+                                 dsl, atomic, strong, ppPending, ppClosed, 
+                                 ppNotify, ppNC, ppBP, ppDepth, ppAlive, 
+                                 ppHeld, inItems, inClosed, inWaker, pollFn, 
+                                 chuteFn, pwTaken, nextPoll, ppItem, h, dead, 
+                                 sti, rq, sq, sj, ww, jq, jj, jwk, fj, dq, dj, 
+                                 oq, oop, omode, oj, yq, yop, tq, top, af, wf, 
+                                 wop, sf, sctx, xf, cop, kj, pp, np, nbp, dp, 
+                                 pf, pctx, pq, pj, pd, nq >>
 
 z_c_exit(self) == /\ pc[self] = "z_c_exit"
                   /\ h' = ObsExit(h, self, 0, 0)
@@ -4237,11 +6065,15 @@ z_c_exit(self) == /\ pc[self] = "z_c_exit"
                                   nextDW, ready, cwait, cnotif, cvHeld, sdres, 
                                   jpanic, sfst, slotSt, qrSent, qrWaker, 
                                   dnState, dnWaker, parkTok, rv, rwb, rneed, 
-                                  dsl, stack, dead, sti, rq, sq, sj, ww, rsq, 
-                                  bown, bwk, bi, bcur, bw, jq, jj, jwk, fj, dq, 
-                                  dj, oq, oop, omode, oj, yq, yop, tq, top, af, 
-                                  wf, wop, sf, sctx, xf, pf, pctx, pq, pj, pd, 
-                                  nq >>
+                                  dsl, atomic, strong, ppPending, ppClosed, 
+                                  ppNotify, ppNC, ppBP, ppDepth, ppAlive, 
+                                  ppHeld, inItems, inClosed, inWaker, pollFn, 
+                                  chuteFn, pwTaken, nextPoll, ppItem, stack, 
+                                  dead, sti, rq, sq, sj, ww, rsq, bown, bwk, 
+                                  bi, bcur, bw, jq, jj, jwk, fj, dq, dj, oq, 
+                                  oop, omode, oj, yq, yop, tq, top, af, wf, 
+                                  wop, sf, sctx, xf, cop, kj, pp, np, nbp, dp, 
+                                  pf, pctx, pq, pj, pd, nq >>
 
 caller(self) == c_start(self) \/ z_c_exit(self)
 
@@ -4262,11 +6094,15 @@ pt_recv(self) == /\ pc[self] = "pt_recv"
                                  dwW, dblTaken, dblW1, dblW2, nextDW, ready, 
                                  cwait, cnotif, cvHeld, sdres, jpanic, sfst, 
                                  slotSt, qrSent, qrWaker, dnState, dnWaker, 
-                                 parkTok, rv, rwb, rneed, dsl, stack, dead, 
-                                 sti, rq, sq, sj, ww, rsq, bown, bwk, bi, bcur, 
-                                 bw, jq, jj, jwk, fj, dq, dj, oq, oop, omode, 
-                                 oj, yq, yop, tq, top, af, wf, wop, sf, sctx, 
-                                 xf, pf, pctx, pq, pj, pd, nq >>
+                                 parkTok, rv, rwb, rneed, dsl, atomic, strong, 
+                                 ppPending, ppClosed, ppNotify, ppNC, ppBP, 
+                                 ppDepth, ppAlive, ppHeld, inItems, inClosed, 
+                                 inWaker, pollFn, chuteFn, pwTaken, nextPoll, 
+                                 ppItem, stack, dead, sti, rq, sq, sj, ww, rsq, 
+                                 bown, bwk, bi, bcur, bw, jq, jj, jwk, fj, dq, 
+                                 dj, oq, oop, omode, oj, yq, yop, tq, top, af, 
+                                 wf, wop, sf, sctx, xf, cop, kj, pp, np, nbp, 
+                                 dp, pf, pctx, pq, pj, pd, nq >>
 
 pt_next(self) == /\ pc[self] = "pt_next"
                  /\ LET r == NTR(schedule) IN
@@ -4286,10 +6122,15 @@ pt_next(self) == /\ pc[self] = "pt_next"
                                  dblW2, nextDW, ready, cwait, cnotif, cvHeld, 
                                  sdres, jpanic, sfst, slotSt, qrSent, qrWaker, 
                                  dnState, dnWaker, parkTok, rv, rwb, rneed, 
-                                 dsl, h, stack, dead, sti, rq, sq, sj, ww, rsq, 
-                                 bown, bwk, bi, bcur, bw, jq, jj, jwk, fj, dq, 
-                                 dj, oq, oop, omode, oj, yq, yop, tq, top, af, 
-                                 wf, wop, sf, sctx, xf, pf, pctx, pq, pj, pd >>
+                                 dsl, atomic, strong, ppPending, ppClosed, 
+                                 ppNotify, ppNC, ppBP, ppDepth, ppAlive, 
+                                 ppHeld, inItems, inClosed, inWaker, pollFn, 
+                                 chuteFn, pwTaken, nextPoll, ppItem, h, stack, 
+                                 dead, sti, rq, sq, sj, ww, rsq, bown, bwk, bi, 
+                                 bcur, bw, jq, jj, jwk, fj, dq, dj, oq, oop, 
+                                 omode, oj, yq, yop, tq, top, af, wf, wop, sf, 
+                                 sctx, xf, cop, kj, pp, np, nbp, dp, pf, pctx, 
+                                 pq, pj, pd >>
 
 pt_after(self) == /\ pc[self] = "pt_after"
                   /\ busyLocked' = [busyLocked EXCEPT ![self] = FALSE]
@@ -4313,11 +6154,15 @@ pt_after(self) == /\ pc[self] = "pt_after"
                                   dblTaken, dblW1, dblW2, nextDW, ready, cwait, 
                                   cnotif, cvHeld, sdres, jpanic, sfst, slotSt, 
                                   qrSent, qrWaker, dnState, dnWaker, parkTok, 
-                                  rv, rwb, rneed, dsl, h, dead, sti, rq, sq, 
-                                  sj, ww, rsq, bown, bwk, bi, bcur, bw, jq, jj, 
-                                  jwk, fj, oq, oop, omode, oj, yq, yop, tq, 
-                                  top, af, wf, wop, sf, sctx, xf, pf, pctx, pq, 
-                                  pj, pd, nq >>
+                                  rv, rwb, rneed, dsl, atomic, strong, 
+                                  ppPending, ppClosed, ppNotify, ppNC, ppBP, 
+                                  ppDepth, ppAlive, ppHeld, inItems, inClosed, 
+                                  inWaker, pollFn, chuteFn, pwTaken, nextPoll, 
+                                  ppItem, h, dead, sti, rq, sq, sj, ww, rsq, 
+                                  bown, bwk, bi, bcur, bw, jq, jj, jwk, fj, oq, 
+                                  oop, omode, oj, yq, yop, tq, top, af, wf, 
+                                  wop, sf, sctx, xf, cop, kj, pp, np, nbp, dp, 
+                                  pf, pctx, pq, pj, pd, nq >>
 
 z_pt_chk(self) == /\ pc[self] = "z_pt_chk"
                   /\ IF rv[self] = 9
@@ -4333,11 +6178,16 @@ z_pt_chk(self) == /\ pc[self] = "z_pt_chk"
                                   dwSt, dwW, dblTaken, dblW1, dblW2, nextDW, 
                                   ready, cwait, cnotif, cvHeld, sdres, jpanic, 
                                   sfst, slotSt, qrSent, qrWaker, dnState, 
-                                  dnWaker, parkTok, rv, rwb, rneed, dsl, stack, 
+                                  dnWaker, parkTok, rv, rwb, rneed, dsl, 
+                                  atomic, strong, ppPending, ppClosed, 
+                                  ppNotify, ppNC, ppBP, ppDepth, ppAlive, 
+                                  ppHeld, inItems, inClosed, inWaker, pollFn, 
+                                  chuteFn, pwTaken, nextPoll, ppItem, stack, 
                                   dead, sti, rq, sq, sj, ww, rsq, bown, bwk, 
                                   bi, bcur, bw, jq, jj, jwk, fj, dq, dj, oq, 
                                   oop, omode, oj, yq, yop, tq, top, af, wf, 
-                                  wop, sf, sctx, xf, pf, pctx, pq, pj, pd, nq >>
+                                  wop, sf, sctx, xf, cop, kj, pp, np, nbp, dp, 
+                                  pf, pctx, pq, pj, pd, nq >>
 
 z_pt_done(self) == /\ pc[self] = "z_pt_done"
                    /\ TRUE
@@ -4350,11 +6200,16 @@ z_pt_done(self) == /\ pc[self] = "z_pt_done"
                                    dblTaken, dblW1, dblW2, nextDW, ready, 
                                    cwait, cnotif, cvHeld, sdres, jpanic, sfst, 
                                    slotSt, qrSent, qrWaker, dnState, dnWaker, 
-                                   parkTok, rv, rwb, rneed, dsl, h, stack, 
-                                   dead, sti, rq, sq, sj, ww, rsq, bown, bwk, 
-                                   bi, bcur, bw, jq, jj, jwk, fj, dq, dj, oq, 
-                                   oop, omode, oj, yq, yop, tq, top, af, wf, 
-                                   wop, sf, sctx, xf, pf, pctx, pq, pj, pd, nq >>
+                                   parkTok, rv, rwb, rneed, dsl, atomic, 
+                                   strong, ppPending, ppClosed, ppNotify, ppNC, 
+                                   ppBP, ppDepth, ppAlive, ppHeld, inItems, 
+                                   inClosed, inWaker, pollFn, chuteFn, pwTaken, 
+                                   nextPoll, ppItem, h, stack, dead, sti, rq, 
+                                   sq, sj, ww, rsq, bown, bwk, bi, bcur, bw, 
+                                   jq, jj, jwk, fj, dq, dj, oq, oop, omode, oj, 
+                                   yq, yop, tq, top, af, wf, wop, sf, sctx, xf, 
+                                   cop, kj, pp, np, nbp, dp, pf, pctx, pq, pj, 
+                                   pd, nq >>
 
 pool(self) == pt_recv(self) \/ pt_next(self) \/ pt_after(self)
                  \/ z_pt_chk(self) \/ z_pt_done(self)
@@ -4370,7 +6225,9 @@ Next == (\E self \in ProcSet:  \/ ScheduleThread(self) \/ Reschedule(self)
                                \/ RunOne(self) \/ Sync(self)
                                \/ TrySync(self) \/ Await(self)
                                \/ WaitSync(self) \/ PollSync(self)
-                               \/ DropFuture(self) \/ Despawn(self)
+                               \/ DropFuture(self) \/ PipeCreate(self)
+                               \/ PipePoll(self) \/ PipeNext(self)
+                               \/ PipeDrop(self) \/ Despawn(self)
                                \/ PollFuture(self))
            \/ (\E self \in Threads: caller(self))
            \/ (\E self \in PoolSet: pool(self))
